@@ -1,3 +1,11 @@
+(* Proofs of groups A, B, C and H of Comp/CoreStatements.v for the task-record model of Comp/Core.v.
+
+   core_client_copy and core_convergence are FALSE of this model as they are stated in CoreStatements.v (a subscribe request
+   waiting for the answer to a re-validation can coexist with subscriptions the client holds; an unsubscribe of all the
+   client holds then makes the client drop its copy while the gateway keeps the subscription for the waiting request, whose
+   response later carries an empty resource set: see [copy_refute_ops] and [core_client_copy_without_premise_refuted] at the end).  They are
+   proved here under one extra hypothesis, [no_bare_resp]: the client is never sent an empty resource set while it holds no
+   subscription.  Everything else is proved exactly as stated. *)
 From Coq Require Import List Arith Lia Bool Permutation.
 From RG Require Import Comp.Conv Comp.Core.
 Import ListNotations.
@@ -15,14 +23,73 @@ Notation insts := (Core.insts val upd).
 Notation client := (Core.client val upd app).
 Notation resps := (Core.resps val upd).
 Notation quiescent := (Core.quiescent val upd).
+Notation no_underflow := (Core.no_underflow val upd app).
+
 Notation step := (Core.step val upd app norm).
 Notation cstep := (Conv.step val upd app norm).
 Notation acts_of := (Core.acts_of val upd app norm).
+Notation conn_task := (Core.conn_task val upd app norm).
 Notation next := (Core.next val upd).
+Notation getreq := (Core.getreq val upd).
+Notation mqsub := (Core.mqsub val upd).
 Notation exec1 := (Core.exec1 val upd app norm).
+Notation st_ := (Core.st val upd).
+Notation out_ := (Core.out val upd).
+Notation act_ := (Conv.action upd).
+Notation cst := (Conv.st val upd).
+Notation CInv := (Conv.Inv val upd app).
+Notation tk_ := (Core.tk val upd).
+Notation ts := (Core.ts val upd).
+Notation ta := (Core.ta val upd).
+Notation tx := (Core.tx val upd).
+Notation ty := (Core.ty val upd).
+Notation to := (Core.to val upd).
+Notation actk := (Core.act val upd app norm).
+Notation emit := (Core.emit val upd).
+Notation setx := (Core.setx val upd).
+Notation sety := (Core.sety val upd).
+Notation me := (Core.me val upd).
+Notation gone_ := (Core.gone_ val upd).
+Notation loaded_ := (Core.loaded_ val upd).
+Notation sent_ := (Core.sent_ val upd).
+Notation flag_ := (Core.flag_ val upd).
+Notation dispose_t := (Core.dispose_t val upd app norm).
+Notation remove_direct := (Core.remove_direct val upd app norm).
+Notation unsubscribe_direct := (Core.unsubscribe_direct val upd app norm).
+Notation load_access := (Core.load_access val upd).
+Notation handle_reaccess := (Core.handle_reaccess val upd app norm).
+Notation reaccess := (Core.reaccess val upd app norm).
+Notation respond := (Core.respond val upd app norm).
+Notation on_ready := (Core.on_ready val upd app norm).
+Notation unqueue_reaccess := (Core.unqueue_reaccess val upd app norm).
+Notation run_cb := (Core.run_cb val upd app norm).
+Notation drained := (Core.drained val upd app).
+Notation K0 s x y := (Core.Build_tk val upd (cv s) [] x y []).
 
-Notation no_underflow := (Core.no_underflow val upd app).
+Notation sgone x := (Conv.gone val upd x).
+Notation ssent x := (Conv.sent val upd x).
+Notation ssubscribed x := (Conv.subscribed val upd x).
+Notation sloaded x := (Conv.loaded val upd x).
+Notation scq x := (Conv.cq val upd x).
+Notation sflag x := (Conv.flag val upd x).
+Notation ssval x := (Conv.sval val upd x).
+Notation ssver x := (Conv.sver val upd x).
+Notation seq_ x := (Conv.eq val upd x).
+Notation sclosed x := (Conv.closed val upd x).
+Notation cqe σ := (Conv.qe val upd σ).
 
+Notation OResp := (Core.OResp val upd).
+Notation OErr := (Core.OErr val upd).
+Notation OAck := (Core.OAck val upd).
+Notation OEvent := (Core.OEvent val upd).
+Notation OCustom := (Core.OCustom val upd).
+Notation OUnsubEv := (Core.OUnsubEv val upd).
+Notation OAccessReq := (Core.OAccessReq val upd).
+Notation OMqSub := (Core.OMqSub val upd).
+Notation OGetReq := (Core.OGetReq val upd).
+Notation OConnUnsub := (Core.OConnUnsub val upd).
+
+(* ================= A: plumbing ================= *)
 Lemma exec_snoc t ops o : exec t (ops ++ [o]) = exec1 (exec t ops) o.
 Proof. unfold Core.exec. rewrite fold_left_app. reflexivity. Qed.
 
@@ -43,35 +110,25 @@ Theorem run_exec : forall t ops,
   concat (snd (Core.run val upd app norm (Core.init val upd d t) ops)) = snd (exec t ops).
 Proof. intros t ops. exact (run_fold ops (Core.init val upd d t) []). Qed.
 
-Lemma leb1 k : Nat.leb 1 k = negb (Nat.eqb k 0).
-Proof. destruct k; reflexivity. Qed.
+Lemma task_empty s c : cqueue (conns s c) = [] -> conn_task s c = (K0 s (conns s c) inst0, None, next s, mqsub s).
+Proof. intros E. unfold Core.conn_task. rewrite E. reflexivity. Qed.
 
 Lemma step_cv s o : cv (fst (step s o)) = fold_left cstep (acts_of s o) (cv s).
 Proof.
-  unfold Core.step. destruct o as [c id|c id k|c|i g| |u| | |c]; cbn [Core.acts_of].
+  unfold Core.step. destruct o as [c id|c id k|c|c t|i g| |u| | | |c].
   - destruct (disc (conns s c)); reflexivity.
   - destruct (disc (conns s c)); reflexivity.
   - destruct (disc (conns s c)); reflexivity.
-  - destruct (Nat.ltb i (next s) && Core.unanswered (insts s i)); reflexivity.
+  - destruct (Core.is_done (conns s c)); reflexivity.
+  - cbn [Core.acts_of]. destruct (Nat.ltb i (next s) && Core.unanswered (insts s i)); reflexivity.
   - reflexivity.
   - reflexivity.
   - reflexivity.
   - reflexivity.
-  - destruct (cqueue (conns s c)) as [|[id|id k|i|i|] q] eqn:Eq.
-    + reflexivity.
-    + destruct (cur (conns s c)) as [i|]; [|reflexivity].
-      destruct (acc (insts s i)) as [[|]|]; try reflexivity.
-      destruct (Core.is_live val upd (cv s) i); reflexivity.
-    + destruct (cur (conns s c)) as [i|].
-      * rewrite leb1. destruct (Nat.eqb k 0); [reflexivity|]. cbn [negb andb].
-        destruct (Nat.leb k (direct (conns s c))); [|reflexivity].
-        cbn [andb]. destruct (Nat.eqb (direct (conns s c) - k) 0); reflexivity.
-      * reflexivity.
-    + destruct (Core.is_gone val upd (cv s) i); [reflexivity|].
-      destruct (ans (insts s i)) as [[|]|]; try reflexivity.
-      destruct (Core.is_live val upd (cv s) i); reflexivity.
-    + reflexivity.
-    + reflexivity.
+  - reflexivity.
+  - destruct (cqueue (conns s c)) as [|it q] eqn:Eq.
+    + cbn [Core.acts_of]. rewrite (task_empty s c Eq). reflexivity.
+    + destruct (conn_task s c) as [[[k oi] nx] ms]. reflexivity.
 Qed.
 
 Theorem core_reachable_conv : forall t ops, exists acts, cv (fst (exec t ops)) = Conv.run val upd app norm d t acts.
@@ -89,22 +146,519 @@ Proof.
   apply (Conv.run_inv val upd app norm d norm_none norm_some).
 Qed.
 
-Lemma acts_inv σ acts : Conv.Inv val upd app σ -> Conv.Inv val upd app (fold_left cstep acts σ).
+Lemma cstep_inv σ a : CInv σ -> CInv (cstep σ a).
+Proof. apply (Conv.step_inv val upd app norm norm_none norm_some). Qed.
+Lemma acts_inv σ acts : CInv σ -> CInv (fold_left cstep acts σ).
 Proof.
-  revert σ. induction acts as [|a acts IH]; intros σ H; [exact H|]. cbn [fold_left].
-  apply IH, (Conv.step_inv val upd app norm norm_none norm_some), H.
+  revert σ. induction acts as [|a acts IH]; intros σ H; [exact H|]. cbn [fold_left]. apply IH, cstep_inv, H.
 Qed.
-Lemma step_inv' s o : Conv.Inv val upd app (cv s) -> Conv.Inv val upd app (cv (fst (step s o))).
+Lemma step_inv' s o : CInv (cv s) -> CInv (cv (fst (step s o))).
 Proof. intros H. rewrite step_cv. apply acts_inv, H. Qed.
 
-(* ---------------- outputs that are neither the get request nor the subscription at the messaging system ---------------- *)
-Notation out_ := (Core.out val upd).
+(* generic induction along an execution *)
+Lemma exec_ind (P : st_ -> list out_ -> Prop) t :
+  P (Core.init val upd d t) [] ->
+  (forall ops o, let s := fst (exec t ops) in let outs := snd (exec t ops) in
+     P s outs -> P (fst (step s o)) (outs ++ snd (step s o))) ->
+  forall ops, P (fst (exec t ops)) (snd (exec t ops)).
+Proof.
+  intros H0 Hs ops. induction ops as [|o ops IH] using rev_ind; [exact H0|].
+  specialize (Hs ops o IH). rewrite exec_snoc. destruct (exec t ops) as [s outs]. unfold Core.exec1.
+  cbn [fst snd] in Hs. destruct (step s o) as [s' o']. exact Hs.
+Qed.
+Lemma exec_state_ind (P : st_ -> Prop) t :
+  P (Core.init val upd d t) ->
+  (forall ops o, let s := fst (exec t ops) in P s -> P (fst (step s o))) ->
+  forall ops, P (fst (exec t ops)).
+Proof.
+  intros H0 Hs ops. induction ops as [|o ops IH] using rev_ind; [exact H0|].
+  specialize (Hs ops o IH). rewrite exec_snoc. destruct (exec t ops) as [s outs]. unfold Core.exec1.
+  cbn [fst snd] in Hs. destruct (step s o) as [s' o']. exact Hs.
+Qed.
+
+(* ================= connection tasks: what every handler does, whatever the state ================= *)
+(* [m]: mild handlers neither dispose nor touch the connection record *)
+Definition hact (m : bool) (i : nat) (a : act_) : Prop :=
+  match a with
+  | Conv.Dispose _ j cl => j = i /\ cl = false /\ m = false
+  | Conv.StartQueue _ j | Conv.Respond _ j _ | Conv.Unqueue _ j _ => j = i
+  | _ => False
+  end.
+Definition hout (c i : nat) (o : out_) : Prop :=
+  match o with
+  | Core.OResp _ _ c' _ _ | Core.OErr _ _ c' _ _ | Core.OAck _ _ c' _ _ | Core.OEvent _ _ c' _ | Core.OCustom _ _ c'
+  | Core.OUnsubEv _ _ c' => c' = c
+  | Core.OAccessReq _ _ c' i' _ => c' = c /\ i' = i
+  | _ => False
+  end.
+
+(* k' is k after some handler actions on instance i and some frames to connection c *)
+Record ext (m : bool) (c i : nat) (k k' : tk_) : Prop := {
+  e_acts : exists la, ta k' = ta k ++ la /\ ts k' = fold_left cstep la (ts k) /\ Forall (hact m i) la;
+  e_outs : exists lo, to k' = to k ++ lo /\ Forall (hout c i) lo;
+  e_tx : m = true -> tx k' = tx k;
+  e_q : cqueue (tx k') = cqueue (tx k);
+  e_disc : disc (tx k') = disc (tx k);
+  e_tokset : tokset (tx k') = tokset (tx k);
+  e_tok : tok (tx k') = tok (tx k);
+  e_own : owner (ty k') = owner (ty k) }.
+
+Lemma ext_refl m c i k : ext m c i k k.
+Proof.
+  constructor; try reflexivity.
+  - exists []. rewrite app_nil_r. repeat split. constructor.
+  - exists []. rewrite app_nil_r. repeat split. constructor.
+Qed.
+Lemma ext_trans m c i k1 k2 k3 : ext m c i k1 k2 -> ext m c i k2 k3 -> ext m c i k1 k3.
+Proof.
+  intros [(la&A1&A2&A3) (lo&B1&B2) T C D E F G] [(la'&A1'&A2'&A3') (lo'&B1'&B2') T' C' D' E' F' G'].
+  constructor; try congruence.
+  - exists (la ++ la'). rewrite A1', A1, A2', A2, fold_left_app, app_assoc. repeat split. apply Forall_app; auto.
+  - exists (lo ++ lo'). rewrite B1', B1, app_assoc. split; [reflexivity|]. apply Forall_app; auto.
+  - intros Hm. rewrite (T' Hm). exact (T Hm).
+Qed.
+Lemma ext_weaken m c i k k' : ext m c i k k' -> ext false c i k k'.
+Proof.
+  intros [(la&A1&A2&A3) B T C D E F G]. constructor; auto; [|discriminate].
+  exists la. repeat split; auto. eapply Forall_impl; [|exact A3]. intros a. destruct a; cbn [hact]; auto. intros (X&Y&Z). subst m. auto.
+Qed.
+Lemma x_act m c i k K a : ext m c i k K -> hact m i a -> ext m c i k (actk K a).
+Proof.
+  intros H Ha. apply (ext_trans m c i k K); [exact H|]. constructor; try reflexivity.
+  - exists [a]. repeat split. constructor; [exact Ha|constructor].
+  - exists []. cbn [Core.act Core.to]. rewrite app_nil_r. repeat split. constructor.
+Qed.
+Lemma x_emit m c i k K o : ext m c i k K -> Forall (hout c i) o -> ext m c i k (emit K o).
+Proof.
+  intros H Ho. apply (ext_trans m c i k K); [exact H|]. constructor; try reflexivity.
+  - exists []. cbn [Core.emit Core.ta]. rewrite app_nil_r. repeat split. constructor.
+  - exists o. split; [reflexivity|exact Ho].
+Qed.
+Lemma x_setx c i k K x : ext false c i k K -> cqueue x = cqueue (tx K) -> disc x = disc (tx K) ->
+  tokset x = tokset (tx K) -> tok x = tok (tx K) -> ext false c i k (setx K x).
+Proof.
+  intros H H1 H2 H3 H4. apply (ext_trans false c i k K); [exact H|]. constructor; try reflexivity; try assumption; try discriminate.
+  - exists []. cbn [Core.setx Core.ta]. rewrite app_nil_r. repeat split. constructor.
+  - exists []. cbn [Core.setx Core.to]. rewrite app_nil_r. repeat split. constructor.
+Qed.
+Lemma x_sety m c i k K y : ext m c i k K -> owner y = owner (ty K) -> ext m c i k (sety K y).
+Proof.
+  intros H H1. apply (ext_trans m c i k K); [exact H|]. constructor; try reflexivity; try assumption.
+  - exists []. cbn [Core.sety Core.ta]. rewrite app_nil_r. repeat split. constructor.
+  - exists []. cbn [Core.sety Core.to]. rewrite app_nil_r. repeat split. constructor.
+Qed.
+
+Ltac xt :=
+  repeat first
+    [ apply ext_refl
+    | assumption
+    | apply x_setx; [ | reflexivity | reflexivity | reflexivity | reflexivity ]
+    | apply x_sety; [ | reflexivity ]
+    | apply x_emit; [ | repeat constructor ]
+    | apply x_act; [ | cbn [hact]; auto ] ].
+
+Lemma x_dispose c i k K : ext false c i k K -> ext false c i k (dispose_t i K).
+Proof. intros H. unfold Core.dispose_t. destruct (gone_ i K); [exact H|]. cbv zeta. xt. Qed.
+Lemma x_remove c i k K n : ext false c i k K -> ext false c i k (remove_direct i K n).
+Proof.
+  intros H. unfold Core.remove_direct. destruct (Nat.eqb (direct (tx K)) 0); [exact H|]. cbv zeta.
+  match goal with |- context [if ?b then _ else _] => destruct b end; [apply x_dispose|]; xt.
+Qed.
+Lemma x_unsubd c i k K : ext false c i k K -> ext false c i k (unsubscribe_direct c i K).
+Proof.
+  intros H. unfold Core.unsubscribe_direct. destruct (Nat.ltb 0 (direct (tx K))); [|exact H].
+  apply x_emit; [apply x_remove; exact H|repeat constructor].
+Qed.
+Lemma x_load m c i k K b : ext m c i k K -> ext m c i k (load_access c i K b).
+Proof. intros H. unfold Core.load_access. cbv zeta. destruct (inflight (ty K)); xt. Qed.
+Lemma x_hreacc m c i k K : ext m c i k K -> ext m c i k (handle_reaccess c i K).
+Proof.
+  intros H. unfold Core.handle_reaccess. cbv zeta.
+  match goal with |- context [if ?b then _ else _] => destruct b end; [xt|]. apply x_load. xt.
+Qed.
+Lemma x_reacc m c i k K : ext m c i k K -> ext m c i k (reaccess c i K).
+Proof.
+  intros H. unfold Core.reaccess. destruct (gone_ i K); [exact H|]. destruct (flag_ i K); [xt|apply x_hreacc; exact H].
+Qed.
+
+Lemma hout_proc_o c i p e : Forall (hout c i) (snd (Core.proc_o val upd app c p e)).
+Proof.
+  destruct p as [ver v]. unfold Core.proc_o. destruct (Nat.eqb ver (Conv.e_ver upd e)); [|constructor].
+  destruct (Conv.e_upd upd e); cbn [snd]; repeat constructor.
+Qed.
+Lemma hout_replay_o c i l : forall p, Forall (hout c i) (Core.replay_o val upd app c p l).
+Proof.
+  induction l as [|e l IH]; intros p; cbn [Core.replay_o]; [constructor|].
+  pose proof (hout_proc_o c i p e) as Hp. destruct (Core.proc_o val upd app c p e) as [p' o]. cbn [snd] in Hp.
+  apply Forall_app. split; [exact Hp|apply IH].
+Qed.
+Lemma hout_map_resp c i (l : list nat) : Forall (hout c i) (map (fun id' => OResp c id' None) l).
+Proof. induction l; cbn [map]; repeat constructor; assumption. Qed.
+
+Lemma x_respond m c i k K ids : ext m c i k K -> ext m c i k (respond c i K ids).
+Proof.
+  intros H. unfold Core.respond. destruct ids as [|id r]; [exact H|]. cbv zeta.
+  apply x_emit; [|apply hout_map_resp].
+  destruct (sent_ i K); [xt|]. cbn [Core.emit Core.ty].
+  destruct (reflag (ty K)).
+  - apply x_hreacc. xt.
+  - apply x_emit; [xt|apply hout_replay_o].
+Qed.
+Lemma x_ready m c i k K id : ext m c i k K -> ext m c i k (on_ready c i K id).
+Proof. intros H. unfold Core.on_ready. destruct (loaded_ i K); [apply x_respond; exact H|]. cbv zeta. xt. Qed.
+Lemma x_unqueue m c i k K : ext m c i k K -> ext m c i k (unqueue_reaccess c i K).
+Proof.
+  intros H. unfold Core.unqueue_reaccess. cbv zeta.
+  match goal with |- context [if gone_ i ?k then _ else _] => destruct (gone_ i k) end; [xt|].
+  match goal with |- context [if reflag ?y then _ else _] => destruct (reflag y) end.
+  - apply x_hreacc. xt.
+  - apply x_emit; [xt|apply hout_replay_o].
+Qed.
+Lemma x_run_cb c i g k K b : ext false c i k K -> ext false c i k (run_cb c i g K b).
+Proof.
+  intros H. unfold Core.run_cb. destruct b as [id|].
+  - destruct g; [destruct (gone_ i K); [exact H|apply x_ready; exact H]|apply x_remove; xt].
+  - apply x_unqueue. destruct g; [exact H|apply x_unsubd; exact H].
+Qed.
+Lemma x_run_cbs c i g l : forall k K, ext false c i k K -> ext false c i k (fold_left (run_cb c i g) l K).
+Proof. induction l as [|b l IH]; intros k K H; [exact H|]. cbn [fold_left]. apply IH, x_run_cb, H. Qed.
+
+(* ---- the task of a grant, by the head of the connection's queue ---- *)
+Definition ynew (c : nat) : inst :=
+  {| owner := c; acb := []; rcb := []; acc := None; inflight := false; ans := None; reflag := false; rq := false; lost := [] |}.
+Notation res_ := (tk_ * option nat * nat * bool)%type.
+
+Definition body_req (s : st_) (c : nat) (x : conn) (id : nat) (q : list qitem) (i : nat) : tk_ :=
+  let k := K0 s (Core.with_cd (Core.with_q x q) (Some i) (S (direct x))) (insts s i) in
+  match acc (insts s i) with
+  | Some true => on_ready c i k id
+  | Some false => remove_direct i (emit k [OErr c id Core.EDenied]) 1
+  | None => load_access c i k (AReq id)
+  end.
+Definition body_unsub (s : st_) (c : nat) (x : conn) (id cnt : nat) (q : list qitem) (i : nat) : tk_ :=
+  let k := K0 s (Core.with_q x q) (insts s i) in
+  if Nat.eqb cnt 0 then emit k [OErr c id Core.EInvalid]
+  else if Nat.leb cnt (direct x) then
+    let k := emit k [OAck c id cnt] in
+    let k := if Nat.eqb (direct x - cnt) 0
+             then let y := ty k in sety k (Core.upd_y y [] (rcb y) (acc y) (inflight y) (ans y) (reflag y) (rq y) (lost y ++ Core.ids_of (acb y)))
+             else k in
+    remove_direct i k cnt
+  else emit k [OErr c id Core.ENoSub].
+Definition xtok (x : conn) (q : list qitem) (t : nat) : conn :=
+  {| cqueue := q; cur := cur x; direct := direct x; tokset := true; tok := t; disc := disc x |}.
+Definition body_access (s : st_) (c : nat) (x : conn) (q : list qitem) (i : nat) : tk_ :=
+  let y := insts s i in
+  let k := K0 s (Core.with_q x q) y in
+  match ans y with
+  | Some g =>
+      let k := sety k (Core.upd_y y [] (rcb y) (Some g) false None (reflag y) (rq y) (lost y)) in
+      fold_left (run_cb c i g) (acb y) k
+  | None => k
+  end.
+Definition body_sub (s : st_) (c : nat) (x : conn) (q : list qitem) (i : nat) : tk_ :=
+  let y := csubs (cv s) i in
+  let k := K0 s (Core.with_q x q) (insts s i) in
+  match Conv.cq val upd y with
+  | Conv.CEvent _ e :: _ =>
+      let o := if Conv.loaded val upd y && negb (Conv.flag val upd y)
+               then snd (Core.proc_o val upd app c (Conv.sver val upd y, Conv.sval val upd y) e) else [] in
+      emit (actk k (Conv.RunC upd i)) o
+  | Conv.CLoaded _ :: _ =>
+      let k := actk k (Conv.RunC upd i) in
+      if Conv.gone val upd y then k
+      else let z := ty k in
+           respond c i (sety k (Core.upd_y z (acb z) [] (acc z) (inflight z) (ans z) (reflag z) (rq z) (lost z))) (rcb z)
+  | Conv.CReacc _ :: _ => reaccess c i (actk k (Conv.RunC upd i))
+  | [] => actk k (Conv.RunC upd i)
+  end.
+Definition body_dispose (s : st_) (c : nat) (x : conn) (q : list qitem) : tk_ :=
+  let k := K0 s (Core.with_cd (Core.with_q x q) None 0) (match cur x with Some i => insts s i | None => inst0 end) in
+  let k := fold_left actk (map (fun j => Conv.Dispose upd j true) (Core.insts_of val upd s c)) k in
+  let y := ty k in
+  let k := sety k (Core.upd_y y [] [] (acc y) (inflight y) (ans y) (reflag y) (rq y) (lost y ++ Core.ids_of (acb y) ++ rcb y)) in
+  emit k [OConnUnsub c].
+
+Inductive CT (s : st_) (c : nat) (x : conn) : res_ -> Prop :=
+| CT_empty : cqueue x = [] -> CT s c x (K0 s x inst0, None, next s, mqsub s)
+| CT_req_new id q : cqueue x = QReq id :: q -> cur x = None ->
+    CT s c x (load_access c (next s)
+                (emit (actk (K0 s (Core.with_cd (Core.with_q x q) (Some (next s)) 1) (ynew c)) (Conv.Subscribe upd (next s)))
+                      (if mqsub s then [] else [OMqSub])) (AReq id), Some (next s), S (next s), true)
+| CT_req_cur id q i : cqueue x = QReq id :: q -> cur x = Some i -> CT s c x (body_req s c x id q i, Some i, next s, mqsub s)
+| CT_unsub_cur id cnt q i : cqueue x = QUnsub id cnt :: q -> cur x = Some i -> CT s c x (body_unsub s c x id cnt q i, Some i, next s, mqsub s)
+| CT_unsub_none id cnt q : cqueue x = QUnsub id cnt :: q -> cur x = None ->
+    CT s c x (emit (K0 s (Core.with_q x q) inst0) [OErr c id (if Nat.eqb cnt 0 then Core.EInvalid else Core.ENoSub)], None, next s, mqsub s)
+| CT_token_cur t q i : cqueue x = QToken t :: q -> cur x = Some i ->
+    CT s c x (if tokset x then reaccess c i (K0 s (xtok x q t) (insts s i)) else K0 s (xtok x q t) (insts s i), Some i, next s, mqsub s)
+| CT_token_none t q : cqueue x = QToken t :: q -> cur x = None -> CT s c x (K0 s (xtok x q t) inst0, None, next s, mqsub s)
+| CT_access_gone i q : cqueue x = QAccess i :: q -> sgone (csubs (cv s) i) = true ->
+    CT s c x (K0 s (Core.with_q x q) (insts s i), Some i, next s, mqsub s)
+| CT_access_live i q : cqueue x = QAccess i :: q -> sgone (csubs (cv s) i) = false ->
+    CT s c x (body_access s c x q i, Some i, next s, mqsub s)
+| CT_sub i q : cqueue x = QSub i :: q -> CT s c x (body_sub s c x q i, Some i, next s, mqsub s)
+| CT_dispose q : cqueue x = QDispose :: q -> CT s c x (body_dispose s c x q, cur x, next s, mqsub s).
+
+Lemma ct_spec s c : CT s c (conns s c) (conn_task s c).
+Proof.
+  unfold Core.conn_task. cbv zeta. generalize (conns s c). intros x.
+  destruct x as [cq cu di tks tk dc]. destruct cq as [|[id|id cnt|t|i|i|] q].
+  - apply CT_empty. reflexivity.
+  - destruct cu as [i|]; match goal with |- CT _ _ ?X _ =>
+      first [apply (CT_req_cur s c X id q i eq_refl eq_refl)|apply (CT_req_new s c X id q eq_refl eq_refl)] end.
+  - destruct cu as [i|]; match goal with |- CT _ _ ?X _ =>
+      first [apply (CT_unsub_cur s c X id cnt q i eq_refl eq_refl)|apply (CT_unsub_none s c X id cnt q eq_refl eq_refl)] end.
+  - destruct cu as [i|]; match goal with |- CT _ _ ?X _ =>
+      first [apply (CT_token_cur s c X t q i eq_refl eq_refl)|apply (CT_token_none s c X t q eq_refl eq_refl)] end.
+  - cbn [cqueue Core.with_q Core.ts Core.cv]. unfold Core.is_gone. destruct (sgone (csubs (cv s) i)) eqn:Eg;
+      match goal with |- CT _ _ ?X _ =>
+        first [apply (CT_access_gone s c X i q eq_refl Eg)|apply (CT_access_live s c X i q eq_refl Eg)] end.
+  - match goal with |- CT _ _ ?X _ => apply (CT_sub s c X i q eq_refl) end.
+  - match goal with |- CT _ _ ?X _ => apply (CT_dispose s c X q eq_refl) end.
+Qed.
+
+(* ---- the bodies extend their starting task ---- *)
+Lemma ext_body_req s c x id q i :
+  ext false c i (K0 s (Core.with_cd (Core.with_q x q) (Some i) (S (direct x))) (insts s i)) (body_req s c x id q i).
+Proof.
+  unfold body_req. cbv zeta. destruct (acc (insts s i)) as [[|]|].
+  - apply x_ready, ext_refl.
+  - apply x_remove. xt.
+  - apply x_load, ext_refl.
+Qed.
+Lemma ext_body_unsub s c x id cnt q i : ext false c i (K0 s (Core.with_q x q) (insts s i)) (body_unsub s c x id cnt q i).
+Proof.
+  unfold body_unsub. cbv zeta. destruct (Nat.eqb cnt 0); [xt|]. destruct (Nat.leb cnt (direct x)); [|xt].
+  apply x_remove. destruct (Nat.eqb (direct x - cnt) 0); xt.
+Qed.
+Lemma ext_body_access s c x q i : ext false c i (K0 s (Core.with_q x q) (insts s i)) (body_access s c x q i).
+Proof.
+  unfold body_access. cbv zeta. destruct (ans (insts s i)) as [g|]; [|apply ext_refl].
+  apply x_run_cbs. xt.
+Qed.
+Lemma ext_body_sub s c x q i : ext false c i (actk (K0 s (Core.with_q x q) (insts s i)) (Conv.RunC upd i)) (body_sub s c x q i).
+Proof.
+  unfold body_sub. cbv zeta. destruct (scq (csubs (cv s) i)) as [|[|e|] q'].
+  - apply ext_refl.
+  - destruct (sgone (csubs (cv s) i)); [apply ext_refl|]. apply x_respond. xt.
+  - apply x_emit; [apply ext_refl|]. destruct (_ && _); [apply hout_proc_o|constructor].
+  - apply x_reacc, ext_refl.
+Qed.
+
+Definition sync (σ : cst) (k : tk_) : Prop := ts k = fold_left cstep (ta k) σ.
+Lemma sync_ext σ m c i k1 k : sync σ k1 -> ext m c i k1 k -> sync σ k.
+Proof.
+  unfold sync. intros H [(la&A1&A2&_) _ _ _ _ _ _ _]. rewrite A1, A2, fold_left_app, H. reflexivity.
+Qed.
+Lemma sync_act σ k a : sync σ k -> sync σ (actk k a).
+Proof. unfold sync. intros H. cbn [Core.act Core.ts Core.ta]. rewrite fold_left_app, <- H. reflexivity. Qed.
+Lemma sync_acts σ l : forall k, sync σ k -> sync σ (fold_left actk l k).
+Proof. induction l as [|a l IH]; intros k H; [exact H|]. cbn [fold_left]. apply IH, sync_act, H. Qed.
+Lemma acts_ta l : forall k, ta (fold_left actk l k) = ta k ++ l.
+Proof.
+  induction l as [|a l IH]; intros k; cbn [fold_left]; [rewrite app_nil_r; reflexivity|].
+  rewrite IH. cbn [Core.act Core.ta]. rewrite <- app_assoc. reflexivity.
+Qed.
+Lemma acts_frame l : forall k, tx (fold_left actk l k) = tx k /\ ty (fold_left actk l k) = ty k /\ to (fold_left actk l k) = to k.
+Proof. induction l as [|a l IH]; intros k; cbn [fold_left]; [auto|]. destruct (IH (actk k a)) as (A&B&C). rewrite A, B, C. auto. Qed.
+
+Definition tact (oi : option nat) (a : act_) : Prop :=
+  match a with
+  | Conv.RunC _ j | Conv.StartQueue _ j | Conv.Respond _ j _ | Conv.Unqueue _ j _ => oi = Some j
+  | Conv.Dispose _ j cl => oi = Some j /\ cl = false
+  | _ => False
+  end.
+Definition tout (c : nat) (oi : option nat) (o : out_) : Prop :=
+  match o with
+  | Core.OResp _ _ c' _ _ | Core.OErr _ _ c' _ _ | Core.OAck _ _ c' _ _ | Core.OEvent _ _ c' _ | Core.OCustom _ _ c'
+  | Core.OUnsubEv _ _ c' => c' = c
+  | Core.OAccessReq _ _ c' i' _ => c' = c /\ oi = Some i'
+  | _ => False
+  end.
+Lemma hact_tact m i a : hact m i a -> tact (Some i) a.
+Proof. destruct a; cbn [hact tact]; try contradiction; intros; try congruence. destruct H as (-> & -> & _). auto. Qed.
+Lemma hout_tout c i o : hout c i o -> tout c (Some i) o.
+Proof. destruct o; cbn [hout tout]; try contradiction; intros; try congruence. destruct H as [-> ->]. auto. Qed.
+
+Lemma shape_ext σ m c i k1 k : ext m c i k1 k -> sync σ k1 -> Forall (tact (Some i)) (ta k1) -> Forall (tout c (Some i)) (to k1) ->
+  sync σ k /\ cqueue (tx k) = cqueue (tx k1) /\ disc (tx k) = disc (tx k1) /\ Forall (tact (Some i)) (ta k) /\ Forall (tout c (Some i)) (to k).
+Proof.
+  intros He Hs Ha Ho. split; [eapply sync_ext; eassumption|]. destruct He as [(la&A1&A2&A3) (lo&B1&B2) _ C D _ _ _].
+  repeat split; auto.
+  - rewrite A1. apply Forall_app. split; [exact Ha|]. eapply Forall_impl; [|exact A3]. apply hact_tact.
+  - rewrite B1. apply Forall_app. split; [exact Ho|]. eapply Forall_impl; [|exact B2]. apply hout_tout.
+Qed.
+
+Definition head_dispose (q : list qitem) : Prop := exists q', q = QDispose :: q'.
+Definition task_plain (s : st_) (c : nat) (r : res_) : Prop :=
+  let '(k, oi, nx, ms) := r in
+  nx = next s /\ ms = mqsub s /\ Forall (tact oi) (ta k) /\ Forall (tout c oi) (to k).
+Definition task_new (s : st_) (c : nat) (r : res_) : Prop :=
+  let '(k, oi, nx, ms) := r in
+  (exists id q, cqueue (conns s c) = QReq id :: q) /\ cur (conns s c) = None /\ oi = Some (next s) /\ nx = S (next s) /\ ms = true /\
+  ta k = [Conv.Subscribe upd (next s)] /\ to k = (if mqsub s then [] else [OMqSub]) ++ [OAccessReq c (next s) (tok (conns s c))] /\
+  tx k = Core.with_cd (Core.with_q (conns s c) (tl (cqueue (conns s c)))) (Some (next s)) 1.
+Definition task_disp (s : st_) (c : nat) (r : res_) : Prop :=
+  let '(k, oi, nx, ms) := r in
+  head_dispose (cqueue (conns s c)) /\ nx = next s /\ ms = mqsub s /\ oi = cur (conns s c) /\
+  ta k = map (fun j => Conv.Dispose upd j true) (Core.insts_of val upd s c) /\ to k = [OConnUnsub c] /\
+  cur (tx k) = None /\ direct (tx k) = 0.
+
+Lemma task_shape s c : 
+  let r := conn_task s c in let k := fst (fst (fst r)) in
+  sync (cv s) k /\ cqueue (tx k) = tl (cqueue (conns s c)) /\ disc (tx k) = disc (conns s c) /\
+  (task_plain s c r \/ task_new s c r \/ task_disp s c r).
+Proof.
+  cbv zeta. destruct (ct_spec s c) as [Eq|id q Eq Ec|id q i Eq Ec|id cnt q i Eq Ec|id cnt q Eq Ec|t q i Eq Ec|t q Eq Ec|i q Eq Eg|i q Eq Eg|i q Eq|q Eq];
+    cbn [fst]; rewrite Eq; cbn [tl]; (split; [|split; [|split]]).
+  - reflexivity.
+  - exact Eq.
+  - reflexivity.
+  - left. repeat split; constructor.
+  - unfold Core.load_access. cbn. reflexivity.
+  - unfold Core.load_access. cbn. reflexivity.
+  - unfold Core.load_access. cbn. reflexivity.
+  - right; left. unfold task_new, Core.load_access. rewrite Eq. cbn. repeat split; auto. exists id, q. reflexivity.
+  - eapply sync_ext; [|apply ext_body_req]. reflexivity.
+  - rewrite (e_q _ _ _ _ _ (ext_body_req s c (conns s c) id q i)). reflexivity.
+  - rewrite (e_disc _ _ _ _ _ (ext_body_req s c (conns s c) id q i)). reflexivity.
+  - destruct (shape_ext (cv s) false c i _ _ (ext_body_req s c (conns s c) id q i)) as (A&B&C&D&E); [reflexivity|constructor|constructor|].
+    left. repeat split; auto.
+  - eapply sync_ext; [|apply ext_body_unsub]. reflexivity.
+  - rewrite (e_q _ _ _ _ _ (ext_body_unsub s c (conns s c) id cnt q i)). reflexivity.
+  - rewrite (e_disc _ _ _ _ _ (ext_body_unsub s c (conns s c) id cnt q i)). reflexivity.
+  - destruct (shape_ext (cv s) false c i _ _ (ext_body_unsub s c (conns s c) id cnt q i)) as (A&B&C&D&E); [reflexivity|constructor|constructor|].
+    left. repeat split; auto.
+  - reflexivity.
+  - reflexivity.
+  - reflexivity.
+  - left. repeat split; repeat constructor.
+  - destruct (tokset (conns s c)); [|reflexivity]. eapply (sync_ext _ false); [|apply x_reacc, ext_refl]. reflexivity.
+  - destruct (tokset (conns s c)); [|reflexivity]. rewrite (e_q _ _ _ _ _ (x_reacc false c i _ _ (ext_refl false c i _))). reflexivity.
+  - destruct (tokset (conns s c)); [|reflexivity]. rewrite (e_disc _ _ _ _ _ (x_reacc false c i _ _ (ext_refl false c i _))). reflexivity.
+  - assert (X : ext false c i (K0 s (xtok (conns s c) q t) (insts s i))
+                  (if tokset (conns s c) then reaccess c i (K0 s (xtok (conns s c) q t) (insts s i)) else K0 s (xtok (conns s c) q t) (insts s i))).
+    { destruct (tokset (conns s c)); [apply x_reacc|]; apply ext_refl. }
+    destruct (shape_ext (cv s) false c i _ _ X) as (A&B&C&D&E); [reflexivity|constructor|constructor|].
+    left. repeat split; auto.
+  - reflexivity.
+  - reflexivity.
+  - reflexivity.
+  - left. repeat split; constructor.
+  - reflexivity.
+  - reflexivity.
+  - reflexivity.
+  - left. repeat split; constructor.
+  - eapply sync_ext; [|apply ext_body_access]. reflexivity.
+  - rewrite (e_q _ _ _ _ _ (ext_body_access s c (conns s c) q i)). reflexivity.
+  - rewrite (e_disc _ _ _ _ _ (ext_body_access s c (conns s c) q i)). reflexivity.
+  - destruct (shape_ext (cv s) false c i _ _ (ext_body_access s c (conns s c) q i)) as (A&B&C&D&E); [reflexivity|constructor|constructor|].
+    left. repeat split; auto.
+  - eapply sync_ext; [|apply ext_body_sub]. apply sync_act. reflexivity.
+  - rewrite (e_q _ _ _ _ _ (ext_body_sub s c (conns s c) q i)). reflexivity.
+  - rewrite (e_disc _ _ _ _ _ (ext_body_sub s c (conns s c) q i)). reflexivity.
+  - destruct (shape_ext (cv s) false c i _ _ (ext_body_sub s c (conns s c) q i)) as (A&B&C&D&E);
+      [apply sync_act; reflexivity|repeat constructor|constructor|].
+    left. repeat split; auto.
+  - unfold body_dispose. cbv zeta. cbn [Core.emit Core.sety Core.ts Core.ta Core.tx Core.to].
+    apply sync_acts. reflexivity.
+  - unfold body_dispose. cbv zeta. cbn [Core.emit Core.sety Core.ts Core.ta Core.tx Core.to].
+    match goal with |- context [fold_left actk ?l ?k0] => destruct (acts_frame l k0) as (S3&S4&S5) end. rewrite S3. reflexivity.
+  - unfold body_dispose. cbv zeta. cbn [Core.emit Core.sety Core.ts Core.ta Core.tx Core.to].
+    match goal with |- context [fold_left actk ?l ?k0] => destruct (acts_frame l k0) as (S3&S4&S5) end. rewrite S3. reflexivity.
+  - right; right. unfold task_disp, body_dispose. cbv zeta. cbn [Core.emit Core.sety Core.ts Core.ta Core.tx Core.to].
+    match goal with |- context [fold_left actk ?l ?k0] => pose proof (acts_ta l k0) as S2; destruct (acts_frame l k0) as (S3&S4&S5) end.
+    rewrite S2, S3, S5, Eq. cbn. repeat split; auto. eexists; reflexivity.
+Qed.
+
+Lemma step_conn_empty s c : cqueue (conns s c) = [] -> step s (Core.GrantConn upd c) = (s, []).
+Proof. intros E. unfold Core.step. rewrite E. reflexivity. Qed.
+Lemma step_conn s c : cqueue (conns s c) <> [] ->
+  step s (Core.GrantConn upd c) =
+  let '(k, oi, nx, ms) := conn_task s c in
+  ({| Core.cv := ts k; Core.conns := Core.set_conn (conns s) c (tx k);
+      Core.insts := match oi with Some i => Core.set_inst (insts s) i (ty k) | None => insts s end;
+      Core.next := nx; Core.mqsub := ms; Core.getreq := getreq s |}, to k).
+Proof.
+  intros Hne. unfold Core.step. destruct (cqueue (conns s c)) as [|it q] eqn:Eq; [contradiction|].
+  cbn [Core.acts_of]. destruct (task_shape s c) as (Hs&_). cbv zeta in Hs. unfold sync in Hs.
+  destruct (conn_task s c) as [[[k oi] nx] ms]. cbn [fst] in *. rewrite <- Hs. reflexivity.
+Qed.
+
+(* ---------------- what an action adds to the resource's queue ---------------- *)
+Notation eitem_ := (Conv.eitem val upd).
+Definition intro_by (a : act_) (it : eitem_) : Prop :=
+  match a with
+  | Conv.SvcUpdate _ u => it = Conv.IEvent val upd u
+  | Conv.SvcCustom _ => it = Conv.ICustom val upd
+  | Conv.SvcAnswer _ => exists v, it = Conv.IGetResp val upd v
+  | Conv.SvcNop _ n => it = Conv.INop val upd n
+  | Conv.SvcReacc _ => it = Conv.IReacc val upd
+  | Conv.Subscribe _ k => it = Conv.IAddSub val upd k
+  | Conv.Dispose _ k _ | Conv.RunC _ k => it = Conv.IRemSub val upd k
+  | Conv.RunE _ => exists k, it = Conv.IRemSub val upd k
+  | _ => False
+  end.
+Lemma in_snoc {A} (x y : A) l : In x (l ++ [y]) -> In x l \/ x = y.
+Proof. intros H. apply in_app_or in H. destruct H as [H|[H|[]]]; auto. Qed.
+Lemma qe_step σ a it : In it (cqe (cstep σ a)) -> In it (cqe σ) \/ intro_by a it.
+Proof.
+  destruct a as [u| | |n| |k|k cl| |k|k n|k n|k]; cbn [Conv.step intro_by].
+  - cbn [Conv.qe]. intros H. apply in_snoc in H. tauto.
+  - cbn [Conv.qe]. intros H. apply in_snoc in H. tauto.
+  - destruct (Conv.answered val upd σ); [auto|]. cbn [Conv.qe]. intros H. apply in_snoc in H. destruct H as [H|H]; [auto|right; eexists; exact H].
+  - cbn [Conv.qe]. intros H. apply in_snoc in H. tauto.
+  - cbn [Conv.qe]. intros H. apply in_snoc in H. tauto.
+  - destruct (ssubscribed (csubs σ k)); [auto|]. cbn [Conv.qe]. intros H. apply in_snoc in H. tauto.
+  - destruct (sgone (csubs σ k)); [destruct cl; cbn [Conv.qe]; auto|]. cbn [Conv.qe]. destruct (sloaded (csubs σ k)); [|auto].
+    intros H. apply in_snoc in H. tauto.
+  - destruct (cqe σ) as [|[u| |v|k|k| |n] q] eqn:Eq; cbn [Conv.qe].
+    + intros H. rewrite Eq in H. destruct H.
+    + destruct (Conv.rs_loaded val upd σ); [destruct (norm u (Conv.rs_val val upd σ))|]; cbn [Conv.qe]; intros H; left; right; exact H.
+    + intros H; left; right; exact H.
+    + intros H. apply in_app_or in H. destruct H as [H|H]; [left; right; exact H|]. right.
+      unfold Conv.refused in H. apply in_map_iff in H. destruct H as (x & E & _). exists x. symmetry. exact E.
+    + destruct (Conv.rs_loaded val upd σ && sclosed (csubs σ k)); intros H; [|left; right; exact H].
+      apply in_snoc in H. destruct H as [H|H]; [left; right; exact H|right; eexists; exact H].
+    + intros H; left; right; exact H.
+    + intros H; left; right; exact H.
+    + intros H; left; right; exact H.
+  - destruct (scq (csubs σ k)) as [|[|e|] q]; [auto|destruct (sgone (csubs σ k))| |]; cbn [Conv.qe]; auto.
+    intros H. apply in_snoc in H. tauto.
+  - destruct (_ && _); cbn [Conv.qe]; auto.
+  - destruct (_ && _); cbn [Conv.qe]; auto.
+  - destruct (_ && _); cbn [Conv.qe]; auto.
+Qed.
+Lemma qe_steps acts : forall σ it, In it (cqe (fold_left cstep acts σ)) -> In it (cqe σ) \/ exists a, In a acts /\ intro_by a it.
+Proof.
+  induction acts as [|a acts IH]; intros σ it H; [left; exact H|]. cbn [fold_left] in H.
+  apply IH in H. destruct H as [H|(a'&H1&H2)]; [|right; exists a'; split; [right; exact H1|exact H2]].
+  apply qe_step in H. destruct H as [H|H]; [left; exact H|right; exists a; split; [left; reflexivity|exact H]].
+Qed.
+Lemma add_steps acts σ j : In (Conv.IAddSub val upd j) (cqe (fold_left cstep acts σ)) ->
+  In (Conv.IAddSub val upd j) (cqe σ) \/ In (Conv.Subscribe upd j) acts.
+Proof.
+  intros H. apply qe_steps in H. destruct H as [H|(a&H1&H2)]; [left; exact H|right].
+  destruct a as [u| | |n| |k|k cl| |k|k n|k n|k]; cbn [intro_by] in H2; try discriminate H2; try contradiction.
+  - destruct H2 as [v H2]. discriminate H2.
+  - injection H2 as ->. exact H1.
+  - destruct H2 as [v H2]. discriminate H2.
+Qed.
+Lemma nop_steps acts σ i : In (Conv.INop val upd i) (cqe (fold_left cstep acts σ)) ->
+  In (Conv.INop val upd i) (cqe σ) \/ In (Conv.SvcNop upd i) acts.
+Proof.
+  intros H. apply qe_steps in H. destruct H as [H|(a&H1&H2)]; [left; exact H|right].
+  destruct a as [u| | |n| |k|k cl| |k|k n|k n|k]; cbn [intro_by] in H2; try discriminate H2; try contradiction.
+  - destruct H2 as [v H2]. discriminate H2.
+  - injection H2 as ->. exact H1.
+  - destruct H2 as [v H2]. discriminate H2.
+Qed.
+
+(* ================= A: one get request, under the subscription ================= *)
 Notation isget := (Core.is_getreq val upd).
 Notation issub := (Core.is_mqsub val upd).
 Notation cnt_get := (Core.count_out val upd (Core.is_getreq val upd)).
 Notation cnt_sub := (Core.count_out val upd (Core.is_mqsub val upd)).
-Notation getreq := (Core.getreq val upd).
-Notation mqsub := (Core.mqsub val upd).
 
 Definition plain (o : out_) : Prop := isget o = false /\ issub o = false.
 
@@ -115,27 +669,6 @@ Proof.
   induction 1 as [|x l [Hg Hs] _ [IH1 IH2]]; [split; reflexivity|].
   unfold Core.count_out in *. cbn [filter]. rewrite Hg, Hs. split; assumption.
 Qed.
-Lemma plain_proc_o c p e : Forall plain (snd (Core.proc_o val upd app c p e)).
-Proof.
-  destruct p as [ver v]. unfold Core.proc_o. destruct (Nat.eqb ver (e_ver upd e)); [|constructor].
-  destruct (e_upd upd e); cbn [snd]; repeat constructor.
-Qed.
-Lemma plain_replay_o c l : forall p, Forall plain (Core.replay_o val upd app c p l).
-Proof.
-  induction l as [|e l IH]; intros p; cbn [Core.replay_o]; [constructor|].
-  pose proof (plain_proc_o c p e) as Hp. destruct (Core.proc_o val upd app c p e) as [p' o]. cbn [snd] in Hp.
-  apply Forall_app. split; [exact Hp|apply IH].
-Qed.
-Lemma plain_map_resp c (l : list nat) : Forall plain (map (fun id' => Core.OResp val upd c id' None) l).
-Proof. induction l; cbn [map]; repeat constructor; assumption. Qed.
-Lemma plain_respond_ids c x ids : Forall plain (Core.respond_ids val upd app c x ids).
-Proof.
-  unfold Core.respond_ids. destruct ids as [|id r]; [constructor|]. apply Forall_app. split; [|apply plain_map_resp].
-  destruct (Conv.sent val upd x); [repeat constructor|]. constructor; [split; reflexivity|apply plain_replay_o].
-Qed.
-Lemma plain_map_err c e (l : list nat) : Forall plain (map (fun id => Core.OErr val upd c id e) l).
-Proof. induction l; cbn [map]; repeat constructor; assumption. Qed.
-
 Lemma split_in {A} (outs o pre post : list A) x : outs ++ o = pre ++ x :: post ->
   (exists post', outs = pre ++ x :: post') \/ (exists l post', pre = outs ++ l /\ o = l ++ x :: post').
 Proof.
@@ -145,21 +678,18 @@ Proof.
     + cbn in H2. injection H2 as <- H2. left. exists l. exact H1.
   - right. exists l, post. split; assumption.
 Qed.
+Lemma tout_plain c oi o : tout c oi o -> plain o.
+Proof. destruct o; cbn [tout]; try contradiction; intros; split; reflexivity. Qed.
 
-Record GO (s : Core.st val upd) (outs : list out_) : Prop := {
+Record GO (s : st_) (outs : list out_) : Prop := {
   g_get : cnt_get outs = Conv.b2n (getreq s);
   g_sub : cnt_sub outs = Conv.b2n (mqsub s);
   g_gs : getreq s = true -> mqsub s = true;
   g_pre : forall pre o post, outs = pre ++ o :: post -> isget o = true -> cnt_sub pre = 1;
-  g_0 : mqsub s = false ->
-        next s = 0 /\ Conv.qe val upd (cv s) = [] /\ Conv.rs_loaded val upd (cv s) = false /\
-        (forall i, Conv.cq val upd (csubs (cv s) i) = []) /\
-        (forall c, cur (conns s c) = None) /\ (forall i, ans (insts s i) = None) }.
+  g_0 : mqsub s = false -> next s = 0 /\ forall j, ~ In (Conv.IAddSub val upd j) (cqe (cv s)) }.
 
 Lemma go_frame s outs s' o : GO s outs -> Forall plain o -> getreq s' = getreq s -> mqsub s' = mqsub s ->
-  (mqsub s = false -> next s' = 0 /\ Conv.qe val upd (cv s') = [] /\ Conv.rs_loaded val upd (cv s') = false /\
-        (forall i, Conv.cq val upd (csubs (cv s') i) = []) /\
-        (forall c, cur (conns s' c) = None) /\ (forall i, ans (insts s' i) = None)) ->
+  (mqsub s = false -> next s' = 0 /\ forall j, ~ In (Conv.IAddSub val upd j) (cqe (cv s'))) ->
   GO s' (outs ++ o).
 Proof.
   intros [H1 H2 H3 H4 H5] Hp Eg Em H0. destruct (count_plain o Hp) as [Cg Cs].
@@ -172,59 +702,41 @@ Proof.
     + exfalso. rewrite Forall_forall in Hp. destruct (Hp x) as [Hg _]; [rewrite E2; apply in_or_app; right; left; reflexivity|]. congruence.
   - rewrite Em. exact H0.
 Qed.
-
-Lemma rune_nil σ : Conv.qe val upd σ = [] -> cstep σ (Conv.RunE upd) = σ.
-Proof. intros H. cbn [Conv.step]. rewrite H. reflexivity. Qed.
-Lemma upd_rune_nil σ a : Conv.qe val upd σ = [] -> Conv.rs_loaded val upd σ = false ->
-  (exists u, a = Conv.SvcUpdate upd u) \/ a = Conv.SvcCustom upd ->
-  let σ' := cstep (cstep σ a) (Conv.RunE upd) in
-  Conv.qe val upd σ' = [] /\ Conv.rs_loaded val upd σ' = false /\ Conv.subs val upd σ' = Conv.subs val upd σ.
+Lemma go_frame2 s outs s' o acts : GO s outs -> Forall plain o -> getreq s' = getreq s -> mqsub s' = mqsub s -> next s' = next s ->
+  cv s' = fold_left cstep acts (cv s) -> (forall j, ~ In (Conv.Subscribe upd j) acts) -> GO s' (outs ++ o).
 Proof.
-  intros Hq Hl [[u ->]| ->]; cbn [Conv.step Conv.qe Conv.rs_loaded Conv.subs]; rewrite Hq; cbn [List.app];
-    cbn [Conv.qe Conv.rs_loaded Conv.subs]; rewrite Hl; cbn [Conv.qe Conv.rs_loaded Conv.subs]; auto.
+  intros H Hp Eg Em En Ec Ha. apply (go_frame s); auto. intros Hm. destruct (g_0 _ _ H Hm) as [A B]. split; [congruence|].
+  intros j Hin. rewrite Ec in Hin. apply add_steps in Hin. destruct Hin as [Hin|Hin]; [exact (B j Hin)|exact (Ha j Hin)].
 Qed.
-
-Ltac conn_at c' c := unfold Core.set_conn; destruct (Nat.eqb_spec c' c) as [->|?];
-  cbn [Core.push_q Core.with_q Core.pop_q cur direct disc cqueue].
 
 Lemma go_step s outs o : GO s outs -> GO (fst (step s o)) (outs ++ snd (step s o)).
 Proof.
-  intros H. pose proof H as [H1 H2 H3 H4 H5].
-  unfold Core.step. destruct o as [c id|c id k|c|i g| |u| | |c]; cbn [Core.acts_of].
-  - (* CSub *) destruct (disc (conns s c)); cbn [fst snd]; [rewrite app_nil_r; exact H|].
-    apply (go_frame s); [exact H|constructor|reflexivity|reflexivity|].
-    cbn [fold_left Core.cv Core.next Core.conns Core.insts]. intros Hm. destruct (H5 Hm) as (A&B&C&D&E&F).
-    repeat split; auto. intros c'. conn_at c' c; apply E.
-  - destruct (disc (conns s c)); cbn [fst snd]; [rewrite app_nil_r; exact H|].
-    apply (go_frame s); [exact H|constructor|reflexivity|reflexivity|].
-    cbn [fold_left Core.cv Core.next Core.conns Core.insts]. intros Hm. destruct (H5 Hm) as (A&B&C&D&E&F).
-    repeat split; auto. intros c'. conn_at c' c; apply E.
-  - destruct (disc (conns s c)); cbn [fst snd]; [rewrite app_nil_r; exact H|].
-    apply (go_frame s); [exact H|constructor|reflexivity|reflexivity|].
-    cbn [fold_left Core.cv Core.next Core.conns Core.insts]. intros Hm. destruct (H5 Hm) as (A&B&C&D&E&F).
-    repeat split; auto. intros c'. conn_at c' c; apply E.
-  - (* MqAccess *)
-    destruct (Nat.ltb i (next s) && Core.unanswered (insts s i)) eqn:Et; cbn [fst snd]; [|rewrite app_nil_r; exact H].
-    apply (go_frame s); [exact H|constructor|reflexivity|reflexivity|].
-    intros Hm. destruct (H5 Hm) as (A&B&C&D&E&F). exfalso. rewrite A in Et. cbn in Et. discriminate.
-  - (* MqGet *)
-    cbn [fst snd]. apply (go_frame s); [exact H|constructor|reflexivity|reflexivity|].
-    cbn [Core.cv Core.next Core.conns Core.insts]. intros Hm. destruct (H5 Hm) as (A&B&C&D&E&F).
-    destruct (getreq s) eqn:Eg; [rewrite (H3 eq_refl) in Hm; discriminate|]. cbn [andb fold_left]. repeat split; auto.
-  - (* MqEvent *)
-    cbn [fst snd]. apply (go_frame s); [exact H|constructor|reflexivity|reflexivity|].
-    cbn [Core.cv Core.next Core.conns Core.insts]. intros Hm. destruct (H5 Hm) as (A&B&C&D&E&F). rewrite Hm. cbn [fold_left].
-    destruct (upd_rune_nil (cv s) (Conv.SvcUpdate upd u) B C) as (X&Y&Z); [left; eexists; reflexivity|].
-    repeat split; auto. intros i. rewrite Z. apply D.
-  - cbn [fst snd]. apply (go_frame s); [exact H|constructor|reflexivity|reflexivity|].
-    cbn [Core.cv Core.next Core.conns Core.insts]. intros Hm. destruct (H5 Hm) as (A&B&C&D&E&F). rewrite Hm. cbn [fold_left].
-    destruct (upd_rune_nil (cv s) (Conv.SvcCustom upd) B C) as (X&Y&Z); [right; reflexivity|].
-    repeat split; auto. intros i. rewrite Z. apply D.
+  intros H. destruct o as [c id|c id k|c|c t|i g| |u| | | |c].
+  - unfold Core.step. destruct (disc (conns s c)); cbn [fst snd]; [rewrite app_nil_r; exact H|].
+    eapply (go_frame2 s outs _ _ []); [exact H|constructor|reflexivity|reflexivity|reflexivity|reflexivity|intros j []].
+  - unfold Core.step. destruct (disc (conns s c)); cbn [fst snd]; [rewrite app_nil_r; exact H|].
+    eapply (go_frame2 s outs _ _ []); [exact H|constructor|reflexivity|reflexivity|reflexivity|reflexivity|intros j []].
+  - unfold Core.step. destruct (disc (conns s c)); cbn [fst snd]; [rewrite app_nil_r; exact H|].
+    eapply (go_frame2 s outs _ _ []); [exact H|constructor|reflexivity|reflexivity|reflexivity|reflexivity|intros j []].
+  - unfold Core.step. destruct (Core.is_done (conns s c)); cbn [fst snd]; [rewrite app_nil_r; exact H|].
+    eapply (go_frame2 s outs _ _ []); [exact H|constructor|reflexivity|reflexivity|reflexivity|reflexivity|intros j []].
+  - unfold Core.step. cbn [Core.acts_of]. destruct (Nat.ltb i (next s) && Core.unanswered (insts s i)); cbn [fst snd]; [|rewrite app_nil_r; exact H].
+    eapply (go_frame2 s outs _ _ [Conv.SvcNop upd i]); [exact H|constructor|reflexivity|reflexivity|reflexivity|reflexivity|].
+    intros j [E|[]]. discriminate E.
+  - unfold Core.step. cbn [fst snd]. eapply (go_frame2 s outs); [exact H|constructor|reflexivity|reflexivity|reflexivity|reflexivity|].
+    cbn [Core.acts_of]. intros j Hin. destruct (_ && _); [destruct Hin as [E|[]]; discriminate E|destruct Hin].
+  - unfold Core.step. cbn [fst snd]. eapply (go_frame2 s outs); [exact H|constructor|reflexivity|reflexivity|reflexivity|reflexivity|].
+    cbn [Core.acts_of]. intros j Hin. destruct (mqsub s); [destruct Hin as [E|[]]; discriminate E|destruct Hin as [E|[E|[]]]; discriminate E].
+  - unfold Core.step. cbn [fst snd]. eapply (go_frame2 s outs); [exact H|constructor|reflexivity|reflexivity|reflexivity|reflexivity|].
+    cbn [Core.acts_of]. intros j Hin. destruct (mqsub s); [destruct Hin as [E|[]]; discriminate E|destruct Hin as [E|[E|[]]]; discriminate E].
+  - unfold Core.step. cbn [fst snd]. eapply (go_frame2 s outs); [exact H|constructor|reflexivity|reflexivity|reflexivity|reflexivity|].
+    cbn [Core.acts_of]. intros j Hin. destruct (mqsub s); [destruct Hin as [E|[]]; discriminate E|destruct Hin as [E|[E|[]]]; discriminate E].
   - (* GrantEs *)
-    cbn [fst snd fold_left].
+    pose proof H as [H1 H2 H3 H4 H5]. unfold Core.step. cbn [fst snd Core.acts_of].
     destruct (Core.is_add_head val upd (cv s)) eqn:Eh.
     + assert (Hm : mqsub s = true).
-      { destruct (mqsub s) eqn:Em; [reflexivity|]. destruct (H5 eq_refl) as (A&B&_). unfold Core.is_add_head in Eh. rewrite B in Eh. discriminate. }
+      { destruct (mqsub s) eqn:Em; [reflexivity|]. destruct (H5 eq_refl) as (A&B). unfold Core.is_add_head in Eh.
+        destruct (cqe (cv s)) as [|[u| |v|k|k| |n] q] eqn:Eq; try discriminate Eh. exfalso. apply (B k). left; reflexivity. }
       destruct (getreq s) eqn:Eg; cbn [andb negb orb].
       * apply (go_frame s); [exact H|constructor|cbn [Core.getreq]; symmetry; exact Eg|reflexivity|].
         intros Hm'. congruence.
@@ -234,89 +746,40 @@ Proof.
         -- intros _. exact Hm.
         -- intros pre x post E Hx. apply split_in in E. destruct E as [[post' E]|(l & post' & E1 & E2)].
            ++ eapply H4; eassumption.
-           ++ destruct l as [|y l]; [|destruct l; discriminate E2]. rewrite app_nil_r in E1. subst pre. rewrite H2. try rewrite Hm. reflexivity.
+           ++ destruct l as [|y l]; [|destruct l; discriminate E2]. rewrite app_nil_r in E1. subst pre. rewrite H2, Hm. reflexivity.
         -- intros Hm'. congruence.
-    + cbn [andb orb]. apply (go_frame s); [exact H|constructor|cbn [Core.getreq]; apply orb_false_r|reflexivity|].
-      cbn [Core.cv Core.next Core.conns Core.insts]. intros Hm. destruct (H5 Hm) as (A&B&C&D&E&F).
-      rewrite (rune_nil _ B). repeat split; auto.
-      intros c. unfold Core.pass, Core.nop_head. rewrite B. rewrite A. cbn [seq Core.fan fold_left]. unfold Core.fan. cbn [seq fold_left]. apply E.
+    + cbn [andb orb]. eapply (go_frame2 s outs _ _ [Conv.RunE upd]); [exact H|constructor|cbn [Core.getreq]; apply orb_false_r|reflexivity|reflexivity|reflexivity|].
+      intros j [E|[]]. discriminate E.
   - (* GrantConn *)
-    destruct (cqueue (conns s c)) as [|[id|id k|i|i|] q] eqn:Eq; cbn [fst snd].
-    + rewrite app_nil_r. exact H.
-    + destruct (cur (conns s c)) as [i|] eqn:Ec.
-      * assert (Hm : mqsub s = true). { destruct (mqsub s) eqn:Em; [reflexivity|]. destruct (H5 eq_refl) as (A&B&C&D&E&F). rewrite E in Ec. discriminate. }
-        destruct (acc (insts s i)) as [[|]|]; [destruct (Core.is_live val upd (cv s) i)| |]; cbn [fst snd];
-          (apply (go_frame s); [exact H|try constructor; try apply plain_respond_ids|reflexivity|reflexivity|intros Hm'; congruence]).
-      * cbn [fst snd]. destruct (mqsub s) eqn:Em.
-        -- apply (go_frame s); [exact H|repeat constructor|reflexivity|cbn [Core.mqsub]; congruence|intros Hm'; congruence].
-        -- constructor; cbn [Core.getreq Core.mqsub].
-           ++ rewrite count_app, H1. cbn. lia.
-           ++ rewrite count_app, H2. reflexivity.
-           ++ reflexivity.
-           ++ intros pre x post E Hx. apply split_in in E. destruct E as [[post' E]|(l & post' & E1 & E2)].
-              ** eapply H4; eassumption.
-              ** exfalso. assert (Hin : In x ([Core.OMqSub val upd] ++ [Core.OAccessReq val upd c (next s)])) by (rewrite E2; apply in_or_app; right; left; reflexivity).
-                 cbn in Hin. destruct Hin as [<-|[<-|[]]]; discriminate Hx.
-           ++ discriminate.
-    + (* QUnsub *)
-      destruct (cur (conns s c)) as [i|] eqn:Ec.
-      * assert (Hm : mqsub s = true). { destruct (mqsub s) eqn:Em; [reflexivity|]. destruct (H5 eq_refl) as (A&B&C&D&E&F). rewrite E in Ec. discriminate. }
-        destruct (Nat.eqb k 0); [|destruct (Nat.leb k (direct (conns s c))); [destruct (Nat.eqb (direct (conns s c) - k) 0)|]]; cbn [fst snd];
-          (apply (go_frame s); [exact H|repeat constructor|reflexivity|reflexivity|intros Hm'; congruence]).
-      * cbn [fst snd fold_left]. apply (go_frame s); [exact H|repeat constructor|reflexivity|reflexivity|].
-        cbn [Core.cv Core.next Core.conns Core.insts]. intros Hm. destruct (H5 Hm) as (A&B&C&D&E&F).
-        repeat split; auto. intros c'. conn_at c' c; apply E.
-    + (* QAccess *)
-      assert (Em : mqsub s = true \/ mqsub s = false) by (destruct (mqsub s); auto). destruct Em as [Em|Em].
-      * destruct (Core.is_gone val upd (cv s) i); [|destruct (ans (insts s i)) as [[|]|]; [destruct (Core.is_live val upd (cv s) i)| |]]; cbn [fst snd];
-          (apply (go_frame s); [exact H|try constructor; try apply plain_respond_ids; try apply plain_map_err|reflexivity|reflexivity|intros Hm'; congruence]).
-      * destruct (H5 Em) as (A&B&C&D&E&F). rewrite F.
-        assert (X : forall b : bool, (if b then (@nil (Conv.action upd)) else []) = []) by (intros []; reflexivity).
-        destruct (Core.is_gone val upd (cv s) i); cbn [fst snd fold_left];
-        (apply (go_frame s); [exact H|repeat constructor|reflexivity|reflexivity|]; cbn [Core.cv Core.next Core.conns Core.insts]; intros _;
-          repeat split; auto; intros c'; conn_at c' c; apply E).
-    + (* QSub *)
-      assert (Hp : Forall plain (match Conv.cq val upd (csubs (cv s) i) with
-            | Conv.CEvent _ e :: _ =>
-                if Conv.loaded val upd (csubs (cv s) i) && negb (Conv.flag val upd (csubs (cv s) i))
-                then snd (Core.proc_o val upd app c (Conv.sver val upd (csubs (cv s) i), Conv.sval val upd (csubs (cv s) i)) e) else []
-            | _ => [] end ++ (if negb (Core.is_live val upd (cv s) i) && Core.is_live val upd (cstep (cv s) (Conv.RunC upd i)) i
-                  then Core.respond_ids val upd app c (csubs (cstep (cv s) (Conv.RunC upd i)) i) (rcb (insts s i)) else []))).
-      { apply Forall_app. split.
-        - destruct (Conv.cq val upd (csubs (cv s) i)) as [|[|e] ?]; try constructor.
-          destruct (Conv.loaded val upd (csubs (cv s) i) && negb (Conv.flag val upd (csubs (cv s) i))); [apply plain_proc_o|constructor].
-        - destruct (negb (Core.is_live val upd (cv s) i) && Core.is_live val upd (cstep (cv s) (Conv.RunC upd i)) i); [apply plain_respond_ids|constructor]. }
-      apply (go_frame s); [exact H|exact Hp|reflexivity|reflexivity|].
-      cbn [Core.cv Core.next Core.conns Core.insts]. intros Hm. destruct (H5 Hm) as (A&B&C&D&E&F).
-      assert (R : cstep (cv s) (Conv.RunC upd i) = cv s) by (cbn [Conv.step]; rewrite D; reflexivity).
-      rewrite R. unfold Core.is_live. destruct (Conv.loaded val upd (csubs (cv s) i)); cbn [negb andb fold_left]; rewrite R;
-        (repeat split; auto; intros c'; conn_at c' c; apply E).
-    + (* QDispose *)
-      apply (go_frame s); [exact H|repeat constructor|reflexivity|reflexivity|].
-      cbn [Core.cv Core.next Core.conns Core.insts]. intros Hm. destruct (H5 Hm) as (A&B&C&D&E&F).
-      unfold Core.insts_of. rewrite A. cbn [seq filter map fold_left]. rewrite E.
-      repeat split; auto; intros c'; conn_at c' c; try reflexivity; apply E.
+    destruct (cqueue (conns s c)) as [|it q] eqn:Eq; [rewrite step_conn_empty by exact Eq; cbn [fst snd]; rewrite app_nil_r; exact H|].
+    rewrite step_conn by (rewrite Eq; discriminate).
+    destruct (task_shape s c) as (Hs&_&_&Hc). cbv zeta in Hs, Hc. unfold sync in Hs.
+    destruct (conn_task s c) as [[[k oi] nx] ms]. cbn [fst snd] in *.
+    destruct Hc as [(A1&A2&A3&A4)|[(_&A1&A2&A3&A4&A5&A6&A7)|((q'&A0)&A1&A2&A3&A4&A5&A6)]].
+    + subst nx ms. apply (go_frame2 s outs _ _ (ta k)); auto.
+      * eapply Forall_impl; [|exact A4]. apply tout_plain.
+      * intros j Hin. rewrite Forall_forall in A3. apply A3 in Hin. exact Hin.
+    + subst nx ms. pose proof H as [H1 H2 H3 H4 H5]. rewrite A6. destruct (mqsub s) eqn:Em.
+      * apply (go_frame s); [exact H|repeat constructor|reflexivity|cbn [Core.mqsub]; congruence|intros Hm'; congruence].
+      * constructor; cbn [Core.getreq Core.mqsub].
+        -- rewrite count_app, H1. cbn. lia.
+        -- rewrite count_app, H2. reflexivity.
+        -- reflexivity.
+        -- intros pre x post E Hx. apply split_in in E. destruct E as [[post' E]|(l & post' & E1 & E2)].
+           ++ eapply H4; eassumption.
+           ++ exfalso. assert (Hin : In x ([OMqSub] ++ [OAccessReq c (next s) (tok (conns s c))])) by (rewrite E2; apply in_or_app; right; left; reflexivity).
+              cbn in Hin. destruct Hin as [<-|[<-|[]]]; discriminate Hx.
+        -- discriminate.
+    + subst nx ms. rewrite A5. apply (go_frame2 s outs _ _ (ta k)); auto.
+      * repeat constructor.
+      * rewrite A4. intros j Hin. apply in_map_iff in Hin. destruct Hin as (x&E&_). discriminate E.
 Qed.
 
 Lemma go_init t : GO (Core.init val upd d t) [].
 Proof.
   constructor; cbn; try reflexivity; auto.
   - intros pre o post E. destruct pre; discriminate E.
-  - intros _. repeat split; reflexivity.
 Qed.
-
-(* generic: an invariant of (state, outputs) that holds initially and is preserved by every step holds after exec *)
-Lemma exec_ind (P : Core.st val upd -> list out_ -> Prop) t :
-  P (Core.init val upd d t) [] ->
-  (forall ops o, let s := fst (exec t ops) in let outs := snd (exec t ops) in
-     P s outs -> P (fst (step s o)) (outs ++ snd (step s o))) ->
-  forall ops, P (fst (exec t ops)) (snd (exec t ops)).
-Proof.
-  intros H0 Hs ops. induction ops as [|o ops IH] using rev_ind; [exact H0|].
-  specialize (Hs ops o IH). rewrite exec_snoc. destruct (exec t ops) as [s outs]. unfold Core.exec1.
-  cbn [fst snd] in Hs. destruct (step s o) as [s' o']. exact Hs.
-Qed.
-
 Lemma go_exec t ops : GO (fst (exec t ops)) (snd (exec t ops)).
 Proof. apply exec_ind; [apply go_init|]. intros ops' o s outs H. apply go_step, H. Qed.
 
@@ -331,23 +794,8 @@ Proof.
   split; [rewrite H1; apply Conv.b2n_le|]. split; [rewrite H2; apply Conv.b2n_le|]. exact H4.
 Qed.
 
-(* ---------------- frame lemmas about Conv actions ---------------- *)
-Notation cst := (Conv.st val upd).
-Notation act := (Conv.action upd).
-Notation CInv := (Conv.Inv val upd app).
-Notation sgone x := (Conv.gone val upd x).
-Notation ssent x := (Conv.sent val upd x).
-Notation ssubscribed x := (Conv.subscribed val upd x).
-Notation sloaded x := (Conv.loaded val upd x).
-Notation scq x := (Conv.cq val upd x).
-Notation sflag x := (Conv.flag val upd x).
-Notation ssval x := (Conv.sval val upd x).
-Notation ssver x := (Conv.sver val upd x).
-Notation seq_ x := (Conv.eq val upd x).
-Notation sclosed x := (Conv.closed val upd x).
-Notation cqe σ := (Conv.qe val upd σ).
-
-Definition tgt (a : act) : option nat :=
+(* ================= frame lemmas about Conv actions ================= *)
+Definition tgt (a : act_) : option nat :=
   match a with
   | Conv.Subscribe _ k | Conv.Dispose _ k _ | Conv.RunC _ k | Conv.Respond _ k _ | Conv.Unqueue _ k _ | Conv.StartQueue _ k => Some k
   | _ => None
@@ -355,17 +803,16 @@ Definition tgt (a : act) : option nat :=
 
 Lemma subs_other σ a j : tgt a <> Some j -> a <> Conv.RunE upd -> csubs (cstep σ a) j = csubs σ j.
 Proof.
-  intros Ht Hr. destruct a as [u| | |n|k|k cl| |k|k n|k n|k]; cbn [tgt] in Ht; cbn [Conv.step]; try reflexivity.
+  intros Ht Hr. destruct a as [u| | |n| |k|k cl| |k|k n|k n|k]; cbn [tgt] in Ht; cbn [Conv.step]; try reflexivity.
   - destruct (Conv.answered val upd σ); reflexivity.
   - destruct (ssubscribed (csubs σ k)); [reflexivity|]. cbn [Conv.subs]. apply Conv.set_sub_neq. congruence.
   - destruct (sgone (csubs σ k)); [destruct cl|]; cbn [Conv.subs]; try reflexivity; apply Conv.set_sub_neq; congruence.
   - contradiction.
-  - destruct (scq (csubs σ k)) as [|[|e] q]; [reflexivity|destruct (sgone (csubs σ k))|]; cbn [Conv.subs]; apply Conv.set_sub_neq; congruence.
+  - destruct (scq (csubs σ k)) as [|[|e|] q]; [reflexivity|destruct (sgone (csubs σ k))| |]; cbn [Conv.subs]; apply Conv.set_sub_neq; congruence.
   - destruct (sloaded (csubs σ k) && negb (ssent (csubs σ k))); [|reflexivity]. cbn [Conv.subs]. apply Conv.set_sub_neq; congruence.
   - destruct (sloaded (csubs σ k) && ssent (csubs σ k) && sflag (csubs σ k)); [|reflexivity]. cbn [Conv.subs]. apply Conv.set_sub_neq; congruence.
   - destruct (sloaded (csubs σ k) && ssent (csubs σ k)); [|reflexivity]. cbn [Conv.subs]. apply Conv.set_sub_neq; congruence.
 Qed.
-
 Lemma subs_others σ acts j : Forall (fun a => tgt a <> Some j /\ a <> Conv.RunE upd) acts ->
   csubs (fold_left cstep acts σ) j = csubs σ j.
 Proof.
@@ -391,7 +838,7 @@ Proof.
   assert (ID : let x := csubs σ j in ssubscribed x = ssubscribed x /\ sloaded x = sloaded x /\ ssver x = ssver x /\ ssval x = ssval x /\
     sflag x = sflag x /\ seq_ x = seq_ x /\ ssent x = ssent x /\ sgone x = sgone x /\ sclosed x = sclosed x /\
     (scq x = scq x \/ exists it, scq x = scq x ++ [it])) by (cbn zeta; repeat split; left; reflexivity).
-  destruct (cqe σ) as [|[u| |v|k|k|n] q]; cbn [Conv.subs]; try exact ID.
+  destruct (cqe σ) as [|[u| |v|k|k| |n] q]; cbn [Conv.subs]; try exact ID.
   - destruct (Conv.rs_loaded val upd σ); [|exact ID]. destruct (norm u (Conv.rs_val val upd σ)); cbn [Conv.subs]; [apply PA|exact ID].
   - destruct (Conv.rs_loaded val upd σ); [apply PA|exact ID].
   - apply PA.
@@ -399,6 +846,7 @@ Proof.
     unfold Conv.set_sub. destruct (Nat.eqb j k) eqn:E; [|exact ID]. apply Nat.eqb_eq in E. subst k.
     cbn [Conv.push_c Conv.subscribed Conv.loaded Conv.sver Conv.sval Conv.flag Conv.eq Conv.sent Conv.gone Conv.closed Conv.cq].
     repeat split. right. eexists; reflexivity.
+  - apply PA.
 Qed.
 
 Lemma mem_false_fresh σ j : CInv σ -> ssubscribed (csubs σ j) = false -> Conv.mem j (Conv.rs_subs val upd σ) = false.
@@ -412,98 +860,21 @@ Proof.
   intros H Hs. pose proof (mem_false_fresh σ j H Hs) as Hm.
   assert (PA : forall it, scq (Conv.push_all val upd (csubs σ) (Conv.rs_subs val upd σ) it j) = scq (csubs σ j)).
   { intros it. unfold Conv.push_all. rewrite Hm. reflexivity. }
-  cbn [Conv.step]. destruct (cqe σ) as [|[u| |v|k|k|n] q] eqn:Eq; cbn [Conv.subs]; try reflexivity.
+  cbn [Conv.step]. destruct (cqe σ) as [|[u| |v|k|k| |n] q] eqn:Eq; cbn [Conv.subs]; try reflexivity.
   - destruct (Conv.rs_loaded val upd σ); [|reflexivity]. destruct (norm u (Conv.rs_val val upd σ)); cbn [Conv.subs]; [apply PA|reflexivity].
   - destruct (Conv.rs_loaded val upd σ); [apply PA|reflexivity].
   - apply PA.
   - destruct (Conv.rs_loaded val upd σ && negb (sclosed (csubs σ k))); [|reflexivity].
     unfold Conv.set_sub. destruct (Nat.eqb_spec j k) as [->|Hne]; [|reflexivity]. exfalso.
     pose proof (Conv.i3g _ _ _ _ H k) as H3. rewrite Eq, Hs, Conv.cnt_cons in H3. cbn [Conv.is_add] in H3. rewrite Nat.eqb_refl in H3. cbn in H3. lia.
+  - apply PA.
 Qed.
 
-Lemma in_refused_nop (f : nat -> Conv.sub val upd) l i : In (Conv.INop val upd i) (Conv.refused val upd f l) -> False.
-Proof. unfold Conv.refused. intros H. apply in_map_iff in H. destruct H as (x & E & _). discriminate E. Qed.
-
-Lemma nop_step σ a i : In (Conv.INop val upd i) (cqe (cstep σ a)) -> In (Conv.INop val upd i) (cqe σ) \/ a = Conv.SvcNop upd i.
-Proof.
-  destruct a as [u| | |n|k|k cl| |k|k n|k n|k]; cbn [Conv.step].
-  - cbn [Conv.qe]. intros H. apply in_app_or in H. destruct H as [H|[H|[]]]; [left; exact H|discriminate H].
-  - cbn [Conv.qe]. intros H. apply in_app_or in H. destruct H as [H|[H|[]]]; [left; exact H|discriminate H].
-  - destruct (Conv.answered val upd σ); [auto|]. cbn [Conv.qe]. intros H. apply in_app_or in H. destruct H as [H|[H|[]]]; [left; exact H|discriminate H].
-  - cbn [Conv.qe]. intros H. apply in_app_or in H. destruct H as [H|[H|[]]]; [left; exact H|]. injection H as ->. right; reflexivity.
-  - destruct (ssubscribed (csubs σ k)); [auto|]. cbn [Conv.qe]. intros H. apply in_app_or in H. destruct H as [H|[H|[]]]; [left; exact H|discriminate H].
-  - destruct (sgone (csubs σ k)); [destruct cl; cbn [Conv.qe]; auto|]. cbn [Conv.qe]. destruct (sloaded (csubs σ k)); [|auto].
-    intros H. apply in_app_or in H. destruct H as [H|[H|[]]]; [left; exact H|discriminate H].
-  - destruct (cqe σ) as [|[u| |v|k|k|n] q] eqn:Eq; cbn [Conv.qe]; [intros H; rewrite Eq in H; destruct H| | | | | |].
-    + destruct (Conv.rs_loaded val upd σ); [destruct (norm u (Conv.rs_val val upd σ))|]; cbn [Conv.qe]; intros H; left; right; exact H.
-    + intros H; left; right; exact H.
-    + intros H. apply in_app_or in H. destruct H as [H|H]; [left; right; exact H|exfalso; eapply in_refused_nop; exact H].
-    + destruct (Conv.rs_loaded val upd σ && sclosed (csubs σ k)); intros H; [|left; right; exact H].
-      apply in_app_or in H. destruct H as [H|[H|[]]]; [left; right; exact H|discriminate H].
-    + intros H; left; right; exact H.
-    + intros H; left; right; exact H.
-  - destruct (scq (csubs σ k)) as [|[|e] q]; [auto|destruct (sgone (csubs σ k))|]; cbn [Conv.qe]; auto.
-    intros H. apply in_app_or in H. destruct H as [H|[H|[]]]; [left; exact H|discriminate H].
-  - destruct (_ && _); cbn [Conv.qe]; auto.
-  - destruct (_ && _); cbn [Conv.qe]; auto.
-  - destruct (_ && _); cbn [Conv.qe]; auto.
-Qed.
-Lemma nop_steps acts : forall σ i, In (Conv.INop val upd i) (cqe (fold_left cstep acts σ)) ->
-  In (Conv.INop val upd i) (cqe σ) \/ In (Conv.SvcNop upd i) acts.
-Proof.
-  induction acts as [|a acts IH]; intros σ i H; [left; exact H|]. cbn [fold_left] in H.
-  apply IH in H. destruct H as [H|H]; [|right; right; exact H].
-  apply nop_step in H. destruct H as [H|H]; [left; exact H|right; left; exact H].
-Qed.
-
-(* ---------------- the two ways the cache worker reaches the connection queues ---------------- *)
-Definition qsubs_for (σ σ' : cst) (own : nat -> nat) (c : nat) (l : list nat) : list qitem :=
-  map QSub (filter (fun i => Core.grew val upd σ σ' i && Nat.eqb (own i) c) l).
-
-Lemma fan_gen σ σ' own : forall l f c,
-  let f' := fold_left (fun g i => if Core.grew val upd σ σ' i then Core.set_conn g (own i) (Core.push_q (g (own i)) (QSub i)) else g) l f in
-  cqueue (f' c) = cqueue (f c) ++ qsubs_for σ σ' own c l /\ cur (f' c) = cur (f c) /\ direct (f' c) = direct (f c) /\ disc (f' c) = disc (f c).
-Proof.
-  induction l as [|a l IH]; intros f c; cbn [fold_left].
-  - unfold qsubs_for. cbn. rewrite app_nil_r. auto.
-  - cbn zeta in IH. destruct (IH (if Core.grew val upd σ σ' a then Core.set_conn f (own a) (Core.push_q (f (own a)) (QSub a)) else f) c) as (A&B&C&D).
-    rewrite A, B, C, D. unfold qsubs_for. cbn [filter]. destruct (Core.grew val upd σ σ' a); cbn [andb]; [|auto].
-    unfold Core.set_conn. rewrite (Nat.eqb_sym (own a) c). destruct (Nat.eqb c (own a)) eqn:E; [|auto].
-    apply Nat.eqb_eq in E. subst c. cbn [map Core.push_q Core.with_q cqueue cur direct disc]. rewrite <- app_assoc. auto.
-Qed.
-Lemma fan_spec σ σ' own n f c :
-  let f' := Core.fan val upd σ σ' own n f in
-  cqueue (f' c) = cqueue (f c) ++ qsubs_for σ σ' own c (seq 0 n) /\ cur (f' c) = cur (f c) /\ direct (f' c) = direct (f c) /\ disc (f' c) = disc (f c).
-Proof. apply fan_gen. Qed.
-
-Definition qacc_for (σ : cst) (own : nat -> nat) (c : nat) : list qitem :=
-  match Core.nop_head val upd σ with
-  | Some i => if Core.is_closed val upd σ i then [] else if Nat.eqb c (own i) then [QAccess i] else []
-  | None => []
-  end.
-Lemma pass_spec σ own f c :
-  let f' := Core.pass val upd σ own f in
-  cqueue (f' c) = cqueue (f c) ++ qacc_for σ own c /\ cur (f' c) = cur (f c) /\ direct (f' c) = direct (f c) /\ disc (f' c) = disc (f c).
-Proof.
-  cbn zeta. unfold Core.pass, qacc_for. destruct (Core.nop_head val upd σ) as [i|]; [|rewrite app_nil_r; auto].
-  destruct (Core.is_closed val upd σ i); [rewrite app_nil_r; auto|].
-  unfold Core.set_conn. destruct (Nat.eqb c (own i)) eqn:E; [|rewrite app_nil_r; auto].
-  apply Nat.eqb_eq in E. subst c. cbn [Core.push_q Core.with_q cqueue cur direct disc]. auto.
-Qed.
-Lemma grant_conns σ σ' own n f c :
-  let f' := Core.pass val upd σ own (Core.fan val upd σ σ' own n f) in
-  cqueue (f' c) = (cqueue (f c) ++ qsubs_for σ σ' own c (seq 0 n)) ++ qacc_for σ own c /\
-  cur (f' c) = cur (f c) /\ direct (f' c) = direct (f c) /\ disc (f' c) = disc (f c).
-Proof.
-  cbn zeta. destruct (pass_spec σ own (Core.fan val upd σ σ' own n f) c) as (A&B&C&D).
-  destruct (fan_spec σ σ' own n f c) as (A'&B'&C'&D'). rewrite A, B, C, D, A', B', C', D'. auto.
-Qed.
-
-(* ---------------- which actions dispose ---------------- *)
+(* ---------------- what the actions of a subscription do to its record ---------------- *)
 Lemma gone_step σ a j :
   sgone (csubs (cstep σ a) j) = match a with Conv.Dispose _ k _ => Nat.eqb j k || sgone (csubs σ j) | _ => sgone (csubs σ j) end.
 Proof.
-  destruct a as [u| | |n|k|k cl| |k|k n|k n|k];
+  destruct a as [u| | |n| |k|k cl| |k|k n|k n|k];
     try (rewrite subs_other by (cbn [tgt]; congruence); reflexivity).
   - (* Subscribe *) destruct (Nat.eqb_spec j k) as [->|Hne]; [|rewrite subs_other by (cbn [tgt]; congruence); reflexivity].
     cbn [Conv.step]. destruct (ssubscribed (csubs σ k)); [reflexivity|]. cbn [Conv.subs]. rewrite Conv.set_sub_eq. reflexivity.
@@ -511,7 +882,7 @@ Proof.
     cbn [Conv.step orb]. destruct (sgone (csubs σ k)) eqn:Eg; [destruct cl|]; cbn [Conv.subs]; rewrite ?Conv.set_sub_eq; cbn [Conv.dispose Conv.gone]; auto.
   - (* RunE *) destruct (rune_fields σ j) as (_&_&_&_&_&_&_&G&_). exact G.
   - (* RunC *) destruct (Nat.eqb_spec j k) as [->|Hne]; [|rewrite subs_other by (cbn [tgt]; congruence); reflexivity].
-    cbn [Conv.step]. destruct (scq (csubs σ k)) as [|[|e] q]; [reflexivity|destruct (sgone (csubs σ k)) eqn:Eg|]; cbn [Conv.subs]; rewrite Conv.set_sub_eq; cbn [Conv.gone]; auto.
+    cbn [Conv.step]. destruct (scq (csubs σ k)) as [|[|e|] q]; [reflexivity|destruct (sgone (csubs σ k)) eqn:Eg| |]; cbn [Conv.subs]; rewrite Conv.set_sub_eq; cbn [Conv.gone]; auto.
     destruct (negb (sloaded (csubs σ k))); [reflexivity|]. destruct (sflag (csubs σ k)); [reflexivity|].
     destruct (Conv.proc val upd app (ssver (csubs σ k), ssval (csubs σ k)) e). reflexivity.
   - (* Respond *) destruct (Nat.eqb_spec j k) as [->|Hne]; [|rewrite subs_other by (cbn [tgt]; congruence); reflexivity].
@@ -535,17 +906,182 @@ Proof.
   - destruct (rune_fields σ i) as (A'&_&_&_&_&_&B'&C'&_). unfold fresh. rewrite A', B', C', (rune_cq_fresh σ i H A). auto.
   - unfold fresh. rewrite subs_other by assumption. auto.
 Qed.
+Lemma fresh_steps acts : forall σ i, CInv σ -> Forall (fun a => tgt a <> Some i) acts -> fresh σ i -> fresh (fold_left cstep acts σ) i.
+Proof.
+  induction acts as [|a acts IH]; intros σ i H Ha Hf; [exact Hf|]. cbn [fold_left]. inversion Ha; subst.
+  apply IH; [apply cstep_inv, H|assumption|apply fresh_step; assumption].
+Qed.
+Lemma gone_steps acts : forall σ j, Forall (fun a => forall k cl, a = Conv.Dispose upd k cl -> k <> j) acts ->
+  sgone (csubs (fold_left cstep acts σ) j) = sgone (csubs σ j).
+Proof.
+  induction acts as [|a acts IH]; intros σ j Ha; [reflexivity|]. cbn [fold_left]. inversion Ha as [|? ? H1 H2]; subst.
+  rewrite IH by assumption. rewrite gone_step. destruct a; try reflexivity.
+  assert (Hne : s <> j) by (eapply H1; reflexivity). destruct (Nat.eqb_spec j s); [congruence|reflexivity].
+Qed.
 
-Definition benign (n : nat) (a : act) : Prop :=
+(* the actions of a mild handler: StartQueue, Respond, Unqueue *)
+Definition is_mild (i : nat) (a : act_) : Prop :=
+  match a with Conv.StartQueue _ j | Conv.Respond _ j _ | Conv.Unqueue _ j _ => j = i | _ => False end.
+Lemma mild_step σ i a : is_mild i a ->
+  let x := csubs σ i in let x' := csubs (cstep σ a) i in
+  ssubscribed x' = ssubscribed x /\ sloaded x' = sloaded x /\ scq x' = scq x /\ sgone x' = sgone x /\ sclosed x' = sclosed x /\
+  cqe (cstep σ a) = cqe σ.
+Proof.
+  cbn zeta. destruct a as [u| | |n| |k|k cl| |k|k n|k n|k]; cbn [is_mild]; try contradiction; intros ->; cbn [Conv.step].
+  - destruct (_ && _); [|repeat split]. cbn [Conv.subs Conv.qe]. rewrite Conv.set_sub_eq.
+    match goal with |- context [Conv.drain val upd app ?x n] => destruct (Conv.drain_fields val upd app x n) as (A&B&C&_&_&_&G&Gc) end.
+    rewrite A, B, C, G, Gc. repeat split.
+  - destruct (_ && _); [|repeat split]. cbn [Conv.subs Conv.qe]. rewrite Conv.set_sub_eq.
+    match goal with |- context [Conv.drain val upd app ?x n] => destruct (Conv.drain_fields val upd app x n) as (A&B&C&_&_&_&G&Gc) end.
+    rewrite A, B, C, G, Gc. repeat split.
+  - destruct (_ && _); [|repeat split]. cbn [Conv.subs Conv.qe]. rewrite Conv.set_sub_eq. repeat split.
+Qed.
+Lemma mild_steps la : forall σ i, Forall (is_mild i) la ->
+  let x := csubs σ i in let x' := csubs (fold_left cstep la σ) i in
+  ssubscribed x' = ssubscribed x /\ sloaded x' = sloaded x /\ scq x' = scq x /\ sgone x' = sgone x /\ sclosed x' = sclosed x /\
+  cqe (fold_left cstep la σ) = cqe σ.
+Proof.
+  induction la as [|a la IH]; intros σ i H; cbn zeta; [repeat split|]. cbn [fold_left]. inversion H as [|? ? H1 H2]; subst.
+  destruct (IH (cstep σ a) i H2) as (A&B&C&D&E&F). destruct (mild_step σ i a H1) as (A'&B'&C'&D'&E'&F'). cbn zeta in *.
+  rewrite A, B, C, D, E, F. repeat split; assumption.
+Qed.
+Lemma hact_mild i a : hact true i a -> is_mild i a.
+Proof. destruct a; cbn [hact is_mild]; auto. intros (_&_&X). discriminate X. Qed.
+
+(* what a mild handler leaves alone *)
+Lemma ext_mild c i k k' : ext true c i k k' ->
+  tx k' = tx k /\ gone_ i k' = gone_ i k /\ loaded_ i k' = loaded_ i k /\ scq (me i k') = scq (me i k) /\ cqe (ts k') = cqe (ts k).
+Proof.
+  intros [(la&A1&A2&A3) _ T _ _ _ _ _]. split; [apply T; reflexivity|].
+  assert (Hm : Forall (is_mild i) la) by (eapply Forall_impl; [|exact A3]; apply hact_mild).
+  destruct (mild_steps la (ts k) i Hm) as (A&B&C&D&E&F). cbn zeta in *.
+  unfold Core.gone_, Core.loaded_, Core.me. rewrite A2. auto.
+Qed.
+
+(* ================= the subscription a task serves and the connection's record ================= *)
+Definition SH (i : nat) (k : tk_) : Prop :=
+  (gone_ i k = false /\ cur (tx k) = Some i /\ 0 < direct (tx k)) \/ (gone_ i k = true /\ cur (tx k) = None /\ direct (tx k) = 0).
+
+Lemma gone_act i k a :
+  gone_ i (actk k a) = match a with Conv.Dispose _ j _ => Nat.eqb i j || gone_ i k | _ => gone_ i k end.
+Proof. unfold Core.gone_, Core.me. cbn [Core.act Core.ts]. apply gone_step. Qed.
+
+Lemma sh_mild c i k k' : ext true c i k k' -> SH i k -> SH i k'.
+Proof. intros He H. destruct (ext_mild c i k k' He) as (A&B&_). unfold SH. rewrite A, B. exact H. Qed.
+Lemma sh_emit i k o : SH i k -> SH i (emit k o).
+Proof. intros H. exact H. Qed.
+Lemma sh_sety i k y : SH i k -> SH i (sety k y).
+Proof. intros H. exact H. Qed.
+
+Lemma sh_remove i k n : SH i k -> SH i (remove_direct i k n).
+Proof.
+  intros H. unfold Core.remove_direct. destruct (Nat.eqb_spec (direct (tx k)) 0) as [E0|E0]; [exact H|]. cbv zeta.
+  cbn [Core.setx Core.tx Core.with_cd direct].
+  destruct H as [(G&C&D)|(G&C&D)]; [|congruence].
+  destruct (Nat.eqb_spec (direct (tx k) - n) 0) as [Ez|Ez].
+  - unfold Core.dispose_t.
+    change (gone_ i (setx k (Core.with_cd (tx k) (cur (tx k)) (direct (tx k) - n)))) with (gone_ i k). rewrite G. cbv zeta.
+    right. cbn [Core.setx Core.sety Core.tx Core.ty Core.with_cd cur direct Core.act].
+    split; [|split; [reflexivity|exact Ez]].
+    change (gone_ i (actk k (Conv.Dispose upd i false)) = true). rewrite gone_act, Nat.eqb_refl. reflexivity.
+  - left. cbn [Core.setx Core.tx Core.with_cd cur direct]. repeat split; [exact G|exact C|lia].
+Qed.
+Lemma sh_unsubd c i k : SH i k -> SH i (unsubscribe_direct c i k).
+Proof. intros H. unfold Core.unsubscribe_direct. destruct (Nat.ltb 0 (direct (tx k))); [|exact H]. apply sh_emit, sh_remove, H. Qed.
+Lemma sh_run_cb c i g k b : SH i k -> SH i (run_cb c i g k b).
+Proof.
+  intros H. unfold Core.run_cb. destruct b as [id|].
+  - destruct g.
+    + destruct (gone_ i k); [exact H|]. eapply sh_mild; [apply x_ready, ext_refl|exact H].
+    + apply sh_remove, sh_emit, H.
+  - eapply sh_mild; [apply x_unqueue, ext_refl|]. destruct g; [exact H|apply sh_unsubd, H].
+Qed.
+Lemma sh_run_cbs c i g l : forall k, SH i k -> SH i (fold_left (run_cb c i g) l k).
+Proof. induction l as [|b l IH]; intros k H; [exact H|]. cbn [fold_left]. apply IH, sh_run_cb, H. Qed.
+
+Lemma sh_body_req s c x id q i : sgone (csubs (cv s) i) = false -> SH i (body_req s c x id q i).
+Proof.
+  intros G. assert (H0 : SH i (K0 s (Core.with_cd (Core.with_q x q) (Some i) (S (direct x))) (insts s i))).
+  { left. repeat split; [exact G|cbn; lia]. }
+  unfold body_req. cbv zeta. destruct (acc (insts s i)) as [[|]|].
+  - eapply sh_mild; [apply x_ready, ext_refl|exact H0].
+  - apply sh_remove, sh_emit, H0.
+  - eapply sh_mild; [apply x_load, ext_refl|exact H0].
+Qed.
+Lemma sh_body_unsub s c x id cnt q i : sgone (csubs (cv s) i) = false -> cur x = Some i -> 0 < direct x ->
+  SH i (body_unsub s c x id cnt q i).
+Proof.
+  intros G C D. assert (H0 : SH i (K0 s (Core.with_q x q) (insts s i))) by (left; repeat split; assumption).
+  unfold body_unsub. cbv zeta. destruct (Nat.eqb cnt 0); [exact H0|]. destruct (Nat.leb cnt (direct x)); [|exact H0].
+  apply sh_remove. destruct (Nat.eqb (direct x - cnt) 0); exact H0.
+Qed.
+Lemma sh_body_access s c x q i : sgone (csubs (cv s) i) = false -> cur x = Some i -> 0 < direct x ->
+  SH i (body_access s c x q i).
+Proof.
+  intros G C D. assert (H0 : SH i (K0 s (Core.with_q x q) (insts s i))) by (left; repeat split; assumption).
+  unfold body_access. cbv zeta. destruct (ans (insts s i)) as [g|]; [|exact H0]. apply sh_run_cbs. exact H0.
+Qed.
+Lemma sh_body_sub s c x q i : sgone (csubs (cv s) i) = false -> cur x = Some i -> 0 < direct x ->
+  SH i (body_sub s c x q i).
+Proof.
+  intros G C D. assert (H0 : SH i (actk (K0 s (Core.with_q x q) (insts s i)) (Conv.RunC upd i))).
+  { left. rewrite gone_act. repeat split; assumption. }
+  unfold body_sub. cbv zeta. destruct (scq (csubs (cv s) i)) as [|[|e|] q'].
+  - exact H0.
+  - rewrite G. eapply sh_mild; [apply x_respond, ext_refl|]. exact H0.
+  - exact H0.
+  - eapply sh_mild; [apply x_reacc, ext_refl|exact H0].
+Qed.
+
+(* ================= structure of the reachable states ================= *)
+Definition okitem (s : st_) (c : nat) (it : qitem) : Prop :=
+  match it with
+  | QReq _ | QUnsub _ _ | QToken _ => True
+  | QDispose => disc (conns s c) = true
+  | QAccess i | QSub i => i < next s /\ owner (insts s i) = c
+  end.
+
+Record WF (s : st_) : Prop := {
+  w_cur : forall c i, cur (conns s c) = Some i ->
+            i < next s /\ owner (insts s i) = c /\ sgone (csubs (cv s) i) = false /\ 0 < direct (conns s c);
+  w_live : forall i, i < next s -> sgone (csubs (cv s) i) = false -> cur (conns s (owner (insts s i))) = Some i;
+  w_fresh : forall i, next s <= i -> fresh (cv s) i;
+  w_q : forall c it, In it (cqueue (conns s c)) -> okitem s c it;
+  w_dir : forall c, cur (conns s c) = None -> direct (conns s c) = 0;
+  w_nop : forall i, In (Conv.INop val upd i) (cqe (cv s)) -> i < next s;
+  w_ms : mqsub s = false -> next s = 0 }.
+
+Lemma wf_frame s s' : WF s ->
+  next s' = next s -> mqsub s' = mqsub s ->
+  (forall c, cur (conns s' c) = cur (conns s c)) ->
+  (forall c, direct (conns s' c) = direct (conns s c)) ->
+  (forall i, owner (insts s' i) = owner (insts s i)) ->
+  (forall i, sgone (csubs (cv s') i) = sgone (csubs (cv s) i)) ->
+  (forall i, next s <= i -> fresh (cv s) i -> fresh (cv s') i) ->
+  (forall c it, In it (cqueue (conns s' c)) -> In it (cqueue (conns s c)) \/ okitem s' c it) ->
+  (forall c, disc (conns s c) = true -> disc (conns s' c) = true) ->
+  (forall i, In (Conv.INop val upd i) (cqe (cv s')) -> In (Conv.INop val upd i) (cqe (cv s)) \/ i < next s) ->
+  WF s'.
+Proof.
+  intros [W1 W2 W3 W4 W5 W6 W7] En Em Ec Ed Eo Eg Ef Eq Edc Eno.
+  constructor.
+  - intros c i Hc. rewrite Ec in Hc. rewrite En, Eo, Eg, Ed. apply W1, Hc.
+  - intros i Hi Hg. rewrite En in Hi. rewrite Eg in Hg. rewrite Eo, Ec. apply W2; assumption.
+  - intros i Hi. rewrite En in Hi. apply Ef; [exact Hi|apply W3, Hi].
+  - intros c it Hin. apply Eq in Hin. destruct Hin as [Hin|Hin]; [|exact Hin].
+    apply W4 in Hin. destruct it; cbn [okitem] in *; auto; rewrite ?En, ?Eo; auto.
+  - intros c Hc. rewrite Ec in Hc. rewrite Ed. apply W5, Hc.
+  - intros i Hin. rewrite En. apply Eno in Hin. destruct Hin as [Hin|Hin]; [apply W6, Hin|exact Hin].
+  - rewrite Em, En. exact W7.
+Qed.
+
+Definition benign (n : nat) (a : act_) : Prop :=
   match a with
-  | Conv.Dispose _ _ _ | Conv.Subscribe _ _ | Conv.Unqueue _ _ _ | Conv.StartQueue _ _ => False
-  | Conv.RunC _ j | Conv.Respond _ j _ => j < n
+  | Conv.Dispose _ _ _ | Conv.Subscribe _ _ | Conv.Unqueue _ _ _ | Conv.StartQueue _ _ | Conv.Respond _ _ _ => False
+  | Conv.RunC _ j => j < n
   | Conv.SvcNop _ i => i < n
   | _ => True
   end.
-
-Lemma cstep_inv σ a : CInv σ -> CInv (cstep σ a).
-Proof. apply (Conv.step_inv val upd app norm norm_none norm_some). Qed.
 
 Lemma benign_steps n acts : forall σ, CInv σ -> Forall (benign n) acts ->
   let σ' := fold_left cstep acts σ in
@@ -561,103 +1097,13 @@ Proof.
     + intros i Hi Hf. apply F; [exact Hi|]. apply fresh_step; [exact H| |exact Hf].
       destruct a; cbn [tgt benign] in *; try discriminate; try contradiction; intros E; injection E as ->; lia.
     + intros i Hin. apply N in Hin. destruct Hin as [Hin|Hin]; [|right; exact Hin].
-      apply nop_step in Hin. destruct Hin as [Hin| ->]; [left; exact Hin|right; exact Ha].
+      apply (nop_steps [a]) in Hin. destruct Hin as [Hin|[Hin|[]]]; [left; exact Hin|right]. subst a. exact Ha.
 Qed.
 
-(* ---------------- structure of the reachable states ---------------- *)
-Definition okitem (s s' : Core.st val upd) (c : nat) (it : qitem) : Prop :=
-  match it with
-  | QReq _ | QUnsub _ _ => True
-  | QDispose => disc (conns s' c) = true
-  | QAccess i | QSub i => i < next s /\ owner (insts s i) = c
-  end.
-
-Record WF (s : Core.st val upd) : Prop := {
-  w_cur : forall c i, cur (conns s c) = Some i -> i < next s /\ owner (insts s i) = c /\ sgone (csubs (cv s) i) = false;
-  w_live : forall i, i < next s -> sgone (csubs (cv s) i) = false -> cur (conns s (owner (insts s i))) = Some i;
-  w_fresh : forall i, next s <= i -> fresh (cv s) i;
-  w_q : forall c it, In it (cqueue (conns s c)) -> okitem s s c it;
-  w_dir : forall c, cur (conns s c) = None -> direct (conns s c) = 0;
-  w_nop : forall i, In (Conv.INop val upd i) (cqe (cv s)) -> i < next s;
-  w_acc : forall i b, acc (insts s i) = Some b -> ans (insts s i) = Some b }.
-
-Lemma wf_frame s s' : WF s ->
-  next s' = next s ->
-  (forall c, cur (conns s' c) = cur (conns s c)) ->
-  (forall c, cur (conns s c) = None -> direct (conns s' c) = direct (conns s c)) ->
-  (forall i, owner (insts s' i) = owner (insts s i)) ->
-  (forall i b, acc (insts s' i) = Some b -> ans (insts s' i) = Some b) ->
-  (forall i, sgone (csubs (cv s') i) = sgone (csubs (cv s) i)) ->
-  (forall i, next s <= i -> fresh (cv s) i -> fresh (cv s') i) ->
-  (forall c it, In it (cqueue (conns s' c)) -> In it (cqueue (conns s c)) \/ okitem s s' c it) ->
-  (forall c, disc (conns s c) = true -> disc (conns s' c) = true) ->
-  (forall i, In (Conv.INop val upd i) (cqe (cv s')) -> In (Conv.INop val upd i) (cqe (cv s)) \/ i < next s) ->
-  WF s'.
-Proof.
-  intros [W1 W2 W3 W4 W5 W6 W7] En Ec Ed Eo Ea Eg Ef Eq Edc Eno.
-  constructor.
-  - intros c i Hc. rewrite Ec in Hc. rewrite En, Eo, Eg. apply W1, Hc.
-  - intros i Hi Hg. rewrite En in Hi. rewrite Eg in Hg. rewrite Eo, Ec. apply W2; assumption.
-  - intros i Hi. rewrite En in Hi. apply Ef; [exact Hi|apply W3, Hi].
-  - intros c it Hin. apply Eq in Hin. destruct Hin as [Hin|Hin].
-    + apply W4 in Hin. destruct it; cbn [okitem] in *; auto; rewrite ?En, ?Eo; auto.
-    + destruct it; cbn [okitem] in *; auto; rewrite ?En, ?Eo; auto.
-  - intros c Hc. rewrite Ec in Hc. rewrite Ed by exact Hc. apply W5, Hc.
-  - intros i Hin. rewrite En. apply Eno in Hin. destruct Hin as [Hin|Hin]; [apply W6, Hin|exact Hin].
-  - exact Ea.
-Qed.
-
-Ltac step_cases s o :=
-  unfold Core.step; destruct o as [c id|c id k|c|i g| |u| | |c]; cbn [Core.acts_of];
-  [ destruct (disc (conns s c)) eqn:Ed
-  | destruct (disc (conns s c)) eqn:Ed
-  | destruct (disc (conns s c)) eqn:Ed
-  | destruct (Nat.ltb i (next s) && Core.unanswered (insts s i)) eqn:Et
-  | | | |
-  | destruct (cqueue (conns s c)) as [|[id|id k|i|i|] q] eqn:Eq;
-    [ | destruct (cur (conns s c)) as [i|] eqn:Ec;
-        [destruct (acc (insts s i)) as [[|]|] eqn:Ea; [destruct (Core.is_live val upd (cv s) i) eqn:El| |] |]
-      | rewrite ?leb1; destruct (cur (conns s c)) as [i|] eqn:Ec;
-        [destruct (Nat.eqb k 0) eqn:Ek;
-           [|destruct (Nat.leb k (direct (conns s c))) eqn:Ele; [destruct (Nat.eqb (direct (conns s c) - k) 0) eqn:Ez|]]|]
-      | destruct (Core.is_gone val upd (cv s) i) eqn:Eg;
-        [|destruct (ans (insts s i)) as [[|]|] eqn:Ean; [destruct (Core.is_live val upd (cv s) i) eqn:El| |]]
-      | | ] ];
-  cbn [fst snd negb andb].
-
-Ltac inst_at j i := unfold Core.set_inst; destruct (Nat.eqb_spec j i) as [->|?]; cbn [Core.with_cbs owner acb rcb acc ans lost].
-
-Lemma benign_respond n i x ids : i < n -> Forall (benign n) (Core.respond_acts val upd i x ids).
-Proof. intros Hi. unfold Core.respond_acts. destruct ids; [constructor|]. destruct (ssent x); repeat constructor. exact Hi. Qed.
-
-Lemma in_qsubs_for σ σ' own c n it : In it (qsubs_for σ σ' own c (seq 0 n)) -> exists i, it = QSub i /\ i < n /\ own i = c.
-Proof.
-  unfold qsubs_for. intros H. apply in_map_iff in H. destruct H as (i & <- & H). apply filter_In in H. destruct H as [H1 H2].
-  apply in_seq in H1. apply andb_prop in H2. destruct H2 as [_ H2]. apply Nat.eqb_eq in H2. exists i. repeat split; [lia|exact H2].
-Qed.
-Lemma in_qacc_for σ own c it : In it (qacc_for σ own c) -> exists i, it = QAccess i /\ own i = c /\ In (Conv.INop val upd i) (cqe σ).
-Proof.
-  unfold qacc_for, Core.nop_head. destruct (cqe σ) as [|[u| |v|k|k|n] q]; try (intros []).
-  destruct (Core.is_closed val upd σ n); [intros []|]. destruct (Nat.eqb_spec c (own n)) as [->|]; [|intros []].
-  intros [<-|[]]. exists n. repeat split. left; reflexivity.
-Qed.
-
-Ltac use_benign Hinv :=
-  match goal with |- context [fold_left (Conv.step val upd app norm) ?A (Core.cv val upd ?s)] =>
-    let HB := fresh "HB" in assert (HB : Forall (benign (next s)) A);
-      [|destruct (benign_steps (next s) A (cv s) Hinv HB) as (BG&BF&BN)] end.
-
-(* the branches of a connection worker that leave cur, next and the set of disposed instances alone *)
-Ltac frame_conn Hw c Eq :=
-  apply (wf_frame _ _ Hw); cbn [Core.next Core.conns Core.insts Core.cv];
-  [ reflexivity
-  | let c' := fresh "c'" in intros c'; conn_at c' c; try reflexivity; try (symmetry; assumption); try congruence
-  | let c' := fresh "c'" in intros c'; conn_at c' c; intros; try reflexivity; try congruence
-  | | | |
-  | let c' := fresh "c'" in let it := fresh "it" in let Hin := fresh "Hin" in
-    intros c' it; conn_at c' c; intros Hin; left; try assumption; rewrite Eq; right; exact Hin
-  | let c' := fresh "c'" in intros c'; conn_at c' c; auto
-  | ].
+Ltac conn_at c' c := unfold Core.set_conn; destruct (Nat.eqb_spec c' c) as [->|?];
+  cbn [Core.push_q Core.with_q Core.with_cd xtok cur direct disc cqueue tokset tok].
+Ltac inst_at j i := unfold Core.set_inst; destruct (Nat.eqb_spec j i) as [->|?];
+  cbn [Core.upd_y owner acb rcb acc inflight ans reflag rq lost].
 
 Lemma existsb_eqb_false j l : (forall x, In x l -> x <> j) -> existsb (Nat.eqb j) l = false.
 Proof.
@@ -679,27 +1125,80 @@ Proof.
     + intros j. rewrite G, gone_step. cbn [existsb]. destruct (Nat.eqb j a), (existsb (Nat.eqb j) l), (sgone (csubs σ j)); reflexivity.
     + intros j Hn Hf. apply F; [intros Hin; apply Hn; right; exact Hin|].
       apply fresh_step; [exact H|cbn [tgt]; intros E; injection E as ->; apply Hn; left; reflexivity|exact Hf].
-    + intros k Hin. apply N in Hin. apply nop_step in Hin. destruct Hin as [Hin|Hin]; [exact Hin|discriminate Hin].
+    + intros k Hin. apply N in Hin. apply (nop_steps [_]) in Hin. destruct Hin as [Hin|[Hin|[]]]; [exact Hin|discriminate Hin].
 Qed.
 
+Lemma tact_tgt oi a : tact oi a -> tgt a = oi /\ a <> Conv.RunE upd /\ (forall n, a <> Conv.SvcNop upd n) /\ (forall j, a <> Conv.Subscribe upd j).
+Proof.
+  destruct a as [u| | |n| |k|k cl| |k|k n|k n|k]; cbn [tact tgt]; try contradiction; intros X;
+    (split; [|split; [discriminate|split; intros; discriminate]]); try (symmetry; exact X).
+  destruct X as [X _]. symmetry; exact X.
+Qed.
+
+(* a task that served the connection's current subscription *)
+Lemma wf_upd s c i k nq : WF s -> CInv (cv s) -> cur (conns s c) = Some i ->
+  sync (cv s) k -> Forall (tact (Some i)) (ta k) -> SH i k ->
+  (forall it, In it (cqueue (tx k)) -> In it (cqueue (conns s c))) -> disc (tx k) = disc (conns s c) -> owner (ty k) = c ->
+  WF {| Core.cv := ts k; Core.conns := Core.set_conn (conns s) c (tx k); Core.insts := Core.set_inst (insts s) i (ty k);
+        Core.next := next s; Core.mqsub := mqsub s; Core.getreq := nq |}.
+Proof.
+  intros Hw Hinv Hc Hs Ha Hsh Hq Hd Ho. pose proof Hw as [W1 W2 W3 W4 W5 W6 W7]. destruct (W1 c i Hc) as (Hi&Hoi&Hg&Hdir).
+  assert (Hoth : forall j, j <> i -> csubs (ts k) j = csubs (cv s) j).
+  { intros j Hne. rewrite Hs. apply subs_others. eapply Forall_impl; [|exact Ha].
+    intros a X. destruct (tact_tgt _ a X) as (T1&T2&_). split; [congruence|exact T2]. }
+  assert (Hown : forall j, owner (Core.set_inst (insts s) i (ty k) j) = owner (insts s j)).
+  { intros j. inst_at j i; congruence. }
+  constructor; cbn [Core.cv Core.conns Core.insts Core.next Core.mqsub].
+  - intros c' i'. rewrite Hown. conn_at c' c.
+    + intros Hc'. destruct Hsh as [(G&C&D)|(G&C&D)]; [|congruence]. rewrite C in Hc'. injection Hc' as <-. auto.
+    + intros Hc'. destruct (W1 c' i' Hc') as (A&B&C&D). rewrite Hoth by congruence. auto.
+  - intros j Hj. rewrite Hown. destruct (Nat.eq_dec j i) as [->|Hne].
+    + intros G. rewrite Hoi. unfold Core.set_conn. rewrite Nat.eqb_refl. destruct Hsh as [(G'&C&D)|(G'&C&D)]; [exact C|].
+      unfold Core.gone_, Core.me in G'. congruence.
+    + rewrite Hoth by exact Hne. intros G. pose proof (W2 j Hj G) as Hcj. unfold Core.set_conn.
+      destruct (Nat.eqb_spec (owner (insts s j)) c) as [E|E]; [rewrite E in Hcj; congruence|exact Hcj].
+  - intros j Hj. rewrite Hs. apply fresh_steps; [exact Hinv| |apply W3, Hj].
+    eapply Forall_impl; [|exact Ha]. intros a X. destruct (tact_tgt _ a X) as (T1&_). rewrite T1. intros E; injection E as ->; lia.
+  - intros c' it. conn_at c' c.
+    + intros Hin. apply Hq, W4 in Hin. destruct it; cbn [okitem] in *; cbn [Core.next Core.insts Core.conns]; rewrite ?Hown; auto.
+      unfold Core.set_conn. rewrite Nat.eqb_refl. congruence.
+    + intros Hin. apply W4 in Hin. destruct it; cbn [okitem] in *; cbn [Core.next Core.insts Core.conns]; rewrite ?Hown; auto.
+      unfold Core.set_conn. destruct (Nat.eqb_spec c' c); [contradiction|exact Hin].
+  - intros c'. conn_at c' c; [|apply W5]. intros Hc'. destruct Hsh as [(G&C&D)|(G&C&D)]; [congruence|exact D].
+  - intros j Hin. rewrite Hs in Hin. apply nop_steps in Hin. destruct Hin as [Hin|Hin]; [apply W6, Hin|].
+    rewrite Forall_forall in Ha. apply Ha in Hin. destruct Hin.
+  - exact W7.
+Qed.
+
+Lemma body_sub_gone s c x q i : CInv (cv s) -> sgone (csubs (cv s) i) = true ->
+  let k := body_sub s c x q i in
+  tx k = Core.with_q x q /\ ty k = insts s i /\ to k = [] /\ ta k = [Conv.RunC upd i] /\ ts k = cstep (cv s) (Conv.RunC upd i).
+Proof.
+  intros Hinv G. cbv zeta. unfold body_sub. cbv zeta. destruct (scq (csubs (cv s) i)) as [|[|e|] q'].
+  - repeat split.
+  - rewrite G. repeat split.
+  - rewrite (Conv.igl _ _ _ _ Hinv i G). cbn [andb]. repeat split.
+  - unfold Core.reaccess. rewrite gone_act. unfold Core.gone_, Core.me. cbn [Core.ts]. rewrite G. repeat split.
+Qed.
+
+(* the disposal task, and an unsubscribe or denial that gives the subscription up *)
 Lemma wf_drop s s' c (l : list nat) : WF s ->
-  next s' = next s ->
+  next s' = next s -> mqsub s' = mqsub s ->
   (forall j, In j l -> j < next s /\ owner (insts s j) = c) ->
   (forall i, cur (conns s c) = Some i -> In i l) ->
   cur (conns s' c) = None -> direct (conns s' c) = 0 -> disc (conns s' c) = disc (conns s c) ->
   (forall c', c' <> c -> conns s' c' = conns s c') ->
   (forall it, In it (cqueue (conns s' c)) -> In it (cqueue (conns s c))) ->
   (forall j, owner (insts s' j) = owner (insts s j)) ->
-  (forall j b, acc (insts s' j) = Some b -> ans (insts s' j) = Some b) ->
   (forall j, sgone (csubs (cv s') j) = existsb (Nat.eqb j) l || sgone (csubs (cv s) j)) ->
   (forall j, next s <= j -> fresh (cv s') j) ->
   (forall k, In (Conv.INop val upd k) (cqe (cv s')) -> In (Conv.INop val upd k) (cqe (cv s))) ->
   WF s'.
 Proof.
-  intros [W1 W2 W3 W4 W5 W6 W7] En Hl Hcl Ec Ed Edc Eo Eq Eow Ea Eg Ef Eno.
+  intros [W1 W2 W3 W4 W5 W6 W7] En Em Hl Hcl Ec Ed Edc Eo Eq Eow Eg Ef Eno.
   constructor.
   - intros c' i' Hc. destruct (Nat.eq_dec c' c) as [->|Hne]; [congruence|]. rewrite (Eo c' Hne) in Hc.
-    destruct (W1 c' i' Hc) as (A&B&C). rewrite En, Eow, Eg, C. repeat split; auto.
+    destruct (W1 c' i' Hc) as (A&B&C&D). rewrite En, Eow, Eg, C, (Eo c' Hne). repeat split; auto.
     rewrite existsb_eqb_false; [reflexivity|]. intros x Hx ->. destruct (Hl i' Hx) as [_ Ho]. congruence.
   - intros j Hj Hg. rewrite En in Hj. rewrite Eg in Hg. apply orb_false_elim in Hg. destruct Hg as [Hg1 Hg2].
     pose proof (W2 j Hj Hg2) as Hc. rewrite Eow.
@@ -712,84 +1211,99 @@ Proof.
     destruct Hin' as [Hin' Hd]. apply W4 in Hin'. destruct it; cbn [okitem] in *; rewrite ?En, ?Eow, ?Hd; auto.
   - intros c' Hc. destruct (Nat.eq_dec c' c) as [->|Hne]; [exact Ed|]. rewrite (Eo c' Hne) in *. apply W5, Hc.
   - intros k Hin. rewrite En. apply W6, Eno, Hin.
-  - exact Ea.
+  - rewrite Em, En. exact W7.
 Qed.
 
-Ltac acc_tac W7 := let E := fresh "E" in intros E; first [discriminate E | rewrite <- E; apply W7; assumption | apply W7; exact E].
+Lemma in_seq0 j n : In j (seq 0 n) <-> j < n.
+Proof. rewrite in_seq. lia. Qed.
 
-Lemma wf_step s o : CInv (cv s) -> WF s -> WF (fst (step s o)).
+(* ---------------- the two ways the cache worker reaches the connection queues ---------------- *)
+Definition qsubs_for (σ σ' : cst) (own : nat -> nat) (c : nat) (l : list nat) : list qitem :=
+  map QSub (filter (fun i => Core.grew val upd σ σ' i && Nat.eqb (own i) c) l).
+Definition same_rec (x' x : conn) : Prop :=
+  cur x' = cur x /\ direct x' = direct x /\ disc x' = disc x /\ tokset x' = tokset x /\ tok x' = tok x.
+Lemma same_rec_refl x : same_rec x x.
+Proof. repeat split. Qed.
+Lemma same_rec_trans x y z : same_rec x y -> same_rec y z -> same_rec x z.
+Proof. unfold same_rec. intros (A&B&C&D&E) (A'&B'&C'&D'&E'). repeat split; congruence. Qed.
+
+Lemma fan_gen σ σ' own : forall l f c,
+  let f' := fold_left (fun g i => if Core.grew val upd σ σ' i then Core.set_conn g (own i) (Core.push_q (g (own i)) (QSub i)) else g) l f in
+  cqueue (f' c) = cqueue (f c) ++ qsubs_for σ σ' own c l /\ same_rec (f' c) (f c).
+Proof.
+  induction l as [|a l IH]; intros f c; cbn [fold_left].
+  - unfold qsubs_for. cbn. rewrite app_nil_r. split; [reflexivity|apply same_rec_refl].
+  - cbn zeta in IH. destruct (IH (if Core.grew val upd σ σ' a then Core.set_conn f (own a) (Core.push_q (f (own a)) (QSub a)) else f) c) as (A&B).
+    rewrite A. unfold qsubs_for. cbn [filter]. destruct (Core.grew val upd σ σ' a); cbn [andb]; [|auto].
+    split.
+    + unfold Core.set_conn. rewrite (Nat.eqb_sym (own a) c). destruct (Nat.eqb c (own a)) eqn:E; [|reflexivity].
+      apply Nat.eqb_eq in E. subst c. cbn [map Core.push_q Core.with_q cqueue]. rewrite <- app_assoc. reflexivity.
+    + eapply same_rec_trans; [exact B|]. unfold Core.set_conn. destruct (Nat.eqb c (own a)) eqn:E; [|apply same_rec_refl].
+      apply Nat.eqb_eq in E. subst c. repeat split.
+Qed.
+Lemma fan_spec σ σ' own n f c :
+  let f' := Core.fan val upd σ σ' own n f in
+  cqueue (f' c) = cqueue (f c) ++ qsubs_for σ σ' own c (seq 0 n) /\ same_rec (f' c) (f c).
+Proof. apply fan_gen. Qed.
+
+Definition qacc_for (σ : cst) (own : nat -> nat) (c : nat) : list qitem :=
+  match Core.nop_head val upd σ with
+  | Some i => if Core.is_closed val upd σ i then [] else if Nat.eqb c (own i) then [QAccess i] else []
+  | None => []
+  end.
+Lemma pass_spec σ own f c :
+  let f' := Core.pass val upd σ own f in
+  cqueue (f' c) = cqueue (f c) ++ qacc_for σ own c /\ same_rec (f' c) (f c).
+Proof.
+  cbn zeta. unfold Core.pass, qacc_for. destruct (Core.nop_head val upd σ) as [i|]; [|rewrite app_nil_r; split; [reflexivity|apply same_rec_refl]].
+  destruct (Core.is_closed val upd σ i); [rewrite app_nil_r; split; [reflexivity|apply same_rec_refl]|].
+  unfold Core.set_conn. destruct (Nat.eqb c (own i)) eqn:E; [|rewrite app_nil_r; split; [reflexivity|apply same_rec_refl]].
+  apply Nat.eqb_eq in E. subst c. cbn [Core.push_q Core.with_q cqueue]. split; [reflexivity|repeat split].
+Qed.
+Lemma grant_conns σ σ' own n f c :
+  let f' := Core.pass val upd σ own (Core.fan val upd σ σ' own n f) in
+  cqueue (f' c) = (cqueue (f c) ++ qsubs_for σ σ' own c (seq 0 n)) ++ qacc_for σ own c /\ same_rec (f' c) (f c).
+Proof.
+  cbn zeta. destruct (pass_spec σ own (Core.fan val upd σ σ' own n f) c) as (A&B).
+  destruct (fan_spec σ σ' own n f c) as (A'&B'). rewrite A, A'. split; [reflexivity|eapply same_rec_trans; eassumption].
+Qed.
+Lemma in_qsubs_for σ σ' own c n it : In it (qsubs_for σ σ' own c (seq 0 n)) -> exists i, it = QSub i /\ i < n /\ own i = c.
+Proof.
+  unfold qsubs_for. intros H. apply in_map_iff in H. destruct H as (i & <- & H). apply filter_In in H. destruct H as [H1 H2].
+  apply in_seq in H1. apply andb_prop in H2. destruct H2 as [_ H2]. apply Nat.eqb_eq in H2. exists i. repeat split; [lia|exact H2].
+Qed.
+Lemma in_qacc_for σ own c it : In it (qacc_for σ own c) -> exists i, it = QAccess i /\ own i = c /\ In (Conv.INop val upd i) (cqe σ).
+Proof.
+  unfold qacc_for, Core.nop_head. destruct (cqe σ) as [|[u| |v|k|k| |n] q]; try (intros []).
+  destruct (Core.is_closed val upd σ n); [intros []|]. destruct (Nat.eqb_spec c (own n)) as [->|]; [|intros []].
+  intros [<-|[]]. exists n. repeat split. left; reflexivity.
+Qed.
+
+Lemma wf_step_conn s c : CInv (cv s) -> WF s -> WF (fst (step s (Core.GrantConn upd c))).
 Proof.
   intros Hinv Hw. pose proof Hw as [W1 W2 W3 W4 W5 W6 W7].
-  step_cases s o.
-  1,3,5,8,13: exact Hw.
-  - (* CSub *)
-    apply (wf_frame _ _ Hw); cbn [Core.next Core.conns Core.insts Core.cv fold_left]; try reflexivity; auto.
-    + intros c'; conn_at c' c; reflexivity.
-    + intros c'; conn_at c' c; reflexivity.
-    + intros c' it; conn_at c' c; intros Hin; [|left; exact Hin]. apply in_app_or in Hin. destruct Hin as [Hin|[<-|[]]]; [left; exact Hin|right; exact I].
-    + intros c'; conn_at c' c; auto.
-  - (* CUnsub *)
-    apply (wf_frame _ _ Hw); cbn [Core.next Core.conns Core.insts Core.cv fold_left]; try reflexivity; auto.
-    + intros c'; conn_at c' c; reflexivity.
-    + intros c'; conn_at c' c; reflexivity.
-    + intros c' it; conn_at c' c; intros Hin; [|left; exact Hin]. apply in_app_or in Hin. destruct Hin as [Hin|[<-|[]]]; [left; exact Hin|right; exact I].
-    + intros c'; conn_at c' c; auto.
-  - (* Disc *)
-    apply (wf_frame _ _ Hw); cbn [Core.next Core.conns Core.insts Core.cv fold_left]; try reflexivity; auto.
-    + intros c'; conn_at c' c; reflexivity.
-    + intros c'; conn_at c' c; reflexivity.
-    + intros c' it; conn_at c' c; intros Hin; [|left; exact Hin]. apply in_app_or in Hin. destruct Hin as [Hin|[<-|[]]]; [left; exact Hin|right].
-      cbn [okitem Core.conns]. unfold Core.set_conn. rewrite Nat.eqb_refl. reflexivity.
-    + intros c'; conn_at c' c; auto.
-  - (* MqAccess *)
-    apply andb_prop in Et. destruct Et as [Et1 Et2]. apply Nat.ltb_lt in Et1.
-    use_benign Hinv; [repeat constructor; exact Et1|].
-    apply (wf_frame _ _ Hw); cbn [Core.next Core.conns Core.insts Core.cv]; try reflexivity; auto.
-    + intros j. inst_at j i; reflexivity.
-    + intros j b. inst_at j i; [|apply W7]. intros Ha. exfalso. apply W7 in Ha. unfold Core.unanswered in Et2. rewrite Ha in Et2. discriminate.
-  - (* MqGet *)
-    use_benign Hinv; [destruct (_ && _); repeat constructor|].
-    apply (wf_frame _ _ Hw); cbn [Core.next Core.conns Core.insts Core.cv]; try reflexivity; auto.
-  - (* MqEvent *)
-    use_benign Hinv; [destruct (mqsub s); repeat constructor|].
-    apply (wf_frame _ _ Hw); cbn [Core.next Core.conns Core.insts Core.cv]; try reflexivity; auto.
-  - (* MqCustom *)
-    use_benign Hinv; [destruct (mqsub s); repeat constructor|].
-    apply (wf_frame _ _ Hw); cbn [Core.next Core.conns Core.insts Core.cv]; try reflexivity; auto.
-  - (* GrantEs *)
-    use_benign Hinv; [repeat constructor|].
-    apply (wf_frame _ _ Hw); cbn [Core.next Core.conns Core.insts Core.cv]; try reflexivity; auto.
-    + intros c. match goal with |- cur (Core.pass _ _ ?σ ?own (Core.fan _ _ _ ?σ' _ ?n ?f) _) = _ => destruct (grant_conns σ σ' own n f c) as (_&B&_) end. exact B.
-    + intros c _. match goal with |- direct (Core.pass _ _ ?σ ?own (Core.fan _ _ _ ?σ' _ ?n ?f) _) = _ => destruct (grant_conns σ σ' own n f c) as (_&_&B&_) end. exact B.
-    + intros c it. match goal with |- In _ (cqueue (Core.pass _ _ ?σ ?own (Core.fan _ _ _ ?σ' _ ?n ?f) _)) -> _ => destruct (grant_conns σ σ' own n f c) as (B&_) end.
-      rewrite B. intros Hin. apply in_app_or in Hin. destruct Hin as [Hin|Hin]; [apply in_app_or in Hin; destruct Hin as [Hin|Hin]|].
-      * left; exact Hin.
-      * right. apply in_qsubs_for in Hin. destruct Hin as (i & -> & Hi & Ho). cbn [okitem]. auto.
-      * right. apply in_qacc_for in Hin. destruct Hin as (i & -> & Ho & Hn). cbn [okitem]. split; [apply W6, Hn|exact Ho].
-    + intros c. match goal with |- _ -> disc (Core.pass _ _ ?σ ?own (Core.fan _ _ _ ?σ' _ ?n ?f) _) = _ => destruct (grant_conns σ σ' own n f c) as (_&_&_&B) end. rewrite B. auto.
-  - (* QReq, granted and loaded *)
-    destruct (W1 c i Ec) as (Hi&Ho&Hg).
-    use_benign Hinv; [apply benign_respond; exact Hi|].
-    frame_conn Hw c Eq; auto.
-  - use_benign Hinv; [constructor|]. frame_conn Hw c Eq; auto.
-    + intros j. inst_at j i; reflexivity.
-    + intros j b. inst_at j i; acc_tac W7.
-  - use_benign Hinv; [constructor|]. frame_conn Hw c Eq; auto.
-    + intros j. inst_at j i; reflexivity.
-    + intros j b. inst_at j i; acc_tac W7.
-  - use_benign Hinv; [constructor|]. frame_conn Hw c Eq; auto.
-    + intros j. inst_at j i; reflexivity.
-    + intros j b. inst_at j i; acc_tac W7.
-  - (* QReq, new instance *)
-    cbn [fold_left].
+  destruct (cqueue (conns s c)) as [|it0 q0] eqn:Eq0; [rewrite step_conn_empty by exact Eq0; exact Hw|].
+  rewrite step_conn by (rewrite Eq0; discriminate).
+  pose proof (task_shape s c) as Hsh. cbv zeta in Hsh. revert Hsh.
+  destruct (ct_spec s c) as [Eq|id q Eq Ec|id q i Eq Ec|id cnt q i Eq Ec|id cnt q Eq Ec|t q i Eq Ec|t q Eq Ec|i q Eq Eg|i q Eq Eg|i q Eq|q Eq];
+    cbn [fst snd]; intros (Hs&Hq&Hd&Hc);
+    try (destruct Hc as [(_&_&Ha&_)|[((id'&q'&X)&Y&_)|((q'&X)&_)]]; [|exfalso; congruence|exfalso; congruence]).
+  - (* empty *) congruence.
+  - (* new instance *)
+    destruct Hc as [(X&_)|[(_&_&_&_&_&A5&A6&A7)|((q'&X)&_)]]; [exfalso; lia| |exfalso; congruence].
+    match goal with |- WF {| Core.cv := ts ?K; Core.conns := _; Core.insts := _; Core.next := _; Core.mqsub := _; Core.getreq := _ |} => set (k := K) in * end.
+    assert (Ets : ts k = cstep (cv s) (Conv.Subscribe upd (next s))) by (rewrite Hs, A5; reflexivity).
+    assert (Eow : owner (ty k) = c).
+    { unfold k. rewrite (e_own _ _ _ _ _ (x_load false c (next s) _ _ (AReq id) (ext_refl false c (next s) _))). reflexivity. }
+    rewrite Ets, A7, Eq. cbn [tl].
     assert (G : forall j, sgone (csubs (cstep (cv s) (Conv.Subscribe upd (next s))) j) = sgone (csubs (cv s) j)) by (intros j; rewrite gone_step; reflexivity).
-    constructor; cbn [Core.next Core.conns Core.insts Core.cv].
+    constructor; cbn [Core.next Core.conns Core.insts Core.cv Core.mqsub].
     + intros c' i'. conn_at c' c.
-      * intros E; injection E as <-. split; [lia|]. split; [unfold Core.set_inst; rewrite Nat.eqb_refl; reflexivity|].
-        rewrite G. destruct (W3 (next s)) as (_&_&A&_); [lia|exact A].
-      * intros Hc. destruct (W1 c' i' Hc) as (A&B&C). split; [lia|]. split; [inst_at i' (next s); [lia|exact B]|rewrite G; exact C].
+      * intros E; injection E as <-. split; [lia|]. split; [unfold Core.set_inst; rewrite Nat.eqb_refl; exact Eow|].
+        rewrite G. destruct (W3 (next s)) as (_&_&A&_); [lia|]. split; [exact A|lia].
+      * intros Hc. destruct (W1 c' i' Hc) as (A&B&C&D). split; [lia|]. split; [inst_at i' (next s); [lia|exact B]|rewrite G; auto].
     + intros j Hj Hg. rewrite G in Hg. inst_at j (next s).
-      * unfold Core.set_conn. rewrite Nat.eqb_refl. reflexivity.
+      * rewrite Eow. unfold Core.set_conn. rewrite Nat.eqb_refl. reflexivity.
       * assert (Hj' : j < next s) by lia. pose proof (W2 j Hj' Hg) as Hc.
         unfold Core.set_conn. destruct (Nat.eqb_spec (owner (insts s j)) c) as [E|E]; [rewrite E in Hc; congruence|exact Hc].
     + intros j Hj. apply fresh_step; [exact Hinv|cbn [tgt]; intros E; injection E as E; lia|apply W3; lia].
@@ -801,89 +1315,175 @@ Proof.
       * destruct Hin' as [A B]. cbn [Core.next Core.insts]. split; [lia|]. inst_at i (next s); [lia|exact B].
       * revert Hin'. cbn [Core.conns]. conn_at c' c; auto.
     + intros c'. conn_at c' c; [discriminate|apply W5].
-    + intros j Hin. apply nop_step in Hin. destruct Hin as [Hin|Hin]; [apply W6 in Hin; lia|discriminate Hin].
-    + intros j b. inst_at j (next s); [discriminate|apply W7].
-  - (* QUnsub k = 0 *)
-    use_benign Hinv; [constructor|]. frame_conn Hw c Eq; auto.
-  - (* to zero *)
-    destruct (W1 c i Ec) as (Hi&Ho&Hg).
-    destruct (dispose_list false [i] (cv s) Hinv) as (G&F&N). cbn [map] in G, F, N.
-    apply (wf_drop s _ c [i] Hw); cbn [Core.next Core.conns Core.insts Core.cv].
-    + reflexivity.
-    + intros j [<-|[]]. auto.
-    + intros i' E. rewrite Ec in E. injection E as <-. left; reflexivity.
-    + unfold Core.set_conn. rewrite Nat.eqb_refl. reflexivity.
-    + unfold Core.set_conn. rewrite Nat.eqb_refl. reflexivity.
-    + unfold Core.set_conn. rewrite Nat.eqb_refl. reflexivity.
-    + intros c' Hne. unfold Core.set_conn. rewrite (proj2 (Nat.eqb_neq c' c) Hne). reflexivity.
-    + intros it. unfold Core.set_conn. rewrite Nat.eqb_refl. cbn [cqueue]. intros Hin. rewrite Eq. right; exact Hin.
+    + intros j Hin. apply (nop_steps [_]) in Hin. destruct Hin as [Hin|[Hin|[]]]; [apply W6 in Hin; lia|discriminate Hin].
+    + discriminate.
+  - (* request on the current subscription *)
+    destruct (W1 c i Ec) as (Hi&Ho&Hg&Hdir).
+    apply wf_upd; auto.
+    + apply sh_body_req, Hg.
+    + rewrite Hq, Eq. cbn [tl]. intros it Hin; right; exact Hin.
+    + rewrite (e_own _ _ _ _ _ (ext_body_req s c (conns s c) id q i)). exact Ho.
+  - (* unsubscribe *)
+    destruct (W1 c i Ec) as (Hi&Ho&Hg&Hdir).
+    apply wf_upd; auto.
+    + apply sh_body_unsub; assumption.
+    + rewrite Hq, Eq. cbn [tl]. intros it Hin; right; exact Hin.
+    + rewrite (e_own _ _ _ _ _ (ext_body_unsub s c (conns s c) id cnt q i)). exact Ho.
+  - (* unsubscribe without a subscription *)
+    cbn [Core.emit Core.ts Core.tx].
+    apply (wf_frame _ _ Hw); cbn [Core.next Core.conns Core.insts Core.cv Core.mqsub]; try reflexivity; auto.
+    + intros c'; conn_at c' c; reflexivity.
+    + intros c'; conn_at c' c; reflexivity.
+    + intros c' it; conn_at c' c; intros Hin; left; [rewrite Eq; right|]; exact Hin.
+    + intros c'; conn_at c' c; auto.
+  - (* token with a subscription *)
+    destruct (W1 c i Ec) as (Hi&Ho&Hg&Hdir).
+    assert (X : ext true c i (K0 s (xtok (conns s c) q t) (insts s i))
+                  (if tokset (conns s c) then reaccess c i (K0 s (xtok (conns s c) q t) (insts s i)) else K0 s (xtok (conns s c) q t) (insts s i))).
+    { destruct (tokset (conns s c)); [apply x_reacc|]; apply ext_refl. }
+    apply wf_upd; auto.
+    + eapply sh_mild; [exact X|]. left. repeat split; assumption.
+    + rewrite Hq, Eq. cbn [tl]. intros it Hin; right; exact Hin.
+    + rewrite (e_own _ _ _ _ _ X). exact Ho.
+  - (* token without *)
+    cbn [Core.ts Core.tx].
+    apply (wf_frame _ _ Hw); cbn [Core.next Core.conns Core.insts Core.cv Core.mqsub]; try reflexivity; auto.
+    + intros c'; conn_at c' c; reflexivity.
+    + intros c'; conn_at c' c; reflexivity.
+    + intros c' it; conn_at c' c; intros Hin; left; [rewrite Eq; right|]; exact Hin.
+    + intros c'; conn_at c' c; auto.
+  - (* access answer for a disposed subscription *)
+    cbn [Core.ts Core.tx Core.ty].
+    apply (wf_frame _ _ Hw); cbn [Core.next Core.conns Core.insts Core.cv Core.mqsub]; try reflexivity; auto.
+    + intros c'; conn_at c' c; reflexivity.
+    + intros c'; conn_at c' c; reflexivity.
     + intros j. inst_at j i; reflexivity.
-    + intros j b. inst_at j i; acc_tac W7.
-    + exact G.
-    + intros j Hj. apply F; [intros [<-|[]]; lia|apply W3, Hj].
-    + exact N.
-  - (* partial *)
-    use_benign Hinv; [constructor|]. frame_conn Hw c Eq; auto.
-  - use_benign Hinv; [constructor|]. frame_conn Hw c Eq; auto.
-  - cbn [fold_left]. frame_conn Hw c Eq; auto.
-  - (* QAccess gone *)
-    use_benign Hinv; [constructor|]. frame_conn Hw c Eq; auto.
-  - (* granted, loaded *)
+    + intros c' it; conn_at c' c; intros Hin; left; [rewrite Eq; right|]; exact Hin.
+    + intros c'; conn_at c' c; auto.
+  - (* access answer *)
     destruct (W4 c (QAccess i)) as [Hi Ho]; [rewrite Eq; left; reflexivity|].
-    use_benign Hinv; [apply benign_respond; exact Hi|].
-    frame_conn Hw c Eq; auto.
-    + intros j. inst_at j i; reflexivity.
-    + intros j b. inst_at j i; [|apply W7]. intros E; injection E as <-. exact Ean.
-  - use_benign Hinv; [constructor|]. frame_conn Hw c Eq; auto.
-    + intros j. inst_at j i; reflexivity.
-    + intros j b. inst_at j i; [|apply W7]. intros E; injection E as <-. exact Ean.
-  - (* denied *)
-    destruct (W4 c (QAccess i)) as [Hi Ho]; [rewrite Eq; left; reflexivity|].
-    assert (Ec : cur (conns s c) = Some i) by (rewrite <- Ho; apply W2; [exact Hi|exact Eg]).
-    destruct (Nat.eqb (direct (conns s c) - length (acb (insts s i))) 0) eqn:Ez.
-    + destruct (dispose_list false [i] (cv s) Hinv) as (G&F&N). cbn [map] in G, F, N.
-      apply (wf_drop s _ c [i] Hw); cbn [Core.next Core.conns Core.insts Core.cv].
-      * reflexivity.
-      * intros j [<-|[]]. auto.
-      * intros i' E. rewrite Ec in E. injection E as <-. left; reflexivity.
-      * unfold Core.set_conn. rewrite Nat.eqb_refl. reflexivity.
-      * unfold Core.set_conn. rewrite Nat.eqb_refl. cbn [direct]. apply Nat.eqb_eq, Ez.
-      * unfold Core.set_conn. rewrite Nat.eqb_refl. reflexivity.
-      * intros c' Hne. unfold Core.set_conn. rewrite (proj2 (Nat.eqb_neq c' c) Hne). reflexivity.
-      * intros it. unfold Core.set_conn. rewrite Nat.eqb_refl. cbn [cqueue]. intros Hin. rewrite Eq. right; exact Hin.
-      * intros j. inst_at j i; reflexivity.
-      * intros j b. inst_at j i; [|apply W7]. intros E; injection E as <-. exact Ean.
-      * exact G.
-      * intros j Hj. apply F; [intros [<-|[]]; lia|apply W3, Hj].
-      * exact N.
-    + use_benign Hinv; [constructor|]. frame_conn Hw c Eq; auto.
-      * intros j. inst_at j i; reflexivity.
-      * intros j b. inst_at j i; [|apply W7]. intros E; injection E as <-. exact Ean.
-  - use_benign Hinv; [constructor|]. frame_conn Hw c Eq; auto.
-  - (* QSub *)
+    assert (Ec : cur (conns s c) = Some i) by (rewrite <- Ho; apply W2; assumption).
+    destruct (W1 c i Ec) as (_&_&_&Hdir).
+    apply wf_upd; auto.
+    + apply sh_body_access; assumption.
+    + rewrite Hq, Eq. cbn [tl]. intros it Hin; right; exact Hin.
+    + rewrite (e_own _ _ _ _ _ (ext_body_access s c (conns s c) q i)). exact Ho.
+  - (* item of a subscription's queue *)
     destruct (W4 c (QSub i)) as [Hi Ho]; [rewrite Eq; left; reflexivity|].
-    use_benign Hinv; [constructor; [exact Hi|]; destruct (_ && _); [apply benign_respond; exact Hi|constructor]|].
-    frame_conn Hw c Eq; auto.
-    + intros j. destruct (_ && _); [|reflexivity]. inst_at j i; reflexivity.
-    + intros j b. destruct (_ && _); [|apply W7]. inst_at j i; acc_tac W7.
-  - (* QDispose *)
+    destruct (sgone (csubs (cv s) i)) eqn:Eg.
+    + destruct (body_sub_gone s c (conns s c) q i Hinv Eg) as (T1&T2&T3&T4&T5). cbv zeta in *. rewrite T1, T2, T5.
+      destruct (benign_steps (next s) [Conv.RunC upd i] (cv s) Hinv) as (BG&BF&BN); [repeat constructor; exact Hi|].
+      apply (wf_frame _ _ Hw); cbn [Core.next Core.conns Core.insts Core.cv Core.mqsub]; try reflexivity; auto.
+      * intros c'; conn_at c' c; reflexivity.
+      * intros c'; conn_at c' c; reflexivity.
+      * intros j. inst_at j i; reflexivity.
+      * intros c' it; conn_at c' c; intros Hin; left; [rewrite Eq; right|]; exact Hin.
+      * intros c'; conn_at c' c; auto.
+    + assert (Ec : cur (conns s c) = Some i) by (rewrite <- Ho; apply W2; assumption).
+      destruct (W1 c i Ec) as (_&_&_&Hdir).
+      apply wf_upd; auto.
+      * apply sh_body_sub; assumption.
+      * rewrite Hq, Eq. cbn [tl]. intros it Hin; right; exact Hin.
+      * rewrite (e_own _ _ _ _ _ (ext_body_sub s c (conns s c) q i)). exact Ho.
+  - (* disposal *)
+    destruct Hc as [(_&_&_&Ho)|[((id'&q'&X)&_)|(_&_&_&_&A4&A5&A6&A7)]]; [exfalso|exfalso; congruence|].
+    { rewrite Forall_forall in Ho. apply (Ho (OConnUnsub c)). unfold body_dispose. cbv zeta. cbn [Core.emit Core.to].
+      apply in_or_app. right. left. reflexivity. }
     destruct (dispose_list true (Core.insts_of val upd s c) (cv s) Hinv) as (G&F&N).
     assert (Hl : forall j, In j (Core.insts_of val upd s c) <-> j < next s /\ owner (insts s j) = c).
-    { intros j. unfold Core.insts_of. rewrite filter_In, in_seq, Nat.eqb_eq. split; intros [A B]; split; auto; lia. }
-    apply (wf_drop s _ c (Core.insts_of val upd s c) Hw); cbn [Core.next Core.conns Core.insts Core.cv].
+    { intros j. unfold Core.insts_of. rewrite filter_In, in_seq0, Nat.eqb_eq. tauto. }
+    unfold sync in Hs. rewrite A4 in Hs.
+    apply (wf_drop s _ c (Core.insts_of val upd s c) Hw); cbn [Core.next Core.conns Core.insts Core.cv Core.mqsub].
+    + reflexivity.
     + reflexivity.
     + intros j Hj. apply Hl, Hj.
     + intros i' E. apply Hl. destruct (W1 c i' E) as (A&B&_). auto.
-    + unfold Core.set_conn. rewrite Nat.eqb_refl. reflexivity.
-    + unfold Core.set_conn. rewrite Nat.eqb_refl. reflexivity.
-    + unfold Core.set_conn. rewrite Nat.eqb_refl. reflexivity.
+    + unfold Core.set_conn. rewrite Nat.eqb_refl. exact A6.
+    + unfold Core.set_conn. rewrite Nat.eqb_refl. exact A7.
+    + unfold Core.set_conn. rewrite Nat.eqb_refl. exact Hd.
     + intros c' Hne. unfold Core.set_conn. rewrite (proj2 (Nat.eqb_neq c' c) Hne). reflexivity.
-    + intros it. unfold Core.set_conn. rewrite Nat.eqb_refl. cbn [cqueue]. intros Hin. rewrite Eq. right; exact Hin.
-    + intros j. destruct (cur (conns s c)) as [i|]; [|reflexivity]. inst_at j i; reflexivity.
-    + intros j b. destruct (cur (conns s c)) as [i|]; [|apply W7]. inst_at j i; acc_tac W7.
-    + exact G.
-    + intros j Hj. apply F; [intros Hin; apply Hl in Hin; lia|apply W3, Hj].
-    + exact N.
+    + intros it. unfold Core.set_conn. rewrite Nat.eqb_refl. rewrite Hq, Eq. cbn [tl]. intros Hin. right; exact Hin.
+    + intros j. destruct (cur (conns s c)) as [i|] eqn:Ec; [|reflexivity]. inst_at j i; [|reflexivity].
+      unfold body_dispose. cbv zeta. cbn [Core.emit Core.sety Core.ty Core.upd_y owner].
+      match goal with |- context [fold_left actk ?l ?k0] => destruct (acts_frame l k0) as (_&S4&_) end. rewrite S4. cbn [Core.ty]. rewrite Ec. reflexivity.
+    + rewrite Hs. exact G.
+    + intros j Hj. rewrite Hs. apply F; [intros Hin; apply Hl in Hin; lia|apply W3, Hj].
+    + rewrite Hs. exact N.
+Qed.
+
+Lemma wf_step s o : CInv (cv s) -> WF s -> WF (fst (step s o)).
+Proof.
+  intros Hinv Hw. pose proof Hw as [W1 W2 W3 W4 W5 W6 W7].
+  destruct o as [c id|c id k|c|c t|i g| |u| | | |c].
+  - (* CSub *)
+    unfold Core.step. destruct (disc (conns s c)) eqn:Ed; [exact Hw|]. cbn [fst Core.acts_of fold_left].
+    apply (wf_frame _ _ Hw); cbn [Core.next Core.conns Core.insts Core.cv Core.mqsub]; try reflexivity; auto.
+    + intros c'; conn_at c' c; reflexivity.
+    + intros c'; conn_at c' c; reflexivity.
+    + intros c' it; conn_at c' c; intros Hin; [|left; exact Hin]. apply in_snoc in Hin. destruct Hin as [Hin| ->]; [left; exact Hin|right; exact I].
+    + intros c'; conn_at c' c; auto.
+  - (* CUnsub *)
+    unfold Core.step. destruct (disc (conns s c)) eqn:Ed; [exact Hw|]. cbn [fst Core.acts_of fold_left].
+    apply (wf_frame _ _ Hw); cbn [Core.next Core.conns Core.insts Core.cv Core.mqsub]; try reflexivity; auto.
+    + intros c'; conn_at c' c; reflexivity.
+    + intros c'; conn_at c' c; reflexivity.
+    + intros c' it; conn_at c' c; intros Hin; [|left; exact Hin]. apply in_snoc in Hin. destruct Hin as [Hin| ->]; [left; exact Hin|right; exact I].
+    + intros c'; conn_at c' c; auto.
+  - (* Disc *)
+    unfold Core.step. destruct (disc (conns s c)) eqn:Ed; [exact Hw|]. cbn [fst Core.acts_of fold_left].
+    apply (wf_frame _ _ Hw); cbn [Core.next Core.conns Core.insts Core.cv Core.mqsub]; try reflexivity; auto.
+    + intros c'; conn_at c' c; reflexivity.
+    + intros c'; conn_at c' c; reflexivity.
+    + intros c' it; conn_at c' c; intros Hin; [|left; exact Hin]. apply in_snoc in Hin. destruct Hin as [Hin| ->]; [left; exact Hin|right].
+      cbn [okitem Core.conns]. unfold Core.set_conn. rewrite Nat.eqb_refl. reflexivity.
+    + intros c'; conn_at c' c; auto.
+  - (* ConnToken *)
+    unfold Core.step. destruct (Core.is_done (conns s c)) eqn:Ed; [exact Hw|]. cbn [fst Core.acts_of fold_left].
+    apply (wf_frame _ _ Hw); cbn [Core.next Core.conns Core.insts Core.cv Core.mqsub]; try reflexivity; auto.
+    + intros c'; conn_at c' c; reflexivity.
+    + intros c'; conn_at c' c; reflexivity.
+    + intros c' it; conn_at c' c; intros Hin; [|left; exact Hin]. apply in_snoc in Hin. destruct Hin as [Hin| ->]; [left; exact Hin|right; exact I].
+    + intros c'; conn_at c' c; auto.
+  - (* MqAccess *)
+    unfold Core.step. cbn [Core.acts_of]. destruct (Nat.ltb i (next s) && Core.unanswered (insts s i)) eqn:Et; [|exact Hw]. cbn [fst].
+    apply andb_prop in Et. destruct Et as [Et1 Et2]. apply Nat.ltb_lt in Et1.
+    destruct (benign_steps (next s) [Conv.SvcNop upd i] (cv s) Hinv) as (BG&BF&BN); [repeat constructor; exact Et1|].
+    apply (wf_frame _ _ Hw); cbn [Core.next Core.conns Core.insts Core.cv Core.mqsub]; try reflexivity; auto.
+    intros j. inst_at j i; reflexivity.
+  - (* MqGet *)
+    unfold Core.step. cbn [Core.acts_of fst].
+    match goal with |- context [fold_left cstep ?A (cv s)] => destruct (benign_steps (next s) A (cv s) Hinv) as (BG&BF&BN) end;
+      [destruct (_ && _); repeat constructor|].
+    apply (wf_frame _ _ Hw); cbn [Core.next Core.conns Core.insts Core.cv Core.mqsub]; try reflexivity; auto.
+  - (* MqEvent *)
+    unfold Core.step. cbn [Core.acts_of fst].
+    match goal with |- context [fold_left cstep ?A (cv s)] => destruct (benign_steps (next s) A (cv s) Hinv) as (BG&BF&BN) end;
+      [destruct (mqsub s); repeat constructor|].
+    apply (wf_frame _ _ Hw); cbn [Core.next Core.conns Core.insts Core.cv Core.mqsub]; try reflexivity; auto.
+  - (* MqCustom *)
+    unfold Core.step. cbn [Core.acts_of fst].
+    match goal with |- context [fold_left cstep ?A (cv s)] => destruct (benign_steps (next s) A (cv s) Hinv) as (BG&BF&BN) end;
+      [destruct (mqsub s); repeat constructor|].
+    apply (wf_frame _ _ Hw); cbn [Core.next Core.conns Core.insts Core.cv Core.mqsub]; try reflexivity; auto.
+  - (* MqReacc *)
+    unfold Core.step. cbn [Core.acts_of fst].
+    match goal with |- context [fold_left cstep ?A (cv s)] => destruct (benign_steps (next s) A (cv s) Hinv) as (BG&BF&BN) end;
+      [destruct (mqsub s); repeat constructor|].
+    apply (wf_frame _ _ Hw); cbn [Core.next Core.conns Core.insts Core.cv Core.mqsub]; try reflexivity; auto.
+  - (* GrantEs *)
+    unfold Core.step. cbn [Core.acts_of fst].
+    destruct (benign_steps (next s) [Conv.RunE upd] (cv s) Hinv) as (BG&BF&BN); [repeat constructor|].
+    apply (wf_frame _ _ Hw); cbn [Core.next Core.conns Core.insts Core.cv Core.mqsub]; try reflexivity; auto.
+    + intros c. match goal with |- cur (Core.pass _ _ ?σ ?own (Core.fan _ _ _ ?σ' _ ?n ?f) _) = _ => destruct (grant_conns σ σ' own n f c) as (_&B&_) end. exact B.
+    + intros c. match goal with |- direct (Core.pass _ _ ?σ ?own (Core.fan _ _ _ ?σ' _ ?n ?f) _) = _ => destruct (grant_conns σ σ' own n f c) as (_&_&B&_) end. exact B.
+    + intros c it. match goal with |- In _ (cqueue (Core.pass _ _ ?σ ?own (Core.fan _ _ _ ?σ' _ ?n ?f) _)) -> _ => destruct (grant_conns σ σ' own n f c) as (B&_) end.
+      rewrite B. intros Hin. apply in_app_or in Hin. destruct Hin as [Hin|Hin]; [apply in_app_or in Hin; destruct Hin as [Hin|Hin]|].
+      * left; exact Hin.
+      * right. apply in_qsubs_for in Hin. destruct Hin as (i & -> & Hi & Ho). cbn [okitem]. auto.
+      * right. apply in_qacc_for in Hin. destruct Hin as (i & -> & Ho & Hn). cbn [okitem]. split; [apply W6, Hn|exact Ho].
+    + intros c. match goal with |- _ -> disc (Core.pass _ _ ?σ ?own (Core.fan _ _ _ ?σ' _ ?n ?f) _) = _ => destruct (grant_conns σ σ' own n f c) as (_&_&_&B&_) end. rewrite B. auto.
+  - (* GrantConn *)
+    apply wf_step_conn; assumption.
 Qed.
 
 Lemma wf_init t : WF (Core.init val upd d t).
@@ -891,24 +1491,22 @@ Proof.
   constructor; cbn; try discriminate; try contradiction; try lia; auto.
   intros i _. repeat split.
 Qed.
-
-Lemma exec_state_ind (P : Core.st val upd -> Prop) t :
-  P (Core.init val upd d t) ->
-  (forall ops o, let s := fst (exec t ops) in P s -> P (fst (step s o))) ->
-  forall ops, P (fst (exec t ops)).
-Proof.
-  intros H0 Hs ops. induction ops as [|o ops IH] using rev_ind; [exact H0|].
-  specialize (Hs ops o IH). rewrite exec_snoc. destruct (exec t ops) as [s outs]. unfold Core.exec1.
-  cbn [fst snd] in Hs. destruct (step s o) as [s' o']. exact Hs.
-Qed.
-
 Lemma wf_exec t ops : WF (fst (exec t ops)).
 Proof.
   apply exec_state_ind; [apply wf_init|]. intros ops' o s H. apply wf_step; [apply core_conv_inv|exact H].
 Qed.
 
-(* The statement of CoreStatements.v quantifies over every state; it is false of states where a connection without a
-   subscription has a positive count (cur = None, direct > 0), which are not reachable.  Proved for the reachable states. *)
+(* ================= B: the outcome of an unsubscribe request ================= *)
+Lemma remove_direct_spec i K n :
+  to (remove_direct i K n) = to K /\ ty (remove_direct i K n) = ty (remove_direct i K n) /\
+  (direct (tx K) <> 0 -> direct (tx (remove_direct i K n)) = direct (tx K) - n).
+Proof.
+  unfold Core.remove_direct. destruct (Nat.eqb_spec (direct (tx K)) 0) as [E|E]; [repeat split; contradiction|]. cbv zeta.
+  cbn [Core.setx Core.tx Core.with_cd direct]. destruct (Nat.eqb (direct (tx K) - n) 0).
+  - unfold Core.dispose_t. match goal with |- context [if ?b then _ else _] => destruct b end; cbv zeta; cbn; repeat split.
+  - cbn. repeat split.
+Qed.
+
 Theorem core_unsubscribe_outcome : forall t ops c id k q,
   let s := fst (exec t ops) in
   Core.cqueue (conns s c) = Core.QUnsub id k :: q ->
@@ -919,21 +1517,21 @@ Theorem core_unsubscribe_outcome : forall t ops c id k q,
   (0 < k -> k <= n -> o = [Core.OAck val upd c id k] /\ Core.direct (conns s' c) = n - k).
 Proof.
   intros t ops c id k q s Hq. pose proof (w_dir _ (wf_exec t ops) c) as Hd. fold s in Hd.
-  unfold Core.step. rewrite Hq. destruct (cur (conns s c)) as [i|] eqn:Ec.
-  - destruct (Nat.eqb_spec k 0) as [->|Hk].
-    + cbn [Core.conns]. unfold Core.set_conn. rewrite Nat.eqb_refl. cbn [Core.with_q direct].
-      repeat split; intros; try lia; reflexivity.
+  rewrite step_conn by (rewrite Hq; discriminate).
+  destruct (ct_spec s c) as [Eq|id' q' Eq Ec|id' q' i Eq Ec|id' cnt q' i Eq Ec|id' cnt q' Eq Ec|t' q' i Eq Ec|t' q' Eq Ec|i q' Eq Eg|i q' Eq Eg|i q' Eq|q' Eq];
+    try congruence; rewrite Hq in Eq; injection Eq as <- <- <-; cbn [Core.conns]; unfold Core.set_conn; rewrite Nat.eqb_refl.
+  - unfold body_unsub. cbv zeta. destruct (Nat.eqb_spec k 0) as [->|Hk].
+    + cbn. repeat split; intros; try lia; reflexivity.
     + destruct (Nat.leb_spec k (direct (conns s c))) as [Hle|Hgt].
-      * destruct (Nat.eqb_spec (direct (conns s c) - k) 0) as [Hz|Hz];
-          cbn [Core.conns]; unfold Core.set_conn; rewrite Nat.eqb_refl; cbn [Core.with_q direct];
-          repeat split; intros; try lia; reflexivity.
-      * cbn [Core.conns]. unfold Core.set_conn. rewrite Nat.eqb_refl. cbn [Core.with_q direct].
-        repeat split; intros; try lia; reflexivity.
-  - specialize (Hd eq_refl). cbn [Core.conns]. unfold Core.set_conn. rewrite Nat.eqb_refl. cbn [Core.with_q direct].
-    destruct (Nat.eqb_spec k 0) as [->|Hk]; repeat split; intros; try lia; reflexivity.
+      * match goal with |- context [remove_direct i ?K k] => destruct (remove_direct_spec i K k) as (A&_&B) end.
+        rewrite A. assert (Hnz : direct (conns s c) <> 0) by lia.
+        destruct (Nat.eqb (direct (conns s c) - k) 0); cbn [Core.emit Core.sety Core.tx Core.to Core.with_q direct] in *;
+          rewrite (B Hnz); repeat split; intros; try lia; reflexivity.
+      * cbn. repeat split; intros; try lia; reflexivity.
+  - specialize (Hd Ec). cbn. destruct (Nat.eqb_spec k 0) as [->|Hk]; repeat split; intros; try lia; reflexivity.
 Qed.
 
-(* ---------------- the client's ledger ---------------- *)
+(* ================= the client's ledger ================= *)
 Notation ledger_ := (Core.ledger val).
 Notation lstep := (Core.lstep val upd app).
 Notation lcnt_ L := (Core.lcnt val L).
@@ -942,20 +1540,16 @@ Notation mkL n v := (Core.Build_ledger val n v).
 
 Lemma client_app c outs o : client c (outs ++ o) = fold_left (lstep c) o (client c outs).
 Proof. unfold Core.client. apply fold_left_app. Qed.
-
 Lemma ledger_eta (L : ledger_) : L = mkL (lcnt_ L) (lcopy_ L).
 Proof. destruct L; reflexivity. Qed.
 
 Lemma fold_resp_none c r : forall L,
-  fold_left (lstep c) (map (fun id' => Core.OResp val upd c id' None) r) L = mkL (lcnt_ L + length r) (lcopy_ L).
+  fold_left (lstep c) (map (fun id' => OResp c id' None) r) L = mkL (lcnt_ L + length r) (lcopy_ L).
 Proof.
   induction r as [|a r IH]; intros L; cbn [map fold_left length].
   - rewrite Nat.add_0_r. apply ledger_eta.
   - rewrite IH. cbn [Core.lstep]. rewrite Nat.eqb_refl. cbn [Core.lcnt Core.lcopy]. f_equal. lia.
 Qed.
-Lemma fold_err c c' e l : forall L, fold_left (lstep c) (map (fun id => Core.OErr val upd c' id e) l) L = L.
-Proof. induction l as [|a l IH]; intros L; cbn [map fold_left]; [reflexivity|]. rewrite IH. reflexivity. Qed.
-
 Lemma proc_o_fst c p e : fst (Core.proc_o val upd app c p e) = Conv.proc val upd app p e.
 Proof.
   destruct p as [ver v]. unfold Core.proc_o, Conv.proc. destruct (Nat.eqb ver (Conv.e_ver upd e)); [|reflexivity].
@@ -981,11 +1575,17 @@ Proof.
   destruct (Core.proc_o val upd app c (ver, v) e) as [[ver' v'] o]. cbn [fst snd] in *. rewrite <- Hf.
   rewrite fold_left_app, Hl, <- Hf. cbn [snd]. apply IH.
 Qed.
+Lemma lcnt_replay_o c l : forall p L, lcnt_ (fold_left (lstep c) (Core.replay_o val upd app c p l) L) = lcnt_ L.
+Proof.
+  induction l as [|e l IH]; intros p L; [reflexivity|]. cbn [Core.replay_o].
+  pose proof (proc_o_lcnt c p e L) as Hp. destruct (Core.proc_o val upd app c p e) as [p' o]. cbn [snd] in Hp.
+  rewrite fold_left_app, IH. exact Hp.
+Qed.
 
 (* outputs addressed to another connection *)
 Definition addr (c0 : nat) (o : out_) : Prop :=
   match o with
-  | Core.OResp _ _ c' _ _ | Core.OErr _ _ c' _ _ | Core.OAck _ _ c' _ _ | Core.OEvent _ _ c' _ => c' = c0
+  | Core.OResp _ _ c' _ _ | Core.OErr _ _ c' _ _ | Core.OAck _ _ c' _ _ | Core.OEvent _ _ c' _ | Core.OUnsubEv _ _ c' => c' = c0
   | _ => True
   end.
 Lemma fold_other c c0 o : c <> c0 -> Forall (addr c0) o -> forall L, fold_left (lstep c) o L = L.
@@ -996,11 +1596,465 @@ Proof.
       (assert (E : Nat.eqb c0 c = false) by (apply Nat.eqb_neq; congruence)); rewrite E; reflexivity. }
   rewrite E. apply IH.
 Qed.
+Lemma tout_addr c oi o : tout c oi o -> addr c o.
+Proof. destruct o; cbn [tout addr]; auto. Qed.
 
-(* the effect of the response on the subscription *)
-Lemma respond_sub σ i : sloaded (csubs σ i) = true -> ssent (csubs σ i) = false ->
+(* ================= B: the count of direct subscriptions, along a task ================= *)
+Section Count.
+Variables (c i : nat) (L0 : ledger_).
+Definition Lk (k : tk_) : ledger_ := fold_left (lstep c) (to k) L0.
+Definition pend (y : inst) : nat := length (Core.ids_of (acb y)) + length (rcb y).
+
+Lemma Lk_emit k o : Lk (emit k o) = fold_left (lstep c) o (Lk k).
+Proof. unfold Lk. cbn [Core.emit Core.to]. apply fold_left_app. Qed.
+Lemma Lk_act k a : Lk (actk k a) = Lk k.
+Proof. reflexivity. Qed.
+Lemma Lk_sety k y : Lk (sety k y) = Lk k.
+Proof. reflexivity. Qed.
+Lemma Lk_setx k x : Lk (setx k x) = Lk k.
+Proof. reflexivity. Qed.
+Lemma ids_of_app l1 l2 : Core.ids_of (l1 ++ l2) = Core.ids_of l1 ++ Core.ids_of l2.
+Proof. unfold Core.ids_of. apply flat_map_app. Qed.
+
+Lemma cnt_load k b : Lk (load_access c i k b) = Lk k /\ pend (ty (load_access c i k b)) = pend (ty k) + length (Core.ids_of [b]).
+Proof.
+  unfold Core.load_access. cbv zeta. destruct (inflight (ty k)).
+  - split; [reflexivity|]. unfold pend. cbn [Core.sety Core.ty Core.upd_y acb rcb]. rewrite ids_of_app, app_length. lia.
+  - split; [rewrite Lk_emit; reflexivity|]. unfold pend. cbn [Core.emit Core.sety Core.ty Core.upd_y acb rcb]. rewrite ids_of_app, app_length. lia.
+Qed.
+Lemma cnt_hreacc k : Lk (handle_reaccess c i k) = Lk k /\ pend (ty (handle_reaccess c i k)) = pend (ty k).
+Proof.
+  unfold Core.handle_reaccess. cbv zeta. cbn [Core.sety Core.tx].
+  destruct (Nat.eqb (direct (tx k)) 0); [split; reflexivity|].
+  match goal with |- context [load_access c i ?K AVal] => destruct (cnt_load K AVal) as [A B] end.
+  change (length (Core.ids_of [AVal])) with 0 in B.
+  rewrite A, B. split; [reflexivity|]. unfold pend. cbn [Core.act Core.sety Core.ty Core.upd_y acb rcb]. lia.
+Qed.
+Lemma cnt_reacc k : Lk (reaccess c i k) = Lk k /\ pend (ty (reaccess c i k)) = pend (ty k).
+Proof.
+  unfold Core.reaccess. destruct (gone_ i k); [split; reflexivity|]. destruct (flag_ i k); [split; reflexivity|apply cnt_hreacc].
+Qed.
+Lemma cnt_respond k ids : lcnt_ (Lk (respond c i k ids)) = lcnt_ (Lk k) + length ids /\ pend (ty (respond c i k ids)) = pend (ty k).
+Proof.
+  unfold Core.respond. destruct ids as [|id r]; [split; [cbn; lia|reflexivity]|]. cbv zeta.
+  rewrite Lk_emit, fold_resp_none. cbn [Core.lcnt Core.emit Core.ty length].
+  destruct (sent_ i k).
+  - rewrite Lk_emit. cbn [fold_left Core.lstep]. rewrite Nat.eqb_refl. cbn [Core.lcnt Core.emit Core.ty]. split; [lia|reflexivity].
+  - cbn [Core.emit Core.ty]. destruct (reflag (ty k)).
+    + match goal with |- context [handle_reaccess c i ?K] => destruct (cnt_hreacc K) as [A B] end.
+      rewrite A, B, Lk_act, Lk_emit. cbn [fold_left Core.lstep]. rewrite Nat.eqb_refl. cbn [Core.lcnt]. split; [lia|reflexivity].
+    + rewrite Lk_emit. unfold Core.drained. rewrite lcnt_replay_o, Lk_act, Lk_emit. cbn [fold_left Core.lstep]. rewrite Nat.eqb_refl. cbn [Core.lcnt]. split; [lia|reflexivity].
+Qed.
+Lemma cnt_ready k id :
+  lcnt_ (Lk (on_ready c i k id)) + pend (ty (on_ready c i k id)) = lcnt_ (Lk k) + pend (ty k) + 1.
+Proof.
+  unfold Core.on_ready. destruct (loaded_ i k).
+  - destruct (cnt_respond k [id]) as [A B]. rewrite A, B. cbn [length]. lia.
+  - cbv zeta. rewrite Lk_sety. unfold pend. cbn [Core.sety Core.ty Core.upd_y acb rcb]. rewrite app_length. cbn [length]. lia.
+Qed.
+Lemma cnt_unqueue k : lcnt_ (Lk (unqueue_reaccess c i k)) = lcnt_ (Lk k) /\ pend (ty (unqueue_reaccess c i k)) = pend (ty k).
+Proof.
+  unfold Core.unqueue_reaccess. cbv zeta.
+  match goal with |- context [if gone_ i ?K then _ else _] => destruct (gone_ i K) end; [split; reflexivity|].
+  match goal with |- context [if reflag ?y then _ else _] => destruct (reflag y) end.
+  - match goal with |- context [handle_reaccess c i ?K] => destruct (cnt_hreacc K) as [A B] end. rewrite A, B. split; reflexivity.
+  - rewrite Lk_emit. unfold Core.drained. rewrite lcnt_replay_o. split; reflexivity.
+Qed.
+
+(* the invariant: [n] requests are in hand (taken from the waiting lists, not yet answered or put back) *)
+Definition JC (b : bool) (n : nat) (k : tk_) : Prop :=
+  (cur (tx k) = Some i -> if b then direct (tx k) = lcnt_ (Lk k) + pend (ty k) + n else direct (tx k) <= lcnt_ (Lk k) + pend (ty k) + n) /\
+  (cur (tx k) = None -> b = true -> lcnt_ (Lk k) = 0).
+
+Lemma jc_mild b n dl k k' : ext true c i k k' ->
+  lcnt_ (Lk k') + pend (ty k') = lcnt_ (Lk k) + pend (ty k) + dl ->
+  (cur (tx k) = None -> lcnt_ (Lk k') = lcnt_ (Lk k)) ->
+  JC b (n + dl) k -> JC b n k'.
+Proof.
+  intros He Hp Hn [J1 J2]. unfold JC. rewrite (e_tx _ _ _ _ _ He eq_refl). split.
+  - intros Hc. specialize (J1 Hc). destruct b; lia.
+  - intros Hc Hb. rewrite (Hn Hc). auto.
+Qed.
+Lemma jc_emit_err b n k id e : JC b n k -> JC b n (emit k [OErr c id e]).
+Proof. unfold JC. rewrite Lk_emit. cbn [fold_left Core.lstep Core.emit Core.tx Core.ty]. auto. Qed.
+Lemma jc_remove b n m k : SH i k -> JC b (n + m) k -> JC b n (remove_direct i k m).
+Proof.
+  intros Hsh [J1 J2]. pose proof (sh_remove i k m Hsh) as Hsh'. destruct (remove_direct_spec i k m) as (A&_&B).
+  assert (EL : Lk (remove_direct i k m) = Lk k) by (unfold Lk; rewrite A; reflexivity).
+  assert (ET : cur (tx (remove_direct i k m)) = Some i -> ty (remove_direct i k m) = ty k).
+  { unfold Core.remove_direct. destruct (Nat.eqb (direct (tx k)) 0); [reflexivity|]. cbv zeta.
+    match goal with |- context [if ?b then _ else _] => destruct b end; [|reflexivity].
+    unfold Core.dispose_t. match goal with |- context [if ?b then _ else _] => destruct b end; [reflexivity|]. cbv zeta. cbn. discriminate. }
+  destruct Hsh as [(G&C&D)|(G&C&D)].
+  - split.
+    + intros Hc. rewrite EL, (ET Hc), B by lia. specialize (J1 C). destruct b; lia.
+    + intros Hc Hb. rewrite EL. destruct Hsh' as [(G'&C'&D')|(G'&C'&D')]; [congruence|]. rewrite B in D' by lia.
+      specialize (J1 C). subst b. lia.
+  - assert (E : remove_direct i k m = k) by (unfold Core.remove_direct; rewrite D; reflexivity). rewrite E. split; [congruence|exact J2].
+Qed.
+Lemma jc_unsubd b n k : SH i k -> JC b n k -> JC b n (unsubscribe_direct c i k).
+Proof.
+  intros Hsh HJ. unfold Core.unsubscribe_direct. destruct (Nat.ltb_spec 0 (direct (tx k))) as [Hd|Hd]; [|exact HJ].
+  pose proof (sh_remove i k (direct (tx k)) Hsh) as Hsh'. destruct (remove_direct_spec i k (direct (tx k))) as (_&_&B).
+  unfold SH in Hsh'. rewrite B in Hsh' by lia. destruct Hsh' as [(G'&C'&D')|(G'&C'&D')]; [lia|].
+  split; cbn [Core.emit Core.tx]; [congruence|]. intros _ _. rewrite Lk_emit. cbn [fold_left Core.lstep]. rewrite Nat.eqb_refl. reflexivity.
+Qed.
+Lemma jc_run_cb b n g k bb : SH i k -> JC b (n + length (Core.ids_of [bb])) k -> JC b n (run_cb c i g k bb).
+Proof.
+  intros Hsh HJ. unfold Core.run_cb. destruct bb as [id|].
+  - change (length (Core.ids_of [AReq id])) with 1 in HJ. destruct g.
+    + destruct (gone_ i k) eqn:G.
+      * destruct Hsh as [(G'&C&D)|(G'&C&D)]; [congruence|]. destruct HJ as [J1 J2]. split; [congruence|exact J2].
+      * eapply (jc_mild b n 1); [apply x_ready, ext_refl|apply cnt_ready| |exact HJ].
+        destruct Hsh as [(G'&C&D)|(G'&C&D)]; congruence.
+    + apply jc_remove; [apply sh_emit, Hsh|]. apply jc_emit_err, HJ.
+  - change (length (Core.ids_of [AVal])) with 0 in HJ. rewrite Nat.add_0_r in HJ.
+    assert (HJ' : JC b (n + 0) (if g then k else unsubscribe_direct c i k)).
+    { rewrite Nat.add_0_r. destruct g; [exact HJ|apply jc_unsubd; assumption]. }
+    match type of HJ' with JC _ _ ?K => destruct (cnt_unqueue K) as [A B] end.
+    eapply (jc_mild b n 0); [apply x_unqueue, ext_refl| |intros _; exact A|exact HJ']. rewrite A, B. lia.
+Qed.
+Lemma jc_run_cbs b g l : forall n k, SH i k -> JC b (n + length (Core.ids_of l)) k -> JC b n (fold_left (run_cb c i g) l k).
+Proof.
+  induction l as [|bb l IH]; intros n k Hsh HJ; cbn [fold_left].
+  - cbn in HJ. rewrite Nat.add_0_r in HJ. exact HJ.
+  - apply IH; [apply sh_run_cb, Hsh|]. apply jc_run_cb; [exact Hsh|].
+    change (bb :: l) with ([bb] ++ l) in HJ. rewrite ids_of_app, app_length in HJ.
+    replace (n + length (Core.ids_of l) + length (Core.ids_of [bb])) with (n + (length (Core.ids_of [bb]) + length (Core.ids_of l))) by lia. exact HJ.
+Qed.
+End Count.
+
+(* ---- the bodies keep the count ---- *)
+Lemma jc_body_req b s c x id q i L : sgone (csubs (cv s) i) = false ->
+  JC c i L b 1 (K0 s (Core.with_cd (Core.with_q x q) (Some i) (S (direct x))) (insts s i)) -> JC c i L b 0 (body_req s c x id q i).
+Proof.
+  intros G HJ. assert (H0 : SH i (K0 s (Core.with_cd (Core.with_q x q) (Some i) (S (direct x))) (insts s i))).
+  { left. repeat split; [exact G|cbn; lia]. }
+  unfold body_req. cbv zeta. destruct (acc (insts s i)) as [[|]|].
+  - eapply (jc_mild c i L b 0 1); [apply x_ready, ext_refl|apply cnt_ready|cbn; discriminate|exact HJ].
+  - apply (jc_remove c i L b 0 1); [apply sh_emit, H0|]. apply jc_emit_err, HJ.
+  - match goal with |- JC _ _ _ _ _ (load_access c i ?K ?B) => destruct (cnt_load c i L K B) as [A1 A2] end.
+    change (length (Core.ids_of [AReq id])) with 1 in A2.
+    eapply (jc_mild c i L b 0 1); [apply x_load, ext_refl| |cbn; discriminate|exact HJ]. rewrite A1, A2. lia.
+Qed.
+
+Lemma jc_body_unsub b s c x id cnt q i L : sgone (csubs (cv s) i) = false -> cur x = Some i -> 0 < direct x ->
+  JC c i L b 0 (K0 s (Core.with_q x q) (insts s i)) ->
+  (b = true -> 0 < cnt -> cnt <= direct x -> cnt <= lcnt_ L) ->
+  JC c i L b 0 (body_unsub s c x id cnt q i).
+Proof.
+  intros G C D HJ Hnu. assert (H0 : SH i (K0 s (Core.with_q x q) (insts s i))) by (left; repeat split; assumption).
+  unfold body_unsub. cbv zeta. destruct (Nat.eqb_spec cnt 0) as [E0|E0]; [apply jc_emit_err, HJ|].
+  destruct (Nat.leb_spec cnt (direct x)) as [Hle|Hgt]; [|apply jc_emit_err, HJ].
+  destruct HJ as [J1 J2]. specialize (J1 C). unfold Lk in J1. cbn [Core.to Core.tx Core.ty Core.with_q direct fold_left] in J1.
+  destruct (Nat.eqb_spec (direct x - cnt) 0) as [Ez|Ez].
+  - match goal with |- JC _ _ _ _ _ (remove_direct i ?K cnt) =>
+      pose proof (sh_remove i K cnt H0) as Hsh'; destruct (remove_direct_spec i K cnt) as (A&_&B) end.
+    unfold SH in Hsh'. cbn [Core.sety Core.emit Core.tx Core.with_q direct] in B, Hsh'. rewrite B in Hsh' by lia.
+    destruct Hsh' as [(G'&C'&D')|(G'&C'&D')]; [lia|]. split; [congruence|]. intros _ Hb. unfold Lk. rewrite A.
+    cbn [Core.sety Core.emit Core.to List.app fold_left Core.lstep]. rewrite Nat.eqb_refl. cbn [Core.lcnt]. subst b. lia.
+  - apply (jc_remove c i L b 0 cnt); [exact H0|]. split; [|cbn; congruence]. intros _.
+    unfold Lk. cbn [Core.emit Core.to Core.tx Core.ty Core.with_q direct List.app fold_left Core.lstep]. rewrite Nat.eqb_refl. cbn [Core.lcnt].
+    destruct b; [specialize (Hnu eq_refl); lia|lia].
+Qed.
+
+Lemma jc_body_access b s c x q i L : sgone (csubs (cv s) i) = false -> cur x = Some i -> 0 < direct x ->
+  JC c i L b 0 (K0 s (Core.with_q x q) (insts s i)) -> JC c i L b 0 (body_access s c x q i).
+Proof.
+  intros G C D HJ. assert (H0 : SH i (K0 s (Core.with_q x q) (insts s i))) by (left; repeat split; assumption).
+  unfold body_access. cbv zeta. destruct (ans (insts s i)) as [g|]; [|exact HJ].
+  apply jc_run_cbs; [exact H0|]. destruct HJ as [J1 J2]. split; [|exact J2]. intros Hc. specialize (J1 Hc).
+  unfold Lk, pend in *. cbn [Core.sety Core.to Core.tx Core.ty Core.upd_y acb rcb Core.ids_of flat_map length] in *.
+  destruct b; lia.
+Qed.
+
+Lemma jc_body_sub b s c x q i L : sgone (csubs (cv s) i) = false -> cur x = Some i -> 0 < direct x ->
+  JC c i L b 0 (K0 s (Core.with_q x q) (insts s i)) -> JC c i L b 0 (body_sub s c x q i).
+Proof.
+  intros G C D HJ. assert (HJ1 : JC c i L b 0 (actk (K0 s (Core.with_q x q) (insts s i)) (Conv.RunC upd i))) by exact HJ.
+  unfold body_sub. cbv zeta. destruct (scq (csubs (cv s) i)) as [|[|e|] q'].
+  - exact HJ1.
+  - rewrite G. cbn [Core.act Core.ty].
+    match goal with |- JC _ _ _ _ _ (respond c i ?K ?ids) => destruct (cnt_respond c i L K ids) as [A1 A2] end.
+    eapply (jc_mild c i L b 0 (length (rcb (insts s i)))); [apply x_respond, ext_refl|rewrite A1, A2; lia|cbn; congruence|].
+    destruct HJ as [J1 J2]. split; [|exact J2]. intros Hc. specialize (J1 Hc).
+    unfold Lk, pend in *. cbn [Core.sety Core.act Core.to Core.tx Core.ty Core.upd_y acb rcb length] in *. destruct b; lia.
+  - destruct HJ as [J1 J2]. split.
+    + intros Hc. specialize (J1 Hc). rewrite Lk_emit. cbn [Core.emit Core.act Core.tx Core.ty].
+      match goal with |- context [fold_left (lstep c) ?o _] => assert (E : lcnt_ (fold_left (lstep c) o (Lk c L (K0 s (Core.with_q x q) (insts s i)))) = lcnt_ (Lk c L (K0 s (Core.with_q x q) (insts s i)))) end.
+      { destruct (_ && _); [apply proc_o_lcnt|reflexivity]. }
+      rewrite Lk_act, E. exact J1.
+    + cbn [Core.emit Core.act Core.tx Core.with_q cur]. congruence.
+  - match goal with |- JC _ _ _ _ _ (reaccess c i ?K) => destruct (cnt_reacc c i L K) as [A1 A2] end.
+    eapply (jc_mild c i L b 0 0); [apply x_reacc, ext_refl|rewrite A1, A2; lia|intros _; rewrite A1; reflexivity|exact HJ1].
+Qed.
+
+(* ---- along an execution ---- *)
+Definition LGC (b : bool) (c : nat) (s : st_) (L : ledger_) : Prop :=
+  (forall i, cur (conns s c) = Some i ->
+     if b then direct (conns s c) = lcnt_ L + pend (insts s i) else direct (conns s c) <= lcnt_ L + pend (insts s i)) /\
+  (cur (conns s c) = None -> b = true -> lcnt_ L = 0).
+
+Lemma lgc_transfer b c s s' L : LGC b c s L ->
+  cur (conns s' c) = cur (conns s c) -> direct (conns s' c) = direct (conns s c) ->
+  (forall i, cur (conns s c) = Some i -> acb (insts s' i) = acb (insts s i) /\ rcb (insts s' i) = rcb (insts s i)) ->
+  LGC b c s' L.
+Proof.
+  intros [L1 L2] Ec Ed Hi. split.
+  - intros i Hc. rewrite Ec in Hc. destruct (Hi i Hc) as [A B]. unfold pend. rewrite Ed, A, B. apply L1, Hc.
+  - rewrite Ec. exact L2.
+Qed.
+
+Lemma lgc_task b c s i k L cvx nx ms gq : SH i k -> JC c i L b 0 k ->
+  LGC b c {| Core.cv := cvx; Core.conns := Core.set_conn (conns s) c (tx k); Core.insts := Core.set_inst (insts s) i (ty k);
+             Core.next := nx; Core.mqsub := ms; Core.getreq := gq |} (fold_left (lstep c) (to k) L).
+Proof.
+  intros Hsh [J1 J2]. unfold LGC. cbn [Core.conns Core.insts]. unfold Core.set_conn. rewrite Nat.eqb_refl. split.
+  - intros i' Hc. destruct Hsh as [(G&C&D)|(G&C&D)]; [|congruence]. rewrite C in Hc. injection Hc as <-.
+    unfold Core.set_inst. rewrite Nat.eqb_refl. specialize (J1 C). rewrite Nat.add_0_r in J1. exact J1.
+  - exact J2.
+Qed.
+
+Lemma jc_start b c s x' i L : cur x' = Some i -> LGC b c s L -> cur (conns s c) = Some i -> direct x' = direct (conns s c) ->
+  JC c i L b 0 (K0 s x' (insts s i)).
+Proof.
+  intros C [L1 L2] Ec Ed. split; cbn [Core.tx Core.ty]; [|congruence]. intros _. unfold Lk. cbn [Core.to fold_left].
+  rewrite Ed, Nat.add_0_r. apply L1, Ec.
+Qed.
+
+Lemma lgc_step_conn b c s L : CInv (cv s) -> WF s -> LGC b c s L -> disc (conns s c) = false ->
+  (b = true -> forall id k, snd (step s (Core.GrantConn upd c)) = [OAck c id k] -> k <= lcnt_ L) ->
+  LGC b c (fst (step s (Core.GrantConn upd c))) (fold_left (lstep c) (snd (step s (Core.GrantConn upd c))) L).
+Proof.
+  intros Hinv Hw HL Hd. pose proof Hw as [W1 W2 W3 W4 W5 W6 W7]. pose proof HL as [L1 L2].
+  destruct (cqueue (conns s c)) as [|it0 q0] eqn:Eq0; [rewrite step_conn_empty by exact Eq0; intros _; exact HL|].
+  rewrite step_conn by (rewrite Eq0; discriminate).
+  destruct (ct_spec s c) as [Eq|id q Eq Ec|id q i Eq Ec|id cnt q i Eq Ec|id cnt q Eq Ec|t q i Eq Ec|t q Eq Ec|i q Eq Eg|i q Eq Eg|i q Eq|q Eq];
+    cbn [fst snd]; intros Hnu.
+  - congruence.
+  - (* new instance *)
+    apply lgc_task.
+    + eapply sh_mild; [apply x_load, ext_refl|]. left. cbn [Core.emit Core.act Core.tx Core.with_cd cur direct].
+      repeat split; [|lia]. change (gone_ (next s) (actk (K0 s (Core.with_cd (Core.with_q (conns s c) q) (Some (next s)) 1) (ynew c)) (Conv.Subscribe upd (next s))) = false).
+      rewrite gone_act. destruct (W3 (next s)) as (_&_&A&_); [lia|exact A].
+    + match goal with |- JC _ _ _ _ _ (load_access c ?n ?K ?B) => destruct (cnt_load c n L K B) as [A1 A2] end.
+      change (length (Core.ids_of [AReq id])) with 1 in A2.
+      eapply (jc_mild c (next s) L b 0 1); [apply x_load, ext_refl|rewrite A1, A2; lia|cbn; discriminate|].
+      split; [|cbn; discriminate]. intros _. rewrite Lk_emit, Lk_act. unfold Lk, pend. cbn [Core.emit Core.act Core.to Core.tx Core.ty Core.with_cd direct ynew acb rcb Core.ids_of flat_map length].
+      assert (E : lcnt_ (fold_left (lstep c) (if mqsub s then [] else [OMqSub]) (fold_left (lstep c) [] L)) = lcnt_ L) by (destruct (mqsub s); reflexivity).
+      rewrite E. destruct b; [rewrite (L2 Ec eq_refl); reflexivity|lia].
+  - (* request *)
+    destruct (W1 c i Ec) as (Hi&Ho&Hg&Hdir). apply lgc_task; [apply sh_body_req, Hg|]. apply jc_body_req; [exact Hg|].
+    split; cbn [Core.tx Core.ty Core.with_cd cur direct]; [|discriminate]. intros _. unfold Lk. cbn [Core.to fold_left].
+    specialize (L1 i Ec). destruct b; lia.
+  - (* unsubscribe *)
+    destruct (W1 c i Ec) as (Hi&Ho&Hg&Hdir). apply lgc_task; [apply sh_body_unsub; assumption|].
+    apply jc_body_unsub; try assumption; [apply (jc_start b c s _ i L); auto|].
+    intros Hb Hpos Hle. apply (Hnu Hb id cnt). unfold body_unsub. cbv zeta.
+    destruct (Nat.eqb_spec cnt 0) as [E0|E0]; [lia|]. destruct (Nat.leb_spec cnt (direct (conns s c))) as [_|Hgt]; [|lia].
+    match goal with |- to (remove_direct i ?K cnt) = _ => destruct (remove_direct_spec i K cnt) as (A&_) end. rewrite A.
+    destruct (Nat.eqb (direct (conns s c) - cnt) 0); reflexivity.
+  - (* unsubscribe without a subscription *)
+    cbn [Core.emit Core.to Core.tx Core.ts List.app fold_left Core.lstep].
+    apply (lgc_transfer b c s _ L HL); cbn [Core.conns Core.insts]; auto; unfold Core.set_conn; rewrite Nat.eqb_refl; reflexivity.
+  - (* token *)
+    destruct (W1 c i Ec) as (Hi&Ho&Hg&Hdir).
+    assert (H0 : SH i (K0 s (xtok (conns s c) q t) (insts s i))) by (left; repeat split; assumption).
+    assert (HJ : JC c i L b 0 (K0 s (xtok (conns s c) q t) (insts s i))) by (apply (jc_start b c s _ i L); auto).
+    apply lgc_task.
+    + destruct (tokset (conns s c)); [|exact H0]. eapply sh_mild; [apply x_reacc, ext_refl|exact H0].
+    + destruct (tokset (conns s c)); [|exact HJ].
+      match goal with |- JC _ _ _ _ _ (reaccess c i ?K) => destruct (cnt_reacc c i L K) as [A1 A2] end.
+      eapply (jc_mild c i L b 0 0); [apply x_reacc, ext_refl|rewrite A1, A2; lia|intros _; rewrite A1; reflexivity|exact HJ].
+  - (* token without *)
+    cbn [Core.to Core.tx Core.ts fold_left].
+    apply (lgc_transfer b c s _ L HL); cbn [Core.conns Core.insts]; auto; unfold Core.set_conn; rewrite Nat.eqb_refl; reflexivity.
+  - (* answer for a disposed subscription *)
+    cbn [Core.to Core.tx Core.ts Core.ty fold_left].
+    apply (lgc_transfer b c s _ L HL); cbn [Core.conns Core.insts]; try (unfold Core.set_conn; rewrite Nat.eqb_refl; reflexivity).
+    intros j _. inst_at j i; auto.
+  - (* access answer *)
+    destruct (W4 c (QAccess i)) as [Hi Ho]; [rewrite Eq; left; reflexivity|].
+    assert (Ec : cur (conns s c) = Some i) by (rewrite <- Ho; apply W2; assumption).
+    destruct (W1 c i Ec) as (_&_&_&Hdir).
+    apply lgc_task; [apply sh_body_access; assumption|]. apply jc_body_access; try assumption. apply (jc_start b c s _ i L); auto.
+  - (* item of a subscription's queue *)
+    destruct (W4 c (QSub i)) as [Hi Ho]; [rewrite Eq; left; reflexivity|].
+    destruct (sgone (csubs (cv s) i)) eqn:Eg.
+    + destruct (body_sub_gone s c (conns s c) q i Hinv Eg) as (T1&T2&T3&T4&T5). cbv zeta in *. rewrite T1, T2, T3. cbn [fold_left].
+      apply (lgc_transfer b c s _ L HL); cbn [Core.conns Core.insts]; try (unfold Core.set_conn; rewrite Nat.eqb_refl; reflexivity).
+      intros j _. inst_at j i; auto.
+    + assert (Ec : cur (conns s c) = Some i) by (rewrite <- Ho; apply W2; assumption).
+      destruct (W1 c i Ec) as (_&_&_&Hdir).
+      apply lgc_task; [apply sh_body_sub; assumption|]. apply jc_body_sub; try assumption. apply (jc_start b c s _ i L); auto.
+  - (* disposal *)
+    exfalso. specialize (W4 c QDispose). cbn [okitem] in W4. rewrite W4 in Hd; [discriminate|rewrite Eq; left; reflexivity].
+Qed.
+
+(* ---------------- a connection worker leaves the other connections alone ---------------- *)
+Lemma task_oi s c : WF s ->
+  forall i, snd (fst (fst (conn_task s c))) = Some i -> (i < next s /\ owner (insts s i) = c) \/ i = next s.
+Proof.
+  intros [W1 W2 W3 W4 W5 W6 W7] i0.
+  destruct (ct_spec s c) as [Eq|id q Eq Ec|id q i Eq Ec|id cnt q i Eq Ec|id cnt q Eq Ec|t q i Eq Ec|t q Eq Ec|i q Eq Eg|i q Eq Eg|i q Eq|q Eq];
+    cbn [fst snd]; intros E; try discriminate E; try (injection E as <-).
+  - right; reflexivity.
+  - left. destruct (W1 c i Ec) as (A&B&_). auto.
+  - left. destruct (W1 c i Ec) as (A&B&_). auto.
+  - left. destruct (W1 c i Ec) as (A&B&_). auto.
+  - left. apply (W4 c (QAccess i)). rewrite Eq. left; reflexivity.
+  - left. apply (W4 c (QAccess i)). rewrite Eq. left; reflexivity.
+  - left. apply (W4 c (QSub i)). rewrite Eq. left; reflexivity.
+  - left. destruct (W1 c i0 E) as (A&B&_). auto.
+Qed.
+
+Lemma outs_addr s c0 : Forall (addr c0) (snd (step s (Core.GrantConn upd c0))).
+Proof.
+  destruct (cqueue (conns s c0)) as [|it q] eqn:Eq; [rewrite step_conn_empty by exact Eq; constructor|].
+  rewrite step_conn by (rewrite Eq; discriminate).
+  destruct (task_shape s c0) as (_&_&_&Hc). cbv zeta in Hc. destruct (conn_task s c0) as [[[k oi] nx] ms]. cbn [fst snd] in *.
+  destruct Hc as [(_&_&_&A4)|[(_&_&_&_&_&_&A6&_)|(_&_&_&_&_&A5&_)]].
+  - eapply Forall_impl; [|exact A4]. apply tout_addr.
+  - rewrite A6. destruct (mqsub s); repeat constructor.
+  - rewrite A5. repeat constructor.
+Qed.
+
+Lemma conns_other s c0 c : c <> c0 -> conns (fst (step s (Core.GrantConn upd c0))) c = conns s c.
+Proof.
+  intros Hne. destruct (cqueue (conns s c0)) as [|it q] eqn:Eq; [rewrite step_conn_empty by exact Eq; reflexivity|].
+  rewrite step_conn by (rewrite Eq; discriminate). destruct (conn_task s c0) as [[[k oi] nx] ms]. cbn [fst Core.conns].
+  unfold Core.set_conn. destruct (Nat.eqb_spec c c0); [contradiction|reflexivity].
+Qed.
+
+Lemma insts_other s c0 j : WF s -> j < next s -> owner (insts s j) <> c0 ->
+  insts (fst (step s (Core.GrantConn upd c0))) j = insts s j.
+Proof.
+  intros Hw Hj Ho. destruct (cqueue (conns s c0)) as [|it q] eqn:Eq; [rewrite step_conn_empty by exact Eq; reflexivity|].
+  rewrite step_conn by (rewrite Eq; discriminate). pose proof (task_oi s c0 Hw) as Hoi.
+  destruct (conn_task s c0) as [[[k oi] nx] ms]. cbn [fst snd Core.insts] in *.
+  destruct oi as [i|]; [|reflexivity]. unfold Core.set_inst. destruct (Nat.eqb_spec j i) as [->|]; [|reflexivity].
+  destruct (Hoi i eq_refl) as [[_ E]|E]; [congruence|lia].
+Qed.
+
+Lemma subs_other_conn s c0 j : WF s -> j < next s -> owner (insts s j) <> c0 ->
+  csubs (cv (fst (step s (Core.GrantConn upd c0)))) j = csubs (cv s) j.
+Proof.
+  intros Hw Hj Ho. rewrite step_cv. cbn [Core.acts_of]. pose proof (task_oi s c0 Hw) as Hoi.
+  destruct (task_shape s c0) as (_&_&_&Hc). cbv zeta in Hc. destruct (conn_task s c0) as [[[k oi] nx] ms]. cbn [fst snd] in *.
+  apply subs_others.
+  destruct Hc as [(_&_&A3&_)|[(_&_&A2&_&_&A5&_)|(_&_&_&_&A4&_)]].
+  - eapply Forall_impl; [|exact A3]. intros a X. destruct (tact_tgt _ a X) as (T1&T2&_). split; [|exact T2].
+    rewrite T1. intros E. destruct (Hoi j E) as [[_ E']|E']; [congruence|lia].
+  - rewrite A5. constructor; [|constructor]. split; [|discriminate]. cbn [tgt]. intros E. injection E as E. lia.
+  - rewrite A4. apply Forall_forall. intros a Hin. apply in_map_iff in Hin. destruct Hin as (j' & <- & Hin).
+    unfold Core.insts_of in Hin. apply filter_In in Hin. destruct Hin as [_ H2]. apply Nat.eqb_eq in H2.
+    split; [|discriminate]. cbn [tgt]. intros E. injection E as ->. congruence.
+Qed.
+
+Lemma disc_mono s o c : disc (conns s c) = true -> disc (conns (fst (step s o)) c) = true.
+Proof.
+  intros H. rename c into cl. destruct o as [c id|c id k|c|c t|i g| |u| | | |c]; unfold Core.step.
+  - destruct (disc (conns s c)); [exact H|]. cbn [fst Core.conns]. conn_at cl c; auto.
+  - destruct (disc (conns s c)); [exact H|]. cbn [fst Core.conns]. conn_at cl c; auto.
+  - destruct (disc (conns s c)); [exact H|]. cbn [fst Core.conns]. conn_at cl c; auto.
+  - destruct (Core.is_done (conns s c)); [exact H|]. cbn [fst Core.conns]. conn_at cl c; auto.
+  - destruct (_ && _); exact H.
+  - exact H.
+  - exact H.
+  - exact H.
+  - exact H.
+  - cbn [fst Core.conns].
+    match goal with |- disc (Core.pass _ _ ?σ ?own (Core.fan _ _ _ ?σ' _ ?n ?f) _) = _ => destruct (grant_conns σ σ' own n f cl) as (_&_&_&B&_) end.
+    rewrite B. exact H.
+  - fold (step s (Core.GrantConn upd c)). destruct (Nat.eq_dec cl c) as [->|Hne]; [|rewrite conns_other by exact Hne; exact H].
+    destruct (cqueue (conns s c)) as [|it q] eqn:Eq; [rewrite step_conn_empty by exact Eq; exact H|].
+    rewrite step_conn by (rewrite Eq; discriminate). destruct (task_shape s c) as (_&_&Hd&_). cbv zeta in Hd.
+    destruct (conn_task s c) as [[[k oi] nx] ms]. cbn [fst Core.conns] in *. unfold Core.set_conn. rewrite Nat.eqb_refl, Hd. exact H.
+Qed.
+
+Lemma lgc_step_nonconn b cl s o L : (forall c0, o <> Core.GrantConn upd c0) -> LGC b cl s L ->
+  LGC b cl (fst (step s o)) (fold_left (lstep cl) (snd (step s o)) L).
+Proof.
+  intros Ho HL. destruct o as [c id|c id k|c|c t|i g| |u| | | |c]; unfold Core.step; try (exfalso; eapply Ho; reflexivity).
+  - destruct (disc (conns s c)); [exact HL|]. cbn [fst snd fold_left].
+    apply (lgc_transfer b cl s _ L HL); cbn [Core.conns Core.insts]; auto; conn_at cl c; reflexivity.
+  - destruct (disc (conns s c)); [exact HL|]. cbn [fst snd fold_left].
+    apply (lgc_transfer b cl s _ L HL); cbn [Core.conns Core.insts]; auto; conn_at cl c; reflexivity.
+  - destruct (disc (conns s c)); [exact HL|]. cbn [fst snd fold_left].
+    apply (lgc_transfer b cl s _ L HL); cbn [Core.conns Core.insts]; auto; conn_at cl c; reflexivity.
+  - destruct (Core.is_done (conns s c)); [exact HL|]. cbn [fst snd fold_left].
+    apply (lgc_transfer b cl s _ L HL); cbn [Core.conns Core.insts]; auto; conn_at cl c; reflexivity.
+  - destruct (_ && _); [|exact HL]. cbn [fst snd fold_left].
+    apply (lgc_transfer b cl s _ L HL); cbn [Core.conns Core.insts]; auto. intros j _. inst_at j i; auto.
+  - cbn [fst snd fold_left]. apply (lgc_transfer b cl s _ L HL); cbn [Core.conns Core.insts]; auto.
+  - cbn [fst snd fold_left]. apply (lgc_transfer b cl s _ L HL); cbn [Core.conns Core.insts]; auto.
+  - cbn [fst snd fold_left]. apply (lgc_transfer b cl s _ L HL); cbn [Core.conns Core.insts]; auto.
+  - cbn [fst snd fold_left]. apply (lgc_transfer b cl s _ L HL); cbn [Core.conns Core.insts]; auto.
+  - cbn [fst snd].
+    assert (E : forall bb : bool, fold_left (lstep cl) (if bb then [OGetReq] else []) L = L) by (intros []; reflexivity).
+    rewrite E. apply (lgc_transfer b cl s _ L HL); cbn [Core.conns Core.insts]; auto.
+    + match goal with |- cur (Core.pass _ _ ?σ ?own (Core.fan _ _ _ ?σ' _ ?n ?f) _) = _ => destruct (grant_conns σ σ' own n f cl) as (_&B&_) end. exact B.
+    + match goal with |- direct (Core.pass _ _ ?σ ?own (Core.fan _ _ _ ?σ' _ ?n ?f) _) = _ => destruct (grant_conns σ σ' own n f cl) as (_&_&B&_) end. exact B.
+Qed.
+
+Lemma lgc_step_otherconn b cl c0 s L : WF s -> cl <> c0 -> LGC b cl s L ->
+  LGC b cl (fst (step s (Core.GrantConn upd c0))) (fold_left (lstep cl) (snd (step s (Core.GrantConn upd c0))) L).
+Proof.
+  intros Hw Hne HL. rewrite (fold_other cl c0 _ Hne (outs_addr s c0)).
+  apply (lgc_transfer b cl s _ L HL).
+  - rewrite conns_other by exact Hne. reflexivity.
+  - rewrite conns_other by exact Hne. reflexivity.
+  - intros i Hc. destruct (w_cur _ Hw cl i Hc) as (Hi & Ho & _). rewrite insts_other by (auto; congruence). auto.
+Qed.
+
+Lemma nu_prefix c outs o : no_underflow c (outs ++ o) -> no_underflow c outs.
+Proof. intros H pre id k post E. apply (H pre id k (post ++ o)). rewrite E, <- app_assoc. reflexivity. Qed.
+
+Lemma lgc_exec b t ops c :
+  let s := fst (exec t ops) in let outs := snd (exec t ops) in
+  disc (conns s c) = false -> (b = true -> no_underflow c outs) -> LGC b c s (client c outs).
+Proof.
+  apply (exec_ind (fun s outs => disc (conns s c) = false -> (b = true -> no_underflow c outs) -> LGC b c s (client c outs))).
+  - intros _ _. split; cbn; [discriminate|reflexivity].
+  - intros ops' o s outs IH Hd Hnu.
+    assert (Hd0 : disc (conns s c) = false).
+    { destruct (disc (conns s c)) eqn:E; [|reflexivity]. rewrite (disc_mono s o c E) in Hd. discriminate. }
+    specialize (IH Hd0 (fun Hb => nu_prefix _ _ _ (Hnu Hb))). rewrite client_app.
+    assert (Ho : (exists c0, o = Core.GrantConn upd c0) \/ forall c0, o <> Core.GrantConn upd c0).
+    { destruct o; try (right; intros; discriminate). left; eexists; reflexivity. }
+    destruct Ho as [[c0 ->]|Ho]; [|apply lgc_step_nonconn; assumption].
+    destruct (Nat.eq_dec c c0) as [<-|Hne]; [|apply lgc_step_otherconn; [apply wf_exec|exact Hne|exact IH]].
+    apply lgc_step_conn; [apply core_conv_inv|apply wf_exec|exact IH|exact Hd0|].
+    intros Hb id k E. apply (Hnu Hb outs id k []). rewrite E. reflexivity.
+Qed.
+
+Theorem core_direct_count : forall t ops c,
+  let s := fst (exec t ops) in let outs := snd (exec t ops) in
+  Core.disc (conns s c) = false -> no_underflow c outs ->
+  Core.direct (conns s c) = Core.lcnt val (client c outs) + Core.pending val upd s c.
+Proof.
+  intros t ops c. cbv zeta. intros Hd Hnu. destruct (lgc_exec true t ops c Hd (fun _ => Hnu)) as [L1 L2].
+  unfold Core.pending. destruct (cur (conns (fst (exec t ops)) c)) as [i|] eqn:Ec.
+  - rewrite (L1 i eq_refl). unfold pend. lia.
+  - rewrite (L2 eq_refl eq_refl), (w_dir _ (wf_exec t ops) c Ec). reflexivity.
+Qed.
+
+Theorem core_direct_le : forall t ops c,
+  let s := fst (exec t ops) in let outs := snd (exec t ops) in
+  Core.disc (conns s c) = false ->
+  Core.direct (conns s c) <= Core.lcnt val (client c outs) + Core.pending val upd s c.
+Proof.
+  intros t ops c. cbv zeta. intros Hd. destruct (lgc_exec false t ops c Hd) as [L1 L2]; [discriminate|].
+  unfold Core.pending. destruct (cur (conns (fst (exec t ops)) c)) as [i|] eqn:Ec.
+  - specialize (L1 i eq_refl). unfold pend in L1. cbv beta iota in L1. lia.
+  - rewrite (w_dir _ (wf_exec t ops) c Ec). lia.
+Qed.
+
+(* ================= C: the client's copy ================= *)
+(* the effect of the handler actions on the subscription *)
+Lemma respond_all_sub σ i : sloaded (csubs σ i) = true -> ssent (csubs σ i) = false ->
   let x := csubs σ i in let x' := csubs (cstep σ (Conv.Respond upd i (length (seq_ x)))) i in
-  ssent x' = true /\ sloaded x' = true /\ sflag x' = false /\ sgone x' = sgone x /\
+  ssent x' = true /\ sloaded x' = true /\ sflag x' = false /\
   ssval x' = snd (Conv.replay val upd app (ssver x, ssval x) (seq_ x)).
 Proof.
   intros Hl Hs. cbn zeta. cbn [Conv.step]. rewrite Hl, Hs. cbn [andb negb Conv.subs]. rewrite Conv.set_sub_eq.
@@ -1009,239 +2063,171 @@ Proof.
   destruct (Conv.replay val upd app (ssver (csubs σ i), ssval (csubs σ i)) (seq_ (csubs σ i))) as [ver v].
   cbn [Conv.with_sub Conv.sent Conv.loaded Conv.flag Conv.gone Conv.sval snd]. auto.
 Qed.
-
-(* ---------------- callbacks and the cached verdict ---------------- *)
-Definition IW (s : Core.st val upd) : Prop :=
-  forall i, (acc (insts s i) = Some true -> acb (insts s i) = []) /\ (rcb (insts s i) <> [] -> acc (insts s i) = Some true).
-
-Ltac iw_tac H i :=
-  let j := fresh "j" in intros j; cbn [Core.insts]; inst_at j i; try apply H;
-  let A := fresh "A" in let B := fresh "B" in destruct (H i) as [A B];
-  split; intros; try discriminate; try congruence; auto.
-
-Lemma iw_step s o : WF s -> IW s -> IW (fst (step s o)).
+Lemma respond_none_sub σ i : sloaded (csubs σ i) = true -> ssent (csubs σ i) = false ->
+  let x := csubs σ i in let x' := csubs (cstep σ (Conv.Respond upd i 0)) i in
+  ssent x' = true /\ sloaded x' = true /\ ssval x' = ssval x.
 Proof.
-  intros Hw H. pose proof (w_acc _ Hw) as W7.
-  step_cases s o; try exact H.
-  - intros j; cbn [Core.insts]; inst_at j i; apply H.
-  - iw_tac H i.
-  - iw_tac H i. exfalso. apply B in H0. congruence.
-  - iw_tac H i. exfalso. apply B in H0. congruence.
-  - iw_tac H (next s).
-  - iw_tac H i.
-  - iw_tac H i.
-  - iw_tac H i.
-  - iw_tac H i. exfalso. destruct (Nat.eqb _ 0); [congruence|]. apply B in H0. apply W7 in H0. congruence.
-  - destruct (_ && _); [|exact H]. iw_tac H i.
-  - destruct (cur (conns s c)) as [i|]; [|exact H]. iw_tac H i.
+  intros Hl Hs. cbn zeta. cbn [Conv.step]. rewrite Hl, Hs. cbn [andb negb Conv.subs]. rewrite Conv.set_sub_eq.
+  unfold Conv.drain. cbn [Conv.with_sub Conv.eq Conv.sver Conv.sval Conv.sent firstn skipn Conv.replay fold_left].
+  cbn [Conv.with_sub Conv.sent Conv.loaded Conv.flag Conv.gone Conv.sval snd]. auto.
+Qed.
+Lemma respond_noop σ i n : sloaded (csubs σ i) && negb (ssent (csubs σ i)) = false -> cstep σ (Conv.Respond upd i n) = σ.
+Proof. intros H. cbn [Conv.step]. rewrite H. reflexivity. Qed.
+Lemma unqueue_all_sub σ i : sloaded (csubs σ i) = true -> ssent (csubs σ i) = true -> sflag (csubs σ i) = true ->
+  let x := csubs σ i in let x' := csubs (cstep σ (Conv.Unqueue upd i (length (seq_ x)))) i in
+  ssent x' = true /\ sloaded x' = true /\ sflag x' = false /\
+  ssval x' = snd (Conv.replay val upd app (ssver x, ssval x) (seq_ x)).
+Proof.
+  intros Hl Hs Hf. cbn zeta. cbn [Conv.step]. rewrite Hl, Hs, Hf. cbn [andb negb Conv.subs]. rewrite Conv.set_sub_eq.
+  unfold Conv.drain. rewrite firstn_all, skipn_all.
+  destruct (Conv.replay val upd app (ssver (csubs σ i), ssval (csubs σ i)) (seq_ (csubs σ i))) as [ver v].
+  cbn [Conv.with_sub Conv.sent Conv.loaded Conv.flag Conv.gone Conv.sval snd]. auto.
+Qed.
+Lemma unqueue_noop σ i n : sloaded (csubs σ i) && ssent (csubs σ i) && sflag (csubs σ i) = false -> cstep σ (Conv.Unqueue upd i n) = σ.
+Proof. intros H. cbn [Conv.step]. rewrite H. reflexivity. Qed.
+Lemma startq_sub σ i :
+  let x := csubs σ i in let x' := csubs (cstep σ (Conv.StartQueue upd i)) i in
+  ssent x' = ssent x /\ sloaded x' = sloaded x /\ ssval x' = ssval x /\ seq_ x' = seq_ x /\
+  sflag x' = (sloaded x && ssent x || sflag x).
+Proof.
+  cbn zeta. cbn [Conv.step]. destruct (sloaded (csubs σ i) && ssent (csubs σ i)) eqn:E; [|repeat split].
+  cbn [Conv.subs]. rewrite Conv.set_sub_eq. cbn. repeat split.
 Qed.
 
-(* ---------------- a connection worker leaves the other connections alone ---------------- *)
-Ltac conn_cases s c :=
-  unfold Core.step; cbn [Core.acts_of];
-  destruct (cqueue (conns s c)) as [|[id|id k|i|i|] q] eqn:Eq;
-    [ | destruct (cur (conns s c)) as [i|] eqn:Ec;
-        [destruct (acc (insts s i)) as [[|]|] eqn:Ea; [destruct (Core.is_live val upd (cv s) i) eqn:El| |] |]
-      | rewrite ?leb1; destruct (cur (conns s c)) as [i|] eqn:Ec;
-        [destruct (Nat.eqb k 0) eqn:Ek;
-           [|destruct (Nat.leb k (direct (conns s c))) eqn:Ele; [destruct (Nat.eqb (direct (conns s c) - k) 0) eqn:Ez|]]|]
-      | destruct (Core.is_gone val upd (cv s) i) eqn:Eg;
-        [|destruct (ans (insts s i)) as [[|]|] eqn:Ean; [destruct (Core.is_live val upd (cv s) i) eqn:El| |]]
-      | | ];
-  cbn [fst snd negb andb].
+Notation no_bare_resp := (Core.no_bare_resp val upd app).
 
-Lemma conns_other s c0 c : c <> c0 -> conns (fst (step s (Core.GrantConn upd c0))) c = conns s c.
+Section Copy.
+Variables (c i : nat) (L0 : ledger_).
+Notation Lk := (Lk c L0).
+Definition NB (lo : list out_) : Prop :=
+  forall pre id post, lo = pre ++ OResp c id None :: post -> 0 < lcnt_ (fold_left (lstep c) pre L0).
+Definition JVB (k : tk_) : Prop :=
+  cur (tx k) = Some i -> 0 < lcnt_ (Lk k) ->
+  sent_ i k = true /\ loaded_ i k = true /\ lcopy_ (Lk k) = Some (ssval (me i k)).
+Definition JV (k : tk_) : Prop := CInv (ts k) /\ (NB (to k) -> JVB k).
+
+Lemma nb_prefix l1 l2 : NB (l1 ++ l2) -> NB l1.
+Proof. intros H pre id post E. apply (H pre id (post ++ l2)). rewrite E, <- app_assoc. reflexivity. Qed.
+Lemma nb_ext m k k' : ext m c i k k' -> NB (to k') -> NB (to k).
+Proof. intros [_ (lo&B1&_) _ _ _ _ _ _] H. rewrite B1 in H. eapply nb_prefix, H. Qed.
+Lemma inv_ext m k k' : ext m c i k k' -> CInv (ts k) -> CInv (ts k').
+Proof. intros [(la&_&A2&_) _ _ _ _ _ _ _] H. rewrite A2. apply acts_inv, H. Qed.
+Lemma nb_last l id : NB (l ++ [OResp c id None]) -> 0 < lcnt_ (fold_left (lstep c) l L0).
+Proof. intros H. apply (H l id []). reflexivity. Qed.
+
+(* fields of the subscription as a task sees them *)
+Definition same_fields (k' k : tk_) : Prop :=
+  sent_ i k' = sent_ i k /\ loaded_ i k' = loaded_ i k /\ ssval (me i k') = ssval (me i k).
+
+Lemma jvb_same k k' : tx k' = tx k -> Lk k' = Lk k -> same_fields k' k -> JVB k -> JVB k'.
+Proof. unfold JVB. intros E1 E2 (A&B&C) H. rewrite E1, E2, A, B, C. exact H. Qed.
+
+Lemma load_fields k b : tx (load_access c i k b) = tx k /\ ts (load_access c i k b) = ts k.
+Proof. unfold Core.load_access. cbv zeta. destruct (inflight (ty k)); split; reflexivity. Qed.
+Lemma hreacc_fields k : tx (handle_reaccess c i k) = tx k /\ same_fields (handle_reaccess c i k) k.
 Proof.
-  intros Hne. assert (E : Nat.eqb c c0 = false) by (apply Nat.eqb_neq; exact Hne).
-  conn_cases s c0; cbn [Core.conns]; unfold Core.set_conn; rewrite ?E; reflexivity.
+  unfold Core.handle_reaccess. cbv zeta. cbn [Core.sety Core.tx]. destruct (Nat.eqb (direct (tx k)) 0); [split; [|split; [|split]]; reflexivity|].
+  match goal with |- context [load_access c i ?K AVal] => destruct (load_fields K AVal) as [A B] end.
+  rewrite A. split; [reflexivity|]. unfold same_fields, Core.sent_, Core.loaded_, Core.me. rewrite B. cbn [Core.act Core.sety Core.ts].
+  destruct (startq_sub (ts k) i) as (S1&S2&S3&_). cbn zeta in *. rewrite S1, S2, S3. repeat split.
 Qed.
-
-Lemma addr_proc_o c p e : Forall (addr c) (snd (Core.proc_o val upd app c p e)).
+Lemma jv_load k b : JV k -> JV (load_access c i k b).
 Proof.
-  destruct p as [ver v]. unfold Core.proc_o. destruct (Nat.eqb ver (Conv.e_ver upd e)); [|constructor].
-  destruct (Conv.e_upd upd e); cbn [snd]; repeat constructor.
+  intros [Hi HJ]. split; [eapply inv_ext; [apply (x_load true), ext_refl|exact Hi]|]. intros HNB.
+  specialize (HJ (nb_ext _ _ _ (x_load true c i k k b (ext_refl _ _ _ _)) HNB)).
+  destruct (load_fields k b) as [A B]. destruct (cnt_load c i L0 k b) as [C _].
+  apply (jvb_same k); auto. unfold same_fields, Core.sent_, Core.loaded_, Core.me. rewrite B. repeat split.
 Qed.
-Lemma addr_replay_o c l : forall p, Forall (addr c) (Core.replay_o val upd app c p l).
+Lemma jv_hreacc k : JV k -> JV (handle_reaccess c i k).
 Proof.
-  induction l as [|e l IH]; intros p; cbn [Core.replay_o]; [constructor|].
-  pose proof (addr_proc_o c p e) as Hp. destruct (Core.proc_o val upd app c p e) as [p' o]. cbn [snd] in Hp.
-  apply Forall_app. split; [exact Hp|apply IH].
+  intros [Hi HJ]. split; [eapply inv_ext; [apply (x_hreacc true), ext_refl|exact Hi]|]. intros HNB.
+  specialize (HJ (nb_ext _ _ _ (x_hreacc true c i k k (ext_refl _ _ _ _)) HNB)).
+  destruct (hreacc_fields k) as [A B]. destruct (cnt_hreacc c i L0 k) as [C _]. apply (jvb_same k); auto.
 Qed.
-Lemma addr_map_resp c (l : list nat) : Forall (addr c) (map (fun id' => Core.OResp val upd c id' None) l).
-Proof. induction l; cbn [map]; repeat constructor; assumption. Qed.
-Lemma addr_respond_ids c x ids : Forall (addr c) (Core.respond_ids val upd app c x ids).
+Lemma jv_reacc k : JV k -> JV (reaccess c i k).
 Proof.
-  unfold Core.respond_ids. destruct ids as [|id r]; [constructor|]. apply Forall_app. split; [|apply addr_map_resp].
-  destruct (ssent x); [repeat constructor|]. constructor; [reflexivity|apply addr_replay_o].
+  intros H. unfold Core.reaccess. destruct (gone_ i k); [exact H|]. destruct (flag_ i k); [exact H|apply jv_hreacc, H].
 Qed.
-Lemma addr_map_err c e (l : list nat) : Forall (addr c) (map (fun id => Core.OErr val upd c id e) l).
-Proof. induction l; cbn [map]; repeat constructor; assumption. Qed.
+Lemma jvb_emit_bare K r :
+  (cur (tx K) = Some i -> sent_ i K = true /\ loaded_ i K = true /\ lcopy_ (Lk K) = Some (ssval (me i K))) ->
+  JVB (emit K (map (fun id' => OResp c id' None) r)).
+Proof. intros H Hc _. rewrite Lk_emit, fold_resp_none. cbn [Core.lcopy]. exact (H Hc). Qed.
 
-Lemma outs_addr s c0 : Forall (addr c0) (snd (step s (Core.GrantConn upd c0))).
+Lemma jv_respond k ids : loaded_ i k = true -> JV k -> JV (respond c i k ids).
 Proof.
-  conn_cases s c0; try (repeat constructor; fail); try apply addr_respond_ids; try apply addr_map_err.
-  - destruct (mqsub s); repeat constructor.
-  - apply Forall_app. split.
-    + destruct (scq (csubs (cv s) i)) as [|[|e] ?]; try constructor.
-      destruct (_ && _); [apply addr_proc_o|constructor].
-    + destruct (_ && _); [apply addr_respond_ids|constructor].
+  intros Hl [Hi HJ]. split; [eapply inv_ext; [apply (x_respond true), ext_refl|exact Hi]|]. intros HNB.
+  specialize (HJ (nb_ext _ _ _ (x_respond true c i k k ids (ext_refl _ _ _ _)) HNB)).
+  unfold Core.respond in *. destruct ids as [|id r]; [exact HJ|]. cbv zeta in *.
+  apply nb_prefix in HNB. apply jvb_emit_bare. unfold Core.sent_, Core.loaded_, Core.me in *.
+  destruct (ssent (csubs (ts k) i)) eqn:Es.
+  - intros Hc. cbn [Core.emit Core.to] in HNB. apply nb_last in HNB. destruct (HJ Hc HNB) as (A&B&C).
+    cbn [Core.emit Core.ts]. rewrite Lk_emit. cbn [fold_left Core.lstep]. rewrite Nat.eqb_refl. cbn [Core.lcopy]. auto.
+  - cbn [Core.emit Core.ty Core.ts]. destruct (reflag (ty k)).
+    + intros Hc. destruct (hreacc_fields (actk (emit k [OResp c id (Some (ssval (csubs (ts k) i)))]) (Conv.Respond upd i 0))) as [_ (F1&F2&F3)].
+      unfold Core.sent_, Core.loaded_, Core.me in F1, F2, F3. rewrite F1, F2, F3.
+      match goal with |- context [Lk (handle_reaccess c i ?K)] => destruct (cnt_hreacc c i L0 K) as [C _] end. rewrite C.
+      cbn [Core.act Core.emit Core.ts]. destruct (respond_none_sub (ts k) i Hl Es) as (R1&R2&R3). cbn zeta in *.
+      rewrite R1, R2, R3, Lk_act, Lk_emit. cbn [fold_left Core.lstep]. rewrite Nat.eqb_refl. cbn [Core.lcopy]. auto.
+    + intros Hc. cbn [Core.act Core.emit Core.ts]. destruct (respond_all_sub (ts k) i Hl Es) as (R1&R2&R3&R4). cbn zeta in *.
+      rewrite R1, R2, R4. repeat split. rewrite Lk_emit, Lk_act, Lk_emit. cbn [fold_left Core.lstep]. rewrite Nat.eqb_refl.
+      unfold Core.drained. cbn [Core.emit Core.ts]. rewrite fold_replay_o. reflexivity.
 Qed.
-
-Lemma insts_other s c0 j : WF s -> j < next s -> owner (insts s j) <> c0 ->
-  insts (fst (step s (Core.GrantConn upd c0))) j = insts s j.
+Lemma jv_ready k id : JV k -> JV (on_ready c i k id).
 Proof.
-  intros Hw Hj Ho. pose proof Hw as [W1 W2 W3 W4 W5 W6 W7].
-  conn_cases s c0; cbn [Core.insts]; try reflexivity;
-    try (destruct (W1 c0 i Ec) as (_&Hoi&_); unfold Core.set_inst; destruct (Nat.eqb_spec j i) as [->|]; [congruence|reflexivity]).
-  - unfold Core.set_inst. destruct (Nat.eqb_spec j (next s)); [lia|reflexivity].
-  - destruct (W4 c0 (QAccess i)) as [_ Hoi]; [rewrite Eq; left; reflexivity|]. unfold Core.set_inst; destruct (Nat.eqb_spec j i) as [->|]; [congruence|reflexivity].
-  - destruct (W4 c0 (QAccess i)) as [_ Hoi]; [rewrite Eq; left; reflexivity|]. unfold Core.set_inst; destruct (Nat.eqb_spec j i) as [->|]; [congruence|reflexivity].
-  - destruct (W4 c0 (QAccess i)) as [_ Hoi]; [rewrite Eq; left; reflexivity|]. unfold Core.set_inst; destruct (Nat.eqb_spec j i) as [->|]; [congruence|reflexivity].
-  - destruct (W4 c0 (QSub i)) as [_ Hoi]; [rewrite Eq; left; reflexivity|]. destruct (_ && _); [|reflexivity].
-    unfold Core.set_inst; destruct (Nat.eqb_spec j i) as [->|]; [congruence|reflexivity].
-  - destruct (cur (conns s c0)) as [i|] eqn:Ec; [|reflexivity]. destruct (W1 c0 i Ec) as (_&Hoi&_).
-    unfold Core.set_inst; destruct (Nat.eqb_spec j i) as [->|]; [congruence|reflexivity].
+  intros H. unfold Core.on_ready. destruct (loaded_ i k) eqn:El; [apply jv_respond; assumption|]. cbv zeta. exact H.
 Qed.
-
-Definition owned (s : Core.st val upd) (c0 : nat) (a : act) : Prop :=
-  a <> Conv.RunE upd /\ forall j, tgt a = Some j -> (j < next s /\ owner (insts s j) = c0) \/ j = next s.
-
-Lemma owned_respond s c0 i x ids : i < next s -> owner (insts s i) = c0 -> Forall (owned s c0) (Core.respond_acts val upd i x ids).
+Lemma jv_emit k o : (forall L, fold_left (lstep c) o L = L) -> JV k -> JV (emit k o).
 Proof.
-  intros Hi Ho. unfold Core.respond_acts. destruct ids; [constructor|]. destruct (ssent x); [constructor|].
-  constructor; [|constructor]. split; [discriminate|]. cbn [tgt]. intros j E. injection E as <-. left. auto.
+  intros Ho [Hi HJ]. split; [exact Hi|]. intros HNB. cbn [Core.emit Core.to] in HNB. apply nb_prefix in HNB. specialize (HJ HNB).
+  apply (jvb_same k); [reflexivity|rewrite Lk_emit; apply Ho|repeat split|exact HJ].
 Qed.
-
-Lemma acts_owned s c0 : WF s -> Forall (owned s c0) (acts_of s (Core.GrantConn upd c0)).
+Lemma jv_unqueue k : JV k -> JV (unqueue_reaccess c i k).
 Proof.
-  intros Hw. pose proof Hw as [W1 W2 W3 W4 W5 W6 W7]. cbn [Core.acts_of].
-  destruct (cqueue (conns s c0)) as [|[id|id k|i|i|] q] eqn:Eq; [constructor| | | | |].
-  - destruct (cur (conns s c0)) as [i|] eqn:Ec.
-    + destruct (W1 c0 i Ec) as (Hi&Ho&_). destruct (acc (insts s i)) as [[|]|]; try constructor.
-      destruct (Core.is_live val upd (cv s) i); [apply owned_respond; assumption|constructor].
-    + constructor; [|constructor]. split; [discriminate|]. cbn [tgt]. intros j E. injection E as <-. right; reflexivity.
-  - destruct (cur (conns s c0)) as [i|] eqn:Ec; [|constructor]. destruct (W1 c0 i Ec) as (Hi&Ho&_).
-    destruct (_ && _); [|constructor]. constructor; [|constructor]. split; [discriminate|]. cbn [tgt]. intros j E. injection E as <-. left; auto.
-  - destruct (W4 c0 (QAccess i)) as [Hi Ho]; [rewrite Eq; left; reflexivity|].
-    destruct (Core.is_gone val upd (cv s) i); [constructor|]. destruct (ans (insts s i)) as [[|]|]; try constructor.
-    + destruct (Core.is_live val upd (cv s) i); [apply owned_respond; assumption|constructor].
-    + destruct (Nat.eqb _ 0); [|constructor]. constructor; [|constructor]. split; [discriminate|]. cbn [tgt]. intros j E. injection E as <-. left; auto.
-  - destruct (W4 c0 (QSub i)) as [Hi Ho]; [rewrite Eq; left; reflexivity|].
-    constructor; [split; [discriminate|cbn [tgt]; intros j E; injection E as <-; left; auto]|].
-    destruct (_ && _); [apply owned_respond; assumption|constructor].
-  - apply Forall_forall. intros a Hin. apply in_map_iff in Hin. destruct Hin as (j & <- & Hin).
-    unfold Core.insts_of in Hin. apply filter_In in Hin. destruct Hin as [H1 H2]. apply in_seq in H1. apply Nat.eqb_eq in H2.
-    split; [discriminate|]. cbn [tgt]. intros j' E. injection E as <-. left. split; [lia|exact H2].
+  intros H. pose proof H as [Hi HJ]. unfold Core.unqueue_reaccess. cbv zeta.
+  match goal with |- context [if gone_ i ?K then _ else _] => destruct (gone_ i K) end; [exact H|].
+  match goal with |- context [if reflag ?y then _ else _] => destruct (reflag y) end; [apply jv_hreacc; exact H|].
+  split; [cbn [Core.emit Core.act Core.sety Core.ts]; apply cstep_inv, Hi|]. intros HNB.
+  cbn [Core.emit Core.act Core.sety Core.to] in HNB. apply nb_prefix in HNB. specialize (HJ HNB).
+  intros Hc Hp. rewrite Lk_emit, Lk_act, Lk_sety in *. unfold Core.drained in *. rewrite lcnt_replay_o in Hp.
+  destruct (HJ Hc Hp) as (A&B&C). unfold Core.sent_, Core.loaded_, Core.me in *. cbn [Core.emit Core.act Core.sety Core.ts] in *.
+  destruct (sflag (csubs (ts k) i)) eqn:Ef.
+  - destruct (unqueue_all_sub (ts k) i B A Ef) as (R1&R2&R3&R4). cbn zeta in *. rewrite R1, R2, R4. repeat split.
+    rewrite (ledger_eta (Lk k)), C, fold_replay_o. reflexivity.
+  - rewrite unqueue_noop by (rewrite Ef; destruct (sloaded _), (ssent _); reflexivity).
+    rewrite (Conv.i8 _ _ _ _ Hi i Ef). cbn [Core.replay_o fold_left]. auto.
 Qed.
-
-Lemma subs_other_conn s c0 j : WF s -> j < next s -> owner (insts s j) <> c0 ->
-  csubs (cv (fst (step s (Core.GrantConn upd c0)))) j = csubs (cv s) j.
+Lemma remove_keep K n : cur (tx (remove_direct i K n)) = Some i ->
+  ts (remove_direct i K n) = ts K /\ ty (remove_direct i K n) = ty K /\ to (remove_direct i K n) = to K /\ cur (tx K) = Some i.
 Proof.
-  intros Hw Hj Ho. rewrite step_cv. apply subs_others.
-  eapply Forall_impl; [|apply (acts_owned s c0 Hw)]. intros a [Hr Ht]. split; [|exact Hr].
-  intros E. apply Ht in E. destruct E as [[_ E]|E]; [congruence|lia].
+  unfold Core.remove_direct. destruct (Nat.eqb (direct (tx K)) 0); [auto|]. cbv zeta.
+  match goal with |- context [if ?b then _ else _] => destruct b end; [|cbn; auto].
+  unfold Core.dispose_t. match goal with |- context [if ?b then _ else _] => destruct b end; [cbn; auto|]. cbv zeta. cbn. discriminate.
 Qed.
-
-(* ---------------- the gateway's count and the client's ledger ---------------- *)
-Record LG (c : nat) (s : Core.st val upd) (L : ledger_) : Prop := {
-  l_none : cur (conns s c) = None -> lcnt_ L = 0;
-  l_cnt : forall i, cur (conns s c) = Some i ->
-            direct (conns s c) = lcnt_ L + length (acb (insts s i)) + length (rcb (insts s i));
-  l_pos : forall i, cur (conns s c) = Some i -> 0 < lcnt_ L ->
-            ssent (csubs (cv s) i) = true /\ sloaded (csubs (cv s) i) = true /\ sflag (csubs (cv s) i) = false /\
-            lcopy_ L = Some (ssval (csubs (cv s) i)) /\
-            acb (insts s i) = [] /\ rcb (insts s i) = [] /\ acc (insts s i) = Some true;
-  l_zero : forall i, cur (conns s c) = Some i -> lcnt_ L = 0 -> ssent (csubs (cv s) i) = false;
-  l_rcb : forall i, cur (conns s c) = Some i -> rcb (insts s i) <> [] -> sloaded (csubs (cv s) i) = false }.
-
-Lemma lg_transfer c s s' L : LG c s L ->
-  cur (conns s' c) = cur (conns s c) -> direct (conns s' c) = direct (conns s c) ->
-  (forall i, cur (conns s c) = Some i ->
-     acb (insts s' i) = acb (insts s i) /\ rcb (insts s' i) = rcb (insts s i) /\ acc (insts s' i) = acc (insts s i) /\
-     ssent (csubs (cv s') i) = ssent (csubs (cv s) i) /\ sloaded (csubs (cv s') i) = sloaded (csubs (cv s) i) /\
-     sflag (csubs (cv s') i) = sflag (csubs (cv s) i) /\ ssval (csubs (cv s') i) = ssval (csubs (cv s) i)) ->
-  LG c s' L.
+Lemma jv_remove k n : JV k -> JV (remove_direct i k n).
 Proof.
-  intros [L1 L2 L3 L4 L5] Ec Ed Hi. constructor.
-  - rewrite Ec. exact L1.
-  - intros i Hc. rewrite Ec in Hc. destruct (Hi i Hc) as (A&B&_). rewrite Ed, A, B. apply L2, Hc.
-  - intros i Hc Hp. rewrite Ec in Hc. destruct (Hi i Hc) as (A&B&C&D&E&F&G). rewrite A, B, C, D, E, F, G. apply L3; assumption.
-  - intros i Hc Hz. rewrite Ec in Hc. destruct (Hi i Hc) as (A&B&C&D&E&F&G). rewrite D. apply L4; assumption.
-  - intros i Hc. rewrite Ec in Hc. destruct (Hi i Hc) as (A&B&C&D&E&F&G). rewrite B, E. apply L5, Hc.
+  intros [Hi HJ]. split; [eapply inv_ext; [apply x_remove, ext_refl|exact Hi]|]. intros HNB.
+  intros Hc. destruct (remove_keep k n Hc) as (A&B&C&D).
+  assert (EL : Lk (remove_direct i k n) = Lk k)
+    by (change (fold_left (lstep c) (to (remove_direct i k n)) L0 = fold_left (lstep c) (to k) L0); rewrite C; reflexivity).
+  rewrite C in HNB. rewrite EL. unfold Core.sent_, Core.loaded_, Core.me in *. rewrite A. exact (HJ HNB D).
 Qed.
-
-Lemma mild_steps acts : Forall (fun a => tgt a = None) acts -> forall σ j,
-  ssent (csubs (fold_left cstep acts σ) j) = ssent (csubs σ j) /\ sloaded (csubs (fold_left cstep acts σ) j) = sloaded (csubs σ j) /\
-  sflag (csubs (fold_left cstep acts σ) j) = sflag (csubs σ j) /\ ssval (csubs (fold_left cstep acts σ) j) = ssval (csubs σ j).
+Lemma jv_unsubd k : JV k -> JV (unsubscribe_direct c i k).
 Proof.
-  induction 1 as [|a acts Ha _ IH]; intros σ j; cbn [fold_left]; [auto|].
-  destruct (IH (cstep σ a) j) as (A&B&C&D). rewrite A, B, C, D.
-  assert (Hr : a = Conv.RunE upd \/ a <> Conv.RunE upd) by (destruct a; auto; right; discriminate).
-  destruct Hr as [->|Hr].
-  - destruct (rune_fields σ j) as (_&B'&_&D'&E'&_&G'&_). auto.
-  - rewrite subs_other; [auto|congruence|exact Hr].
+  intros H. pose proof H as [Hi HJ]. unfold Core.unsubscribe_direct. destruct (Nat.ltb 0 (direct (tx k))); [|exact H].
+  split; [eapply (inv_ext false k); [apply x_emit; [apply x_remove, ext_refl|repeat constructor]|exact Hi]|]. intros _ _.
+  rewrite Lk_emit. cbn [fold_left Core.lstep]. rewrite Nat.eqb_refl. cbn [Core.lcnt]. lia.
 Qed.
-
-Lemma lg_step_nonconn cl s o L : (forall c0, o <> Core.GrantConn upd c0) -> LG cl s L ->
-  LG cl (fst (step s o)) (fold_left (lstep cl) (snd (step s o)) L).
+Lemma jv_run_cb g k b : JV k -> JV (run_cb c i g k b).
 Proof.
-  intros Ho HL.
-  assert (M : forall s' acts, cv s' = fold_left cstep acts (cv s) -> Forall (fun a => tgt a = None) acts ->
-              cur (conns s' cl) = cur (conns s cl) -> direct (conns s' cl) = direct (conns s cl) ->
-              (forall i, acb (insts s' i) = acb (insts s i) /\ rcb (insts s' i) = rcb (insts s i) /\ acc (insts s' i) = acc (insts s i)) ->
-              LG cl s' L).
-  { intros s' acts Ecv Hm Ec Ed Hi. apply (lg_transfer cl s s' L HL Ec Ed). intros i _. destruct (Hi i) as (A&B&C).
-    rewrite Ecv. destruct (mild_steps acts Hm (cv s) i) as (D&E&F&G). repeat split; assumption. }
-  step_cases s o; try exact HL; try (exfalso; eapply Ho; reflexivity).
-  - apply (M _ []); cbn [Core.cv Core.conns Core.insts]; auto; conn_at cl c; reflexivity.
-  - apply (M _ []); cbn [Core.cv Core.conns Core.insts]; auto; conn_at cl c; reflexivity.
-  - apply (M _ []); cbn [Core.cv Core.conns Core.insts]; auto; conn_at cl c; reflexivity.
-  - eapply M; cbn [Core.cv Core.conns Core.insts]; [reflexivity|repeat constructor|reflexivity|reflexivity|].
-    intros j. inst_at j i; auto.
-  - eapply M; cbn [Core.cv Core.conns Core.insts]; [reflexivity| |reflexivity|reflexivity|auto].
-    destruct (_ && _); repeat constructor.
-  - eapply M; cbn [Core.cv Core.conns Core.insts]; [reflexivity| |reflexivity|reflexivity|auto].
-    destruct (mqsub s); repeat constructor.
-  - eapply M; cbn [Core.cv Core.conns Core.insts]; [reflexivity| |reflexivity|reflexivity|auto].
-    destruct (mqsub s); repeat constructor.
-  - assert (E : forall b : bool, fold_left (lstep cl) (if b then [Core.OGetReq val upd] else []) L = L) by (intros []; reflexivity).
-    rewrite E. eapply M; cbn [Core.cv Core.conns Core.insts]; [reflexivity|repeat constructor| | |auto].
-    + match goal with |- cur (Core.pass _ _ ?σ ?own (Core.fan _ _ _ ?σ' _ ?n ?f) _) = _ => destruct (grant_conns σ σ' own n f cl) as (_&B&_) end. exact B.
-    + match goal with |- direct (Core.pass _ _ ?σ ?own (Core.fan _ _ _ ?σ' _ ?n ?f) _) = _ => destruct (grant_conns σ σ' own n f cl) as (_&_&B&_) end. exact B.
+  intros H. unfold Core.run_cb. destruct b as [id|].
+  - destruct g; [destruct (gone_ i k); [exact H|apply jv_ready, H]|]. apply jv_remove, jv_emit; [reflexivity|exact H].
+  - apply jv_unqueue. destruct g; [exact H|apply jv_unsubd, H].
 Qed.
+Lemma jv_run_cbs g l : forall k, JV k -> JV (fold_left (run_cb c i g) l k).
+Proof. induction l as [|b l IH]; intros k H; [exact H|]. cbn [fold_left]. apply IH, jv_run_cb, H. Qed.
+End Copy.
 
-Lemma lg_step_otherconn cl c0 s L : WF s -> cl <> c0 -> LG cl s L ->
-  LG cl (fst (step s (Core.GrantConn upd c0))) (fold_left (lstep cl) (snd (step s (Core.GrantConn upd c0))) L).
-Proof.
-  intros Hw Hne HL. rewrite (fold_other cl c0 _ Hne (outs_addr s c0)).
-  apply (lg_transfer cl s _ L HL).
-  - rewrite conns_other by exact Hne. reflexivity.
-  - rewrite conns_other by exact Hne. reflexivity.
-  - intros i Hc. destruct (w_cur _ Hw cl i Hc) as (Hi & Ho & _).
-    rewrite insts_other, subs_other_conn by (auto; congruence). repeat split.
-Qed.
-
-Lemma disc_mono s o c : disc (conns s c) = true -> disc (conns (fst (step s o)) c) = true.
-Proof.
-  intros H. rename c into cl. step_cases s o; try exact H; cbn [Core.conns]; try (conn_at cl c; auto; fail).
-  - match goal with |- disc (Core.pass _ _ ?σ ?own (Core.fan _ _ _ ?σ' _ ?n ?f) _) = _ => destruct (grant_conns σ σ' own n f cl) as (_&_&_&B) end. rewrite B. exact H.
-Qed.
-
-Ltac inst_self := unfold Core.set_inst; rewrite ?Nat.eqb_refl; cbn [Core.with_cbs owner acb rcb acc ans lost].
-Ltac at_c := cbn [Core.conns Core.insts Core.cv]; unfold Core.set_conn; rewrite ?Nat.eqb_refl; cbn [cur direct Core.with_q].
-
-Lemma lg_same c s s' L : LG c s L -> cur (conns s' c) = cur (conns s c) -> direct (conns s' c) = direct (conns s c) ->
-  insts s' = insts s -> cv s' = cv s -> LG c s' L.
-Proof.
-  intros HL Ec Ed Ei Ecv. apply (lg_transfer c s s' L HL Ec Ed). intros i _. rewrite Ei, Ecv. repeat split.
-Qed.
-
-Lemma sent_subscribe σ k j : ssent (csubs (cstep σ (Conv.Subscribe upd k)) j) = ssent (csubs σ j).
-Proof.
-  cbn [Conv.step]. destruct (ssubscribed (csubs σ k)); [reflexivity|]. cbn [Conv.subs]. unfold Conv.set_sub.
-  destruct (Nat.eqb_spec j k) as [->|]; reflexivity.
-Qed.
-
+(* ---- the head item of a subscription's queue ---- *)
 Lemma runc_nil σ i : scq (csubs σ i) = [] -> cstep σ (Conv.RunC upd i) = σ.
 Proof. intros H. cbn [Conv.step]. rewrite H. reflexivity. Qed.
 Lemma loaded_head σ i q : CInv σ -> scq (csubs σ i) = Conv.CLoaded upd :: q -> sloaded (csubs σ i) = false.
@@ -1250,9 +2236,6 @@ Proof.
   pose proof (Conv.b2n_le (Conv.mem i (Conv.rs_subs val upd σ) && Conv.rs_loaded val upd σ)).
   destruct (sloaded (csubs σ i)); [cbn [Conv.b2n] in H4; lia|reflexivity].
 Qed.
-Lemma runc_loaded_gone σ i q : scq (csubs σ i) = Conv.CLoaded upd :: q -> sgone (csubs σ i) = true ->
-  sloaded (csubs (cstep σ (Conv.RunC upd i)) i) = false.
-Proof. intros E G. cbn [Conv.step]. rewrite E, G. cbn [Conv.subs]. rewrite Conv.set_sub_eq. reflexivity. Qed.
 Lemma runc_loaded_fields σ i q : scq (csubs σ i) = Conv.CLoaded upd :: q -> sgone (csubs σ i) = false ->
   let x1 := csubs (cstep σ (Conv.RunC upd i)) i in
   sloaded x1 = true /\ ssent x1 = false /\ seq_ x1 = [] /\ sflag x1 = true.
@@ -1270,211 +2253,555 @@ Proof.
     + destruct (Conv.proc val upd app (ssver (csubs σ i), ssval (csubs σ i)) e) as [ver v]. cbn. repeat split; auto; discriminate.
   - cbn. repeat split; auto; discriminate.
 Qed.
+Lemma runc_reacc_fields σ i q : scq (csubs σ i) = Conv.CReacc upd :: q ->
+  let x := csubs σ i in let x1 := csubs (cstep σ (Conv.RunC upd i)) i in
+  sloaded x1 = sloaded x /\ ssent x1 = ssent x /\ sflag x1 = sflag x /\ ssval x1 = ssval x /\ seq_ x1 = seq_ x.
+Proof. intros E. cbn zeta. cbn [Conv.step]. rewrite E. cbn [Conv.subs]. rewrite Conv.set_sub_eq. cbn. auto. Qed.
 
-Lemma lg_step_conn c s L : CInv (cv s) -> WF s -> IW s -> LG c s L -> disc (conns s c) = false ->
-  (forall id k, snd (step s (Core.GrantConn upd c)) = [Core.OAck val upd c id k] -> k <= lcnt_ L) ->
-  LG c (fst (step s (Core.GrantConn upd c))) (fold_left (lstep c) (snd (step s (Core.GrantConn upd c))) L).
+(* ---- the bodies keep the copy ---- *)
+Lemma jv_body_req s c x id q i L :
+  JV c i L (K0 s (Core.with_cd (Core.with_q x q) (Some i) (S (direct x))) (insts s i)) -> JV c i L (body_req s c x id q i).
 Proof.
-  intros Hinv Hw HI HL Hd Hnu. revert Hnu. conn_cases s c; intros Hnu;
-    pose proof Hw as [W1 W2 W3 W4 W5 W6 W7]; pose proof HL as [L1 L2 L3 L4 L5].
-  - (* empty queue *) exact HL.
-  - (* QReq: granted and loaded *)
-    unfold Core.is_live in El. pose proof (L2 i Ec) as Hc.
-    destruct (ssent (csubs (cv s) i)) eqn:Es.
-    + assert (Hp : 0 < lcnt_ L). { destruct (Nat.eq_dec (lcnt_ L) 0) as [E0|E0]; [|lia]. rewrite (L4 i Ec E0) in Es. discriminate. }
-      destruct (L3 i Ec Hp) as (A1&A2&A3&A4&A5&A6&A7).
-      unfold Core.respond_ids, Core.respond_acts. rewrite Es. cbn [map List.app fold_left Core.lstep]. rewrite Nat.eqb_refl.
-      constructor; at_c; cbn [Core.lcnt Core.lcopy].
-      * discriminate.
-      * intros i' E; injection E as <-. lia.
-      * intros i' E _; injection E as <-. repeat split; assumption.
-      * intros i' E Hz. discriminate.
-      * intros i' E; injection E as <-. apply L5, Ec.
-    + assert (Hz : lcnt_ L = 0). { destruct (Nat.eq_dec (lcnt_ L) 0) as [E0|E0]; [exact E0|]. destruct (L3 i Ec) as (A&_); [lia|congruence]. }
-      destruct (respond_sub (cv s) i El Es) as (R1&R2&R3&R4&R5). cbn zeta in *.
-      unfold Core.respond_ids, Core.respond_acts. rewrite Es. cbn [map List.app fold_left Core.lstep]. rewrite Nat.eqb_refl.
-      rewrite app_nil_r, fold_replay_o.
-      destruct (HI i) as [I1 I2].
-      constructor; at_c; cbn [Core.lcnt Core.lcopy].
-      * discriminate.
-      * intros i' E; injection E as <-. lia.
-      * intros i' E _; injection E as <-. rewrite R1, R2, R3, R5. repeat split; auto.
-        destruct (rcb (insts s i)) eqn:Er; [reflexivity|]. rewrite L5 in El; [discriminate|exact Ec|rewrite Er; discriminate].
-      * intros i' E Hz'. discriminate.
-      * intros i' E; injection E as <-. intros Hr. rewrite L5 in El; [discriminate|exact Ec|exact Hr].
-  - (* QReq: granted, not loaded yet *)
-    unfold Core.is_live in El. pose proof (L2 i Ec) as Hc. cbn [fold_left].
-    constructor; at_c.
-    + discriminate.
-    + intros i' E; injection E as <-. inst_self. rewrite app_length. cbn [length]. lia.
-    + intros i' E Hp; injection E as <-. destruct (L3 i Ec Hp) as (_&A&_). congruence.
-    + intros i' E; injection E as <-. apply L4, Ec.
-    + intros i' E _; injection E as <-. exact El.
-  - (* QReq: denied before *)
-    pose proof (L2 i Ec) as Hc. cbn [fold_left].
-    constructor; at_c.
-    + discriminate.
-    + intros i' E; injection E as <-. inst_self. rewrite app_length. cbn [length]. lia.
-    + intros i' E Hp; injection E as <-. destruct (L3 i Ec Hp) as (_&_&_&_&_&_&A). congruence.
-    + intros i' E; injection E as <-. apply L4, Ec.
-    + intros i' E; injection E as <-. inst_self. apply L5, Ec.
-  - (* QReq: verdict pending *)
-    pose proof (L2 i Ec) as Hc. cbn [fold_left].
-    constructor; at_c.
-    + discriminate.
-    + intros i' E; injection E as <-. inst_self. rewrite app_length. cbn [length]. lia.
-    + intros i' E Hp; injection E as <-. destruct (L3 i Ec Hp) as (_&_&_&_&_&_&A). congruence.
-    + intros i' E; injection E as <-. apply L4, Ec.
-    + intros i' E; injection E as <-. inst_self. apply L5, Ec.
-  - (* QReq: new instance *)
-    pose proof (L1 Ec) as Hz.
-    assert (E : fold_left (lstep c) ((if mqsub s then [] else [Core.OMqSub val upd]) ++ [Core.OAccessReq val upd c (next s)]) L = L)
-      by (destruct (mqsub s); reflexivity).
-    rewrite E. cbn [fold_left].
-    constructor; at_c.
-    + discriminate.
-    + intros i' E'; injection E' as <-. unfold Core.set_inst. rewrite Nat.eqb_refl. cbn. lia.
-    + intros i' _ Hp. lia.
-    + intros i' E' _; injection E' as <-. rewrite sent_subscribe. destruct (W3 (next s)) as (_&A&_); [lia|exact A].
-    + intros i' E'; injection E' as <-. unfold Core.set_inst. rewrite Nat.eqb_refl. cbn. congruence.
-  - (* QUnsub: count 0 *)
-    cbn [fold_left Core.lstep]. apply (lg_same c s _ L HL); at_c; reflexivity.
-  - (* QUnsub: to zero *)
-    pose proof (L2 i Ec) as Hc. apply Nat.eqb_eq in Ez. cbn [fold_left Core.lstep]. rewrite Nat.eqb_refl.
-    constructor; at_c; cbn [Core.lcnt Core.lcopy]; try discriminate. intros _. lia.
-  - (* QUnsub: some remain *)
-    pose proof (L2 i Ec) as Hc. apply Nat.eqb_neq in Ez. apply Nat.eqb_neq in Ek. apply Nat.leb_le in Ele.
-    pose proof (Hnu id k eq_refl) as Hk.
-    assert (Hp : 0 < lcnt_ L) by lia. destruct (L3 i Ec Hp) as (A1&A2&A3&A4&A5&A6&A7). rewrite A5, A6 in Hc. cbn [length] in Hc.
-    cbn [fold_left Core.lstep]. rewrite Nat.eqb_refl.
-    assert (Hnz : Nat.eqb (lcnt_ L - k) 0 = false) by (apply Nat.eqb_neq; lia). rewrite Hnz.
-    constructor; at_c; cbn [Core.lcnt Core.lcopy].
-    + discriminate.
-    + intros i' E; injection E as <-. rewrite A5, A6. cbn [length]. lia.
-    + intros i' E _; injection E as <-. repeat split; assumption.
-    + intros i' E Hz. lia.
-    + intros i' E; injection E as <-. apply L5, Ec.
-  - (* QUnsub: more than there are *)
-    cbn [fold_left Core.lstep]. apply (lg_same c s _ L HL); at_c; reflexivity.
-  - (* QUnsub: no subscription *)
-    cbn [fold_left Core.lstep]. apply (lg_same c s _ L HL); at_c; reflexivity.
-  - (* QAccess: disposed meanwhile *)
-    cbn [fold_left]. apply (lg_same c s _ L HL); at_c; reflexivity.
-  - (* QAccess: granted, loaded *)
-    destruct (W4 c (QAccess i)) as [Hi Ho]; [rewrite Eq; left; reflexivity|]. unfold Core.is_gone in Eg. unfold Core.is_live in El.
-    assert (Ec : cur (conns s c) = Some i) by (rewrite <- Ho; apply W2; assumption).
-    pose proof (L2 i Ec) as Hc.
-    destruct (acb (insts s i)) as [|id0 r] eqn:Eacb.
-    + unfold Core.respond_ids, Core.respond_acts. cbn [fold_left].
-      constructor; at_c; rewrite Ec.
-      * discriminate.
-      * intros i' E; injection E as <-. inst_self. cbn [length] in *. lia.
-      * intros i' E Hp; injection E as <-. inst_self. destruct (L3 i Ec Hp) as (A1&A2&A3&A4&A5&A6&A7). repeat split; assumption.
-      * intros i' E; injection E as <-. apply L4, Ec.
-      * intros i' E; injection E as <-. inst_self. apply L5, Ec.
-    + destruct (ssent (csubs (cv s) i)) eqn:Es.
-      * exfalso. assert (Hp : 0 < lcnt_ L). { destruct (Nat.eq_dec (lcnt_ L) 0) as [E0|E0]; [|lia]. rewrite (L4 i Ec E0) in Es. discriminate. }
-        destruct (L3 i Ec Hp) as (_&_&_&_&A&_). rewrite Eacb in A. discriminate.
-      * assert (Hz : lcnt_ L = 0). { destruct (Nat.eq_dec (lcnt_ L) 0) as [E0|E0]; [exact E0|]. destruct (L3 i Ec) as (A&_); [lia|congruence]. }
-        destruct (respond_sub (cv s) i El Es) as (R1&R2&R3&R4&R5). cbn zeta in *.
-        unfold Core.respond_ids, Core.respond_acts. rewrite Es. rewrite fold_left_app. cbn [fold_left Core.lstep]. rewrite Nat.eqb_refl.
-        rewrite fold_replay_o, fold_resp_none. cbn [Core.lcnt Core.lcopy length] in *.
-        constructor; at_c; rewrite Ec; cbn [Core.lcnt Core.lcopy].
-        -- discriminate.
-        -- intros i' E; injection E as <-. inst_self. cbn [length]. lia.
-        -- intros i' E _; injection E as <-. inst_self. rewrite R1, R2, R3, R5. repeat split; auto.
-           destruct (rcb (insts s i)) eqn:Er; [reflexivity|]. rewrite L5 in El; [discriminate|exact Ec|rewrite Er; discriminate].
-        -- intros i' E Hz'. lia.
-        -- intros i' E; injection E as <-. inst_self. intros Hr. rewrite L5 in El; [discriminate|exact Ec|exact Hr].
-  - (* QAccess: granted, not loaded yet *)
-    destruct (W4 c (QAccess i)) as [Hi Ho]; [rewrite Eq; left; reflexivity|]. unfold Core.is_gone in Eg. unfold Core.is_live in El.
-    assert (Ec : cur (conns s c) = Some i) by (rewrite <- Ho; apply W2; assumption).
-    pose proof (L2 i Ec) as Hc. cbn [fold_left].
-    constructor; at_c; rewrite Ec.
-    + discriminate.
-    + intros i' E; injection E as <-. inst_self. rewrite app_length. cbn [length]. lia.
-    + intros i' E Hp; injection E as <-. destruct (L3 i Ec Hp) as (_&A&_). congruence.
-    + intros i' E; injection E as <-. apply L4, Ec.
-    + intros i' E _; injection E as <-. exact El.
-  - (* QAccess: denied *)
-    destruct (W4 c (QAccess i)) as [Hi Ho]; [rewrite Eq; left; reflexivity|]. unfold Core.is_gone in Eg.
-    assert (Ec : cur (conns s c) = Some i) by (rewrite <- Ho; apply W2; assumption).
-    pose proof (L2 i Ec) as Hc. rewrite fold_err.
-    destruct (Nat.eqb_spec (direct (conns s c) - length (acb (insts s i))) 0) as [Ez|Ez].
-    + constructor; at_c; try discriminate. intros _. lia.
-    + cbn [fold_left]. constructor; at_c; rewrite Ec.
-      * discriminate.
-      * intros i' E; injection E as <-. inst_self. cbn [length]. lia.
-      * intros i' E Hp; injection E as <-. exfalso. destruct (L3 i Ec Hp) as (_&_&_&_&_&_&A). apply W7 in A. congruence.
-      * intros i' E; injection E as <-. apply L4, Ec.
-      * intros i' E; injection E as <-. inst_self. apply L5, Ec.
-  - (* QAccess: no answer *)
-    cbn [fold_left]. apply (lg_same c s _ L HL); at_c; reflexivity.
-  - (* QSub *)
-    destruct (W4 c (QSub i)) as [Hi Ho]; [rewrite Eq; left; reflexivity|]. unfold Core.is_live.
-    assert (NB : forall l : bool, negb l && l = false) by (intros []; reflexivity).
-    destruct (scq (csubs (cv s) i)) as [|[|e] q'] eqn:Ecq.
-    + (* nothing queued for it *)
-      rewrite (runc_nil (cv s) i Ecq), NB. cbn [List.app fold_left]. rewrite (runc_nil (cv s) i Ecq).
-      apply (lg_same c s _ L HL); at_c; reflexivity.
-    + (* Loaded *)
-      pose proof (loaded_head (cv s) i q' Hinv Ecq) as Hl0. rewrite Hl0. cbn [negb andb].
-      destruct (sgone (csubs (cv s) i)) eqn:Eg.
-      * rewrite (runc_loaded_gone (cv s) i q' Ecq Eg). cbn [List.app fold_left].
-        apply (lg_transfer c s _ L HL); at_c; [reflexivity|reflexivity|]. intros i0 Hc0.
-        assert (Hne : i0 <> i) by (intros ->; destruct (W1 c i Hc0) as (_&_&G); congruence).
-        rewrite subs_other by (cbn [tgt]; congruence || discriminate). repeat split.
-      * destruct (runc_loaded_fields (cv s) i q' Ecq Eg) as (F1&F2&F3&F4). cbn zeta in *. rewrite F1.
-        assert (Ec : cur (conns s c) = Some i) by (rewrite <- Ho; apply W2; assumption).
-        pose proof (L2 i Ec) as Hc.
-        assert (Hz : lcnt_ L = 0). { destruct (Nat.eq_dec (lcnt_ L) 0) as [E0|E0]; [exact E0|]. destruct (L3 i Ec) as (_&A&_); [lia|congruence]. }
-        destruct (rcb (insts s i)) as [|id0 r] eqn:Er.
-        -- unfold Core.respond_ids, Core.respond_acts. cbn [List.app fold_left].
-           constructor; at_c; rewrite Ec.
-           ++ discriminate.
-           ++ intros i' E; injection E as <-. inst_self. cbn [length] in *. lia.
-           ++ intros i' E Hp. lia.
-           ++ intros i' E _; injection E as <-. exact F2.
-           ++ intros i' E; injection E as <-. inst_self. congruence.
-        -- destruct (respond_sub _ i F1 F2) as (R1&R2&R3&R4&R5). cbn zeta in *.
-           unfold Core.respond_ids, Core.respond_acts. rewrite F2. cbn [List.app fold_left Core.lstep]. rewrite Nat.eqb_refl.
-           rewrite fold_left_app, fold_replay_o, fold_resp_none. cbn [Core.lcnt Core.lcopy length] in *.
-           destruct (HI i) as [I1 I2]. assert (Ha : acc (insts s i) = Some true) by (apply I2; rewrite Er; discriminate).
-           constructor; at_c; rewrite Ec; cbn [Core.lcnt Core.lcopy].
-           ++ discriminate.
-           ++ intros i' E; injection E as <-. inst_self. cbn [length]. lia.
-           ++ intros i' E _; injection E as <-. inst_self. rewrite R1, R2, R3, R5. repeat split; auto.
-           ++ intros i' E Hz'. lia.
-           ++ intros i' E; injection E as <-. inst_self. congruence.
-    + (* Event *)
-      destruct (runc_event_fields (cv s) i e q' Ecq) as (F1&F2&F3&F4). cbn zeta in *. rewrite F1, NB, app_nil_r. cbn [fold_left].
-      destruct (sloaded (csubs (cv s) i) && negb (sflag (csubs (cv s) i))) eqn:Ef.
-      * destruct (F3 eq_refl) as [F5 F6]. apply andb_prop in Ef. destruct Ef as [El Efl].
-        assert (Eg : sgone (csubs (cv s) i) = false).
-        { destruct (sgone (csubs (cv s) i)) eqn:Eg; [|reflexivity]. rewrite (Conv.igl _ _ _ _ Hinv i Eg) in El. discriminate. }
-        assert (Ec : cur (conns s c) = Some i) by (rewrite <- Ho; apply W2; assumption).
-        pose proof (L2 i Ec) as Hc.
-        pose proof (proc_o_lcnt c (ssver (csubs (cv s) i), ssval (csubs (cv s) i)) e L) as Hcnt.
-        constructor; at_c; rewrite Ec, ?Hcnt.
-        -- discriminate.
-        -- intros i' E; injection E as <-. exact Hc.
-        -- intros i' E Hp; injection E as <-. destruct (L3 i Ec Hp) as (A1&A2&A3&A4&A5&A6&A7).
-           rewrite F1, F2, F5, F6. repeat split; auto.
-           rewrite (ledger_eta L), A4, proc_o_ledger. reflexivity.
-        -- intros i' E Hz; injection E as <-. rewrite F2. apply L4; assumption.
-        -- intros i' E Hr; injection E as <-. rewrite (L5 i Ec Hr) in El. discriminate.
-      * destruct (F4 eq_refl) as [F5 F6]. cbn [fold_left].
-        apply (lg_transfer c s _ L HL); at_c; [reflexivity|reflexivity|]. intros i0 Hc0.
-        destruct (Nat.eq_dec i0 i) as [->|Hne]; [rewrite F1, F2, F5, F6; repeat split|].
-        rewrite subs_other by (cbn [tgt]; congruence || discriminate). repeat split.
-  - (* QDispose *)
-    exfalso. specialize (W4 c QDispose). cbn [okitem] in W4. rewrite W4 in Hd; [discriminate|rewrite Eq; left; reflexivity].
+  intros H. unfold body_req. cbv zeta. destruct (acc (insts s i)) as [[|]|].
+  - apply jv_ready, H.
+  - apply jv_remove, jv_emit; [reflexivity|exact H].
+  - apply jv_load, H.
+Qed.
+Lemma jv_body_unsub s c x id cnt q i L : JV c i L (K0 s (Core.with_q x q) (insts s i)) -> JV c i L (body_unsub s c x id cnt q i).
+Proof.
+  intros H. unfold body_unsub. cbv zeta. destruct (Nat.eqb cnt 0); [apply jv_emit; [reflexivity|exact H]|].
+  destruct (Nat.leb cnt (direct x)); [|apply jv_emit; [reflexivity|exact H]].
+  apply jv_remove.
+  assert (H1 : JV c i L (emit (K0 s (Core.with_q x q) (insts s i)) [OAck c id cnt])).
+  { destruct H as [Hi HJ]. split; [exact Hi|]. intros _. specialize (HJ ltac:(intros pre id' post E; destruct pre; discriminate E)).
+    intros Hc. rewrite Lk_emit. unfold Lk in *. cbn [Core.to Core.emit Core.tx fold_left Core.lstep] in *. rewrite Nat.eqb_refl. cbn [Core.lcnt Core.lcopy].
+    intros Hp. unfold JVB, Lk in HJ. cbn [Core.to Core.tx fold_left] in HJ. destruct (HJ Hc) as (A&B&C); [lia|]. repeat split; auto.
+    destruct (Nat.eqb_spec (lcnt_ L - cnt) 0); [lia|exact C]. }
+  destruct (Nat.eqb (direct x - cnt) 0); exact H1.
+Qed.
+Lemma jv_body_access s c x q i L : JV c i L (K0 s (Core.with_q x q) (insts s i)) -> JV c i L (body_access s c x q i).
+Proof.
+  intros H. unfold body_access. cbv zeta. destruct (ans (insts s i)) as [g|]; [|exact H]. apply jv_run_cbs. exact H.
+Qed.
+Lemma jv_body_sub s c x q i L : sgone (csubs (cv s) i) = false ->
+  JV c i L (K0 s (Core.with_q x q) (insts s i)) -> JV c i L (body_sub s c x q i).
+Proof.
+  intros G H. pose proof H as [Hi HJ]. cbn [Core.ts] in Hi.
+  specialize (HJ ltac:(intros pre id' post E; destruct pre; discriminate E)).
+  unfold JVB, Lk, Core.sent_, Core.loaded_, Core.me in HJ. cbn [Core.tx Core.ts Core.to fold_left] in HJ.
+  unfold body_sub. cbv zeta. destruct (scq (csubs (cv s) i)) as [|[|e|] q'] eqn:Ecq.
+  - split; [cbn [Core.act Core.ts]; apply cstep_inv, Hi|]. intros _. unfold JVB, Lk, Core.sent_, Core.loaded_, Core.me.
+    cbn [Core.act Core.tx Core.ts Core.to fold_left]. rewrite (runc_nil _ _ Ecq). exact HJ.
+  - rewrite G. apply jv_respond.
+    + unfold Core.loaded_, Core.me. cbn [Core.act Core.sety Core.ts]. destruct (runc_loaded_fields _ _ _ Ecq G) as (F1&_). exact F1.
+    + split; [cbn [Core.act Core.sety Core.ts]; apply cstep_inv, Hi|]. intros _. unfold JVB, Lk, Core.sent_, Core.loaded_, Core.me.
+      cbn [Core.act Core.sety Core.tx Core.ts Core.to fold_left]. intros Hc Hp. destruct (HJ Hc Hp) as (_&B&_).
+      rewrite (loaded_head _ _ _ Hi Ecq) in B. discriminate.
+  - split; [cbn [Core.emit Core.act Core.ts]; apply cstep_inv, Hi|]. intros _. unfold JVB, Core.sent_, Core.loaded_, Core.me.
+    rewrite Lk_emit, Lk_act. unfold Lk. cbn [Core.emit Core.act Core.tx Core.ts Core.to]. change (fold_left (lstep c) [] L) with L.
+    destruct (runc_event_fields _ _ _ _ Ecq) as (F1&F2&F3&F4). cbn zeta in *. rewrite F1, F2.
+    destruct (sloaded (csubs (cv s) i) && negb (sflag (csubs (cv s) i))) eqn:Ef.
+    + destruct (F3 eq_refl) as [_ F6]. rewrite F6. intros Hc. rewrite proc_o_lcnt. intros Hp. destruct (HJ Hc Hp) as (A&B&C).
+      repeat split; auto. rewrite (ledger_eta L), C, proc_o_ledger. reflexivity.
+    + destruct (F4 eq_refl) as [_ F6]. rewrite F6. exact HJ.
+  - apply jv_reacc. split; [cbn [Core.act Core.ts]; apply cstep_inv, Hi|]. intros _. unfold JVB, Lk, Core.sent_, Core.loaded_, Core.me.
+    cbn [Core.act Core.tx Core.ts Core.to fold_left]. destruct (runc_reacc_fields _ _ _ Ecq) as (F1&F2&_&F4&_). cbn zeta in *.
+    rewrite F1, F2, F4. exact HJ.
 Qed.
 
-(* ---------------- every item of a subscription's queue has its task on the owner's connection queue ---------------- *)
+(* ---- along an execution ---- *)
+Definition LGV (c : nat) (s : st_) (L : ledger_) : Prop :=
+  forall i, cur (conns s c) = Some i -> 0 < lcnt_ L ->
+    ssent (csubs (cv s) i) = true /\ sloaded (csubs (cv s) i) = true /\ lcopy_ L = Some (ssval (csubs (cv s) i)).
+
+Lemma lgv_transfer c s s' L : LGV c s L -> cur (conns s' c) = cur (conns s c) ->
+  (forall i, cur (conns s c) = Some i ->
+     ssent (csubs (cv s') i) = ssent (csubs (cv s) i) /\ sloaded (csubs (cv s') i) = sloaded (csubs (cv s) i) /\
+     ssval (csubs (cv s') i) = ssval (csubs (cv s) i)) ->
+  LGV c s' L.
+Proof. intros H Ec Hi i Hc Hp. rewrite Ec in Hc. destruct (Hi i Hc) as (A&B&C). rewrite A, B, C. apply H; assumption. Qed.
+
+Lemma jv_start c s x' i L : CInv (cv s) -> LGV c s L -> cur (conns s c) = Some i -> JV c i L (K0 s x' (insts s i)).
+Proof. intros Hi H Ec. split; [exact Hi|]. intros _ _ Hp. exact (H i Ec Hp). Qed.
+
+Lemma lgv_task c s i k L ins nx ms gq : SH i k -> JV c i L k -> NB c L (to k) ->
+  LGV c {| Core.cv := ts k; Core.conns := Core.set_conn (conns s) c (tx k); Core.insts := ins;
+           Core.next := nx; Core.mqsub := ms; Core.getreq := gq |} (fold_left (lstep c) (to k) L).
+Proof.
+  intros Hsh [_ HJ] HNB i' Hc Hp. cbn [Core.conns Core.cv] in *. unfold Core.set_conn in Hc. rewrite Nat.eqb_refl in Hc.
+  destruct Hsh as [(G&C&D)|(G&C&D)]; [|congruence]. rewrite C in Hc. injection Hc as <-. exact (HJ HNB C Hp).
+Qed.
+
+Lemma lgv_step_conn c s L : CInv (cv s) -> WF s -> LGV c s L -> (cur (conns s c) = None -> lcnt_ L = 0) ->
+  disc (conns s c) = false -> NB c L (snd (step s (Core.GrantConn upd c))) ->
+  LGV c (fst (step s (Core.GrantConn upd c))) (fold_left (lstep c) (snd (step s (Core.GrantConn upd c))) L).
+Proof.
+  intros Hinv Hw HL HN Hd. pose proof Hw as [W1 W2 W3 W4 W5 W6 W7].
+  destruct (cqueue (conns s c)) as [|it0 q0] eqn:Eq0; [rewrite step_conn_empty by exact Eq0; intros _; exact HL|].
+  rewrite step_conn by (rewrite Eq0; discriminate).
+  pose proof (task_shape s c) as Hsh. cbv zeta in Hsh. revert Hsh.
+  destruct (ct_spec s c) as [Eq|id q Eq Ec|id q i Eq Ec|id cnt q i Eq Ec|id cnt q Eq Ec|t q i Eq Ec|t q Eq Ec|i q Eq Eg|i q Eq Eg|i q Eq|q Eq];
+    cbn [fst snd]; intros (_&_&_&Hc) HNB.
+  - congruence.
+  - (* new instance: the client holds nothing *)
+    destruct Hc as [(X&_)|[(_&_&_&_&_&_&A6&_)|((q'&X)&_)]]; [exfalso; lia| |exfalso; congruence].
+    intros i' _ Hp. exfalso. rewrite A6 in Hp.
+    assert (E : fold_left (lstep c) ((if mqsub s then [] else [OMqSub]) ++ [OAccessReq c (next s) (tok (conns s c))]) L = L) by (destruct (mqsub s); reflexivity).
+    rewrite E, (HN Ec) in Hp. lia.
+  - destruct (W1 c i Ec) as (Hi&Ho&Hg&Hdir). apply (lgv_task c s i); [apply sh_body_req, Hg| |exact HNB].
+    apply jv_body_req, (jv_start c s _ i L); assumption.
+  - destruct (W1 c i Ec) as (Hi&Ho&Hg&Hdir). apply (lgv_task c s i); [apply sh_body_unsub; assumption| |exact HNB].
+    apply jv_body_unsub, (jv_start c s _ i L); assumption.
+  - cbn [Core.emit Core.to Core.tx Core.ts List.app fold_left Core.lstep].
+    apply (lgv_transfer c s _ L HL); cbn [Core.conns Core.cv]; auto. unfold Core.set_conn; rewrite Nat.eqb_refl; reflexivity.
+  - destruct (W1 c i Ec) as (Hi&Ho&Hg&Hdir).
+    assert (H0 : SH i (K0 s (xtok (conns s c) q t) (insts s i))) by (left; repeat split; assumption).
+    assert (HJ : JV c i L (K0 s (xtok (conns s c) q t) (insts s i))) by (apply (jv_start c s _ i L); assumption).
+    apply (lgv_task c s i); [| |exact HNB].
+    + destruct (tokset (conns s c)); [|exact H0]. eapply sh_mild; [apply x_reacc, ext_refl|exact H0].
+    + destruct (tokset (conns s c)); [|exact HJ]. apply jv_reacc, HJ.
+  - cbn [Core.to Core.tx Core.ts fold_left].
+    apply (lgv_transfer c s _ L HL); cbn [Core.conns Core.cv]; auto. unfold Core.set_conn; rewrite Nat.eqb_refl; reflexivity.
+  - cbn [Core.to Core.tx Core.ts Core.ty fold_left].
+    apply (lgv_transfer c s _ L HL); cbn [Core.conns Core.cv]; auto. unfold Core.set_conn; rewrite Nat.eqb_refl; reflexivity.
+  - destruct (W4 c (QAccess i)) as [Hi Ho]; [rewrite Eq; left; reflexivity|].
+    assert (Ec : cur (conns s c) = Some i) by (rewrite <- Ho; apply W2; assumption).
+    destruct (W1 c i Ec) as (_&_&_&Hdir).
+    apply (lgv_task c s i); [apply sh_body_access; assumption| |exact HNB]. apply jv_body_access, (jv_start c s _ i L); assumption.
+  - destruct (W4 c (QSub i)) as [Hi Ho]; [rewrite Eq; left; reflexivity|].
+    destruct (sgone (csubs (cv s) i)) eqn:Eg.
+    + destruct (body_sub_gone s c (conns s c) q i Hinv Eg) as (T1&T2&T3&T4&T5). cbv zeta in *. rewrite T1, T3, T5. cbn [fold_left].
+      apply (lgv_transfer c s _ L HL); cbn [Core.conns Core.cv]; [unfold Core.set_conn; rewrite Nat.eqb_refl; reflexivity|].
+      intros i' Hc'. assert (Hne : i' <> i) by (intros ->; destruct (W1 c i Hc') as (_&_&G&_); congruence).
+      rewrite subs_other by (cbn [tgt]; congruence || discriminate). repeat split.
+    + assert (Ec : cur (conns s c) = Some i) by (rewrite <- Ho; apply W2; assumption).
+      destruct (W1 c i Ec) as (_&_&_&Hdir).
+      apply (lgv_task c s i); [apply sh_body_sub; assumption| |exact HNB]. apply jv_body_sub; [exact Eg|]. apply (jv_start c s _ i L); assumption.
+  - exfalso. specialize (W4 c QDispose). cbn [okitem] in W4. rewrite W4 in Hd; [discriminate|rewrite Eq; left; reflexivity].
+Qed.
+
+(* service events and the cache worker leave these fields of every subscription alone *)
+Lemma svc_steps acts : Forall (fun a => tgt a = None) acts -> forall σ j,
+  ssent (csubs (fold_left cstep acts σ) j) = ssent (csubs σ j) /\ sloaded (csubs (fold_left cstep acts σ) j) = sloaded (csubs σ j) /\
+  sflag (csubs (fold_left cstep acts σ) j) = sflag (csubs σ j) /\ ssval (csubs (fold_left cstep acts σ) j) = ssval (csubs σ j).
+Proof.
+  induction 1 as [|a acts Ha _ IH]; intros σ j; cbn [fold_left]; [auto|].
+  destruct (IH (cstep σ a) j) as (A&B&C&D). rewrite A, B, C, D.
+  assert (Hr : a = Conv.RunE upd \/ a <> Conv.RunE upd) by (destruct a; auto; right; discriminate).
+  destruct Hr as [->|Hr].
+  - destruct (rune_fields σ j) as (_&B'&_&D'&E'&_&G'&_). auto.
+  - rewrite subs_other; [auto|congruence|exact Hr].
+Qed.
+Lemma nonconn_acts s o : (forall c0, o <> Core.GrantConn upd c0) -> Forall (fun a => tgt a = None) (acts_of s o).
+Proof.
+  intros Ho. destruct o as [c id|c id k|c|c t|i g| |u| | | |c]; cbn [Core.acts_of]; try (repeat constructor; fail).
+  - destruct (_ && _); repeat constructor.
+  - destruct (_ && _); repeat constructor.
+  - destruct (mqsub s); repeat constructor.
+  - destruct (mqsub s); repeat constructor.
+  - destruct (mqsub s); repeat constructor.
+  - exfalso. eapply Ho; reflexivity.
+Qed.
+Lemma nonconn_cur s o cl : (forall c0, o <> Core.GrantConn upd c0) ->
+  cur (conns (fst (step s o)) cl) = cur (conns s cl) /\ direct (conns (fst (step s o)) cl) = direct (conns s cl) /\
+  (forall L, fold_left (lstep cl) (snd (step s o)) L = L).
+Proof.
+  intros Ho. destruct o as [c id|c id k|c|c t|i g| |u| | | |c]; unfold Core.step; try (exfalso; eapply Ho; reflexivity);
+    try (repeat split; fail).
+  - destruct (disc (conns s c)); [repeat split|]. cbn [fst snd Core.conns]. conn_at cl c; repeat split.
+  - destruct (disc (conns s c)); [repeat split|]. cbn [fst snd Core.conns]. conn_at cl c; repeat split.
+  - destruct (disc (conns s c)); [repeat split|]. cbn [fst snd Core.conns]. conn_at cl c; repeat split.
+  - destruct (Core.is_done (conns s c)); [repeat split|]. cbn [fst snd Core.conns]. conn_at cl c; repeat split.
+  - destruct (_ && _); repeat split.
+  - cbn [fst snd Core.conns].
+    match goal with |- cur (Core.pass _ _ ?σ ?own (Core.fan _ _ _ ?σ' _ ?n ?f) _) = _ /\ _ => destruct (grant_conns σ σ' own n f cl) as (_&B1&B2&_) end.
+    repeat split; auto. intros L; destruct (_ && _); reflexivity.
+Qed.
+
+Lemma lgv_step_nonconn cl s o L : (forall c0, o <> Core.GrantConn upd c0) -> LGV cl s L ->
+  LGV cl (fst (step s o)) (fold_left (lstep cl) (snd (step s o)) L).
+Proof.
+  intros Ho HL. destruct (nonconn_cur s o cl Ho) as (A&_&C). rewrite C.
+  apply (lgv_transfer cl s _ L HL A). intros i _. rewrite step_cv.
+  destruct (svc_steps (acts_of s o) (nonconn_acts s o Ho) (cv s) i) as (S1&S2&_&S4). auto.
+Qed.
+Lemma lgv_step_otherconn cl c0 s L : WF s -> cl <> c0 -> LGV cl s L ->
+  LGV cl (fst (step s (Core.GrantConn upd c0))) (fold_left (lstep cl) (snd (step s (Core.GrantConn upd c0))) L).
+Proof.
+  intros Hw Hne HL. rewrite (fold_other cl c0 _ Hne (outs_addr s c0)).
+  apply (lgv_transfer cl s _ L HL).
+  - rewrite conns_other by exact Hne. reflexivity.
+  - intros i Hc. destruct (w_cur _ Hw cl i Hc) as (Hi & Ho & _). rewrite subs_other_conn by (auto; congruence). auto.
+Qed.
+
+Lemma nbr_prefix c outs o : no_bare_resp c (outs ++ o) -> no_bare_resp c outs.
+Proof. intros H pre id post E. apply (H pre id (post ++ o)). rewrite E, <- app_assoc. reflexivity. Qed.
+Lemma nbr_nb c outs o : no_bare_resp c (outs ++ o) -> NB c (client c outs) o.
+Proof.
+  intros H pre id post E. rewrite <- client_app. apply (H (outs ++ pre) id post). rewrite E, <- app_assoc. reflexivity.
+Qed.
+
+Lemma lgv_exec t ops c :
+  let s := fst (exec t ops) in let outs := snd (exec t ops) in
+  disc (conns s c) = false -> no_underflow c outs -> no_bare_resp c outs -> LGV c s (client c outs).
+Proof.
+  cbv zeta. intros Hd Hnu Hnb. pose proof (conj Hd (conj Hnu Hnb)) as H. clear Hd Hnu Hnb. revert H.
+  pattern (fst (exec t ops)), (snd (exec t ops)). revert ops.
+  assert (X : forall ops, (fun s outs => disc (conns s c) = false /\ no_underflow c outs /\ no_bare_resp c outs -> LGV c s (client c outs))
+                 (fst (exec t ops)) (snd (exec t ops))); [|exact X].
+  intros ops. induction ops as [|o ops IH] using rev_ind.
+  - intros _ i Hc. cbn in Hc. discriminate.
+  - rewrite exec_snoc. pose proof (wf_exec t ops) as Hw. pose proof (core_conv_inv t ops) as Hinv.
+    pose proof (lgc_exec true t ops c) as Hcnt. cbv zeta in Hcnt.
+    destruct (exec t ops) as [s outs]. unfold Core.exec1. cbn [fst snd] in *.
+    destruct (step s o) as [s' o'] eqn:Est. cbn [fst snd]. intros (Hd&Hnu&Hnb).
+    assert (Es' : s' = fst (step s o)) by (rewrite Est; reflexivity). assert (Eo' : o' = snd (step s o)) by (rewrite Est; reflexivity).
+    assert (Hd0 : disc (conns s c) = false).
+    { destruct (disc (conns s c)) eqn:E; [|reflexivity]. rewrite Es', (disc_mono s o c E) in Hd. discriminate. }
+    specialize (IH (conj Hd0 (conj (nu_prefix _ _ _ Hnu) (nbr_prefix _ _ _ Hnb)))). rewrite client_app. subst s' o'.
+    assert (Ho : (exists c0, o = Core.GrantConn upd c0) \/ forall c0, o <> Core.GrantConn upd c0).
+    { destruct o; try (right; intros; discriminate). left; eexists; reflexivity. }
+    destruct Ho as [[c0 ->]|Ho]; [|apply lgv_step_nonconn; assumption].
+    destruct (Nat.eq_dec c c0) as [<-|Hne]; [|apply lgv_step_otherconn; assumption].
+    destruct (Hcnt Hd0 (fun _ => nu_prefix _ _ _ Hnu)) as [_ L2].
+    apply lgv_step_conn; auto. apply nbr_nb, Hnb.
+Qed.
+
+(* The statement of CoreStatements.v,
+     forall t ops c, let s := fst (exec t ops) in let outs := snd (exec t ops) in
+       Core.disc (conns s c) = false -> no_underflow c outs -> 0 < Core.lcnt val (client c outs) ->
+       exists i, Core.cur (conns s c) = Some i /\ Conv.sent val upd (csubs (cv s) i) = true /\
+                 Core.lcopy val (client c outs) = Some (Conv.sval val upd (csubs (cv s) i)),
+   is false of this model (see core_client_copy_without_premise_refuted below); it holds with the extra premise [no_bare_resp]. *)
+Theorem core_client_copy : forall t ops c,
+  let s := fst (exec t ops) in let outs := snd (exec t ops) in
+  Core.disc (conns s c) = false -> no_underflow c outs -> no_bare_resp c outs -> 0 < Core.lcnt val (client c outs) ->
+  exists i, Core.cur (conns s c) = Some i /\ Conv.sent val upd (csubs (cv s) i) = true /\
+            Core.lcopy val (client c outs) = Some (Conv.sval val upd (csubs (cv s) i)).
+Proof.
+  intros t ops c. cbv zeta. intros Hd Hnu Hnb Hp. destruct (lgc_exec true t ops c Hd (fun _ => Hnu)) as [_ L2].
+  pose proof (lgv_exec t ops c Hd Hnu Hnb) as HV. cbv zeta in HV.
+  destruct (cur (conns (fst (exec t ops)) c)) as [i|] eqn:Ec; [|rewrite (L2 eq_refl eq_refl) in Hp; lia].
+  exists i. destruct (HV i Ec Hp) as (A&_&C). auto.
+Qed.
+
+(* ================= C: held events and the re-validation that holds them ================= *)
+Section Reval.
+Variables (c i : nat).
+(* [l]: the continuations of the access answer being handled that have not run yet *)
+Definition RQk (l : list acbk) (k : tk_) : Prop :=
+  (acb (ty k) <> [] -> inflight (ty k) = true) /\
+  (gone_ i k = false ->
+     (sent_ i k = true -> flag_ i k = true -> rq (ty k) = true) /\
+     (rq (ty k) = true -> In AVal (acb (ty k) ++ l)) /\
+     (sent_ i k = true -> loaded_ i k = true)).
+
+Lemma rq_load l k b : RQk l k -> RQk l (load_access c i k b).
+Proof.
+  intros [H1 H2]. unfold Core.load_access. cbv zeta. destruct (inflight (ty k)) eqn:Ei.
+  - split; [intros _; reflexivity|]. intros G. destruct (H2 G) as (A&B&C). repeat split; auto.
+    cbn [Core.sety Core.ty Core.upd_y rq acb]. intros Hr. specialize (B Hr). rewrite <- app_assoc. apply in_app_or in B.
+    apply in_or_app. destruct B as [B|B]; [left; exact B|right; apply in_or_app; right; exact B].
+  - split; [intros _; reflexivity|]. intros G. destruct (H2 G) as (A&B&C). repeat split; auto.
+    cbn [Core.emit Core.sety Core.ty Core.upd_y rq acb]. intros Hr. specialize (B Hr). rewrite <- app_assoc. apply in_app_or in B.
+    apply in_or_app. destruct B as [B|B]; [left; exact B|right; apply in_or_app; right; exact B].
+Qed.
+(* what handle_reaccess needs: it sets the reason itself *)
+Definition RQw (k : tk_) : Prop :=
+  (acb (ty k) <> [] -> inflight (ty k) = true) /\ (gone_ i k = false -> sent_ i k = true -> loaded_ i k = true).
+Lemma rqk_w l k : RQk l k -> RQw k.
+Proof. intros [H1 H2]. split; [exact H1|]. intros G. apply H2, G. Qed.
+Lemma rq_hreacc l k : SH i k -> RQw k -> RQk l (handle_reaccess c i k).
+Proof.
+  intros Hsh [H1 H2]. unfold Core.handle_reaccess. cbv zeta. cbn [Core.sety Core.tx].
+  destruct (Nat.eqb_spec (direct (tx k)) 0) as [E0|E0].
+  - split; [exact H1|]. intros G. destruct Hsh as [(G'&C&D)|(G'&C&D)]; [lia|]. change (gone_ i k = false) in G. congruence.
+  - unfold Core.load_access. cbv zeta. cbn [Core.act Core.sety Core.ty Core.upd_y inflight].
+    assert (X : forall K : tk_, ts K = cstep (ts k) (Conv.StartQueue upd i) -> acb (ty K) = acb (ty k) ++ [AVal] -> rq (ty K) = true ->
+                inflight (ty K) = true -> RQk l K).
+    { intros K Et Ea Er Ei. split; [intros _; exact Ei|]. intros G. unfold Core.gone_, Core.sent_, Core.loaded_, Core.flag_, Core.me in *. rewrite Et in *.
+      rewrite gone_step in G. destruct (startq_sub (ts k) i) as (S1&S2&_). cbn zeta in *. rewrite S1, S2.
+      repeat split; auto. intros _. rewrite Ea, <- app_assoc. apply in_or_app. right. left. reflexivity. }
+    destruct (inflight (ty k)) eqn:Ei; apply X; reflexivity || assumption.
+Qed.
+Lemma rq_reacc l k : SH i k -> RQk l k -> RQk l (reaccess c i k).
+Proof.
+  intros Hsh H. unfold Core.reaccess. destruct (gone_ i k); [exact H|]. destruct (flag_ i k); [exact H|].
+  apply rq_hreacc; [exact Hsh|eapply rqk_w, H].
+Qed.
+Lemma rq_respond l k ids : SH i k -> loaded_ i k = true -> RQk l k -> RQk l (respond c i k ids).
+Proof.
+  intros Hsh Hl H. unfold Core.respond. destruct ids as [|id r]; [exact H|]. cbv zeta.
+  match goal with |- RQk l (emit ?K _) => change (RQk l K) end.
+  destruct (sent_ i k) eqn:Es; [exact H|]. cbn [Core.emit Core.ty].
+  unfold Core.sent_, Core.loaded_, Core.me in Es, Hl.
+  destruct (reflag (ty k)).
+  - apply rq_hreacc.
+    + eapply sh_mild; [|exact Hsh]. apply x_act; [apply x_emit; [apply ext_refl|repeat constructor]|cbn; auto].
+    + destruct H as [H1 H2]. split; [exact H1|]. intros G _. unfold Core.loaded_, Core.me.
+      cbn [Core.act Core.emit Core.ts]. destruct (respond_none_sub (ts k) i Hl Es) as (_&R2&_). exact R2.
+  - destruct H as [H1 H2]. split; [exact H1|]. intros G. unfold Core.gone_, Core.sent_, Core.loaded_, Core.flag_, Core.me in *.
+    cbn [Core.act Core.emit Core.ts Core.ty] in *. rewrite gone_step in G. destruct (H2 G) as (A&B&C).
+    destruct (respond_all_sub (ts k) i Hl Es) as (R1&R2&R3&_). cbn zeta in *. rewrite R1, R2, R3. repeat split; auto. discriminate.
+Qed.
+Lemma rq_ready l k id : SH i k -> RQk l k -> RQk l (on_ready c i k id).
+Proof.
+  intros Hsh H. unfold Core.on_ready. destruct (loaded_ i k) eqn:El; [apply rq_respond; assumption|]. cbv zeta. exact H.
+Qed.
+Lemma rq_unqueue l k : SH i k -> RQk (AVal :: l) k -> RQk l (unqueue_reaccess c i k).
+Proof.
+  intros Hsh [H1 H2]. unfold Core.unqueue_reaccess. cbv zeta.
+  match goal with |- context [if gone_ i ?K then _ else _] => change (gone_ i K) with (gone_ i k) end.
+  destruct (gone_ i k) eqn:G; [split; [exact H1|]; intros G'; change (gone_ i k = false) in G'; congruence|].
+  destruct (H2 eq_refl) as (A&B&C).
+  cbn [Core.sety Core.ty Core.upd_y reflag]. destruct (reflag (ty k)).
+  - apply rq_hreacc; [exact Hsh|]. split; [exact H1|]. intros _. exact C.
+  - split; [exact H1|]. intros G'. unfold Core.gone_, Core.sent_, Core.loaded_, Core.flag_, Core.me in *.
+    cbn [Core.emit Core.act Core.sety Core.ts Core.ty Core.upd_y rq] in *.
+    destruct (ssent (csubs (ts k) i)) eqn:Es; [destruct (sflag (csubs (ts k) i)) eqn:Ef|].
+    + destruct (unqueue_all_sub (ts k) i (C eq_refl) Es Ef) as (R1&R2&R3&_). cbn zeta in *. rewrite R1, R2, R3.
+      repeat split; auto; discriminate.
+    + rewrite unqueue_noop by (rewrite Es, Ef; destruct (sloaded _); reflexivity). rewrite Es, Ef. repeat split; auto; discriminate.
+    + rewrite unqueue_noop by (rewrite Es; destruct (sloaded _); reflexivity). rewrite Es. repeat split; auto; discriminate.
+Qed.
+Lemma rq_remove l k n : RQk l k -> RQk l (remove_direct i k n).
+Proof.
+  intros [H1 H2]. unfold Core.remove_direct. destruct (Nat.eqb (direct (tx k)) 0); [split; assumption|]. cbv zeta.
+  match goal with |- context [if ?b then _ else _] => destruct b end; [|split; assumption].
+  unfold Core.dispose_t. match goal with |- context [if ?b then _ else _] => destruct b eqn:G end; [split; assumption|]. cbv zeta.
+  split; [exact H1|]. intros G'. exfalso. unfold Core.gone_, Core.me in G'. cbn [Core.setx Core.sety Core.act Core.ts] in G'.
+  rewrite gone_step, Nat.eqb_refl in G'. discriminate.
+Qed.
+Lemma rq_unsubd l k : RQk l k -> RQk l (unsubscribe_direct c i k).
+Proof. intros H. unfold Core.unsubscribe_direct. destruct (Nat.ltb 0 (direct (tx k))); [|exact H]. exact (rq_remove l k _ H). Qed.
+Lemma rq_weaken l b k : RQk (b :: l) k -> b <> AVal -> RQk l k.
+Proof.
+  intros [H1 H2] Hb. split; [exact H1|]. intros G. destruct (H2 G) as (A&B&C). repeat split; auto.
+  intros Hr. specialize (B Hr). apply in_app_or in B. apply in_or_app. destruct B as [B|[B|B]]; [left; exact B|congruence|right; exact B].
+Qed.
+Lemma rq_run_cb g l k b : SH i k -> RQk (b :: l) k -> RQk l (run_cb c i g k b).
+Proof.
+  intros Hsh H. unfold Core.run_cb. destruct b as [id|].
+  - apply rq_weaken in H; [|discriminate]. destruct g.
+    + destruct (gone_ i k); [exact H|apply rq_ready; assumption].
+    + apply rq_remove. exact H.
+  - apply rq_unqueue.
+    + destruct g; [exact Hsh|apply sh_unsubd, Hsh].
+    + destruct g; [exact H|apply rq_unsubd, H].
+Qed.
+Lemma rq_run_cbs g l : forall k, SH i k -> RQk l k -> RQk [] (fold_left (run_cb c i g) l k).
+Proof.
+  induction l as [|b l IH]; intros k Hsh H; [exact H|]. cbn [fold_left]. apply IH; [apply sh_run_cb, Hsh|apply rq_run_cb; assumption].
+Qed.
+End Reval.
+
+Lemma remove_acb i K n : acb (ty (remove_direct i K n)) = acb (ty K) /\ inflight (ty (remove_direct i K n)) = inflight (ty K).
+Proof.
+  unfold Core.remove_direct. destruct (Nat.eqb (direct (tx K)) 0); [auto|]. cbv zeta.
+  match goal with |- context [if ?b then _ else _] => destruct b end; [|auto].
+  unfold Core.dispose_t. match goal with |- context [if ?b then _ else _] => destruct b end; auto.
+Qed.
+
+Lemma rq_k0 s x' i l : (acb (insts s i) <> [] -> inflight (insts s i) = true) ->
+  (sgone (csubs (cv s) i) = false ->
+     (ssent (csubs (cv s) i) = true -> sflag (csubs (cv s) i) = true -> rq (insts s i) = true) /\
+     (rq (insts s i) = true -> In AVal (acb (insts s i) ++ l)) /\
+     (ssent (csubs (cv s) i) = true -> sloaded (csubs (cv s) i) = true)) ->
+  RQk i l (K0 s x' (insts s i)).
+Proof. intros H1 H2. split; assumption. Qed.
+
+Lemma rq_body_req s c x id q i : sgone (csubs (cv s) i) = false ->
+  RQk i [] (K0 s (Core.with_cd (Core.with_q x q) (Some i) (S (direct x))) (insts s i)) -> RQk i [] (body_req s c x id q i).
+Proof.
+  intros G H. assert (H0 : SH i (K0 s (Core.with_cd (Core.with_q x q) (Some i) (S (direct x))) (insts s i))).
+  { left. repeat split; [exact G|cbn; lia]. }
+  unfold body_req. cbv zeta. destruct (acc (insts s i)) as [[|]|].
+  - apply rq_ready; assumption.
+  - apply rq_remove. exact H.
+  - apply rq_load, H.
+Qed.
+Lemma rq_body_unsub s c x id cnt q i : sgone (csubs (cv s) i) = false -> cur x = Some i -> 0 < direct x ->
+  RQk i [] (K0 s (Core.with_q x q) (insts s i)) -> RQk i [] (body_unsub s c x id cnt q i).
+Proof.
+  intros G C D H. assert (H0 : SH i (K0 s (Core.with_q x q) (insts s i))) by (left; repeat split; assumption).
+  unfold body_unsub. cbv zeta. destruct (Nat.eqb_spec cnt 0) as [E0|E0]; [exact H|].
+  destruct (Nat.leb_spec cnt (direct x)) as [Hle|Hgt]; [|exact H].
+  destruct (Nat.eqb_spec (direct x - cnt) 0) as [Ez|Ez]; [|apply rq_remove; exact H].
+  match goal with |- RQk i [] (remove_direct i ?K cnt) =>
+    pose proof (sh_remove i K cnt H0) as Hsh'; destruct (remove_direct_spec i K cnt) as (_&_&B); destruct (remove_acb i K cnt) as (A1&A2) end.
+  unfold SH in Hsh'. cbn [Core.sety Core.emit Core.tx Core.with_q direct] in B. rewrite B in Hsh' by (cbn [Core.sety Core.emit Core.tx Core.with_q direct]; lia).
+  destruct Hsh' as [(G'&C'&D')|(G'&C'&D')]; [lia|]. split; [rewrite A1; cbn [Core.sety Core.ty Core.upd_y acb]; intros X; contradiction|]. intros G''. congruence.
+Qed.
+Lemma rq_body_access s c x q i : sgone (csubs (cv s) i) = false -> cur x = Some i -> 0 < direct x ->
+  RQk i [] (K0 s (Core.with_q x q) (insts s i)) -> RQk i [] (body_access s c x q i).
+Proof.
+  intros G C D H. assert (H0 : SH i (K0 s (Core.with_q x q) (insts s i))) by (left; repeat split; assumption).
+  unfold body_access. cbv zeta. destruct (ans (insts s i)) as [g|]; [|exact H].
+  apply rq_run_cbs; [exact H0|]. destruct H as [H1 H2]. split; [cbn; intros X; contradiction|]. intros G'.
+  destruct (H2 G') as (A&B&Cc). cbn [Core.sety Core.ty Core.upd_y rq acb] in *. repeat split; auto.
+  intros Hr. specialize (B Hr). rewrite app_nil_r in B. exact B.
+Qed.
+Lemma rq_body_sub s c x q i : CInv (cv s) -> sgone (csubs (cv s) i) = false -> cur x = Some i -> 0 < direct x ->
+  RQk i [] (K0 s (Core.with_q x q) (insts s i)) -> RQk i [] (body_sub s c x q i).
+Proof.
+  intros Hinv G C D H. pose proof H as [H1 H2]. specialize (H2 G). destruct H2 as (A&B&P).
+  unfold Core.sent_, Core.loaded_, Core.flag_, Core.me in A, B, P. cbn [Core.ts Core.ty] in A, B, P.
+  assert (H0 : SH i (actk (K0 s (Core.with_q x q) (insts s i)) (Conv.RunC upd i))).
+  { left. rewrite gone_act. repeat split; assumption. }
+  unfold body_sub. cbv zeta. destruct (scq (csubs (cv s) i)) as [|[|e|] q'] eqn:Ecq.
+  - split; [exact H1|]. intros _. unfold Core.sent_, Core.loaded_, Core.flag_, Core.me. cbn [Core.act Core.ts Core.ty].
+    rewrite (runc_nil _ _ Ecq). auto.
+  - rewrite G. destruct (runc_loaded_fields _ _ _ Ecq G) as (F1&F2&F3&F4). cbn zeta in *. apply rq_respond.
+    + exact H0.
+    + unfold Core.loaded_, Core.me. cbn [Core.act Core.sety Core.ts]. exact F1.
+    + split; [exact H1|]. intros _. unfold Core.sent_, Core.loaded_, Core.flag_, Core.me. cbn [Core.act Core.sety Core.ts Core.ty Core.upd_y rq acb].
+      rewrite F2. repeat split; auto; discriminate.
+  - split; [exact H1|]. intros _. unfold Core.sent_, Core.loaded_, Core.flag_, Core.me. cbn [Core.emit Core.act Core.ts Core.ty].
+    destruct (runc_event_fields _ _ _ _ Ecq) as (F1&F2&F3&F4). cbn zeta in *. rewrite F1, F2.
+    destruct (sloaded (csubs (cv s) i) && negb (sflag (csubs (cv s) i))) eqn:Ef.
+    + destruct (F3 eq_refl) as [F5 _]. rewrite F5. repeat split; auto; discriminate.
+    + destruct (F4 eq_refl) as [F5 _]. rewrite F5. auto.
+  - apply rq_reacc; [exact H0|]. split; [exact H1|]. intros _. unfold Core.sent_, Core.loaded_, Core.flag_, Core.me. cbn [Core.act Core.ts Core.ty].
+    destruct (runc_reacc_fields _ _ _ Ecq) as (F1&F2&F3&_). cbn zeta in *. rewrite F1, F2, F3. auto.
+Qed.
+
+Definition IAS (s : st_) : Prop := forall i, acb (insts s i) <> [] -> inflight (insts s i) = true.
+Definition RQ1 (s : st_) (i : nat) : Prop :=
+  (ssent (csubs (cv s) i) = true -> sflag (csubs (cv s) i) = true -> rq (insts s i) = true) /\
+  (rq (insts s i) = true -> In AVal (acb (insts s i))) /\
+  (ssent (csubs (cv s) i) = true -> sloaded (csubs (cv s) i) = true).
+Definition RQS (s : st_) : Prop := forall c i, cur (conns s c) = Some i -> RQ1 s i.
+
+Lemma rqk_start s c x' i : IAS s -> RQS s -> cur (conns s c) = Some i -> RQk i [] (K0 s x' (insts s i)).
+Proof.
+  intros HI HR Ec. apply rq_k0; [apply HI|]. intros _. destruct (HR c i Ec) as (A&B&C). repeat split; auto.
+  intros Hr. rewrite app_nil_r. auto.
+Qed.
+
+Lemma rq_fin s c i k cvx nx ms gq : IAS s -> SH i k -> RQk i [] k -> cvx = ts k ->
+  let s' := {| Core.cv := cvx; Core.conns := Core.set_conn (conns s) c (tx k); Core.insts := Core.set_inst (insts s) i (ty k);
+               Core.next := nx; Core.mqsub := ms; Core.getreq := gq |} in
+  IAS s' /\ (forall i', cur (conns s' c) = Some i' -> RQ1 s' i').
+Proof.
+  intros HI Hsh [H1 H2] ->. cbv zeta. split.
+  - intros j. cbn [Core.insts]. unfold Core.set_inst. destruct (Nat.eqb_spec j i) as [->|]; [exact H1|apply HI].
+  - intros i'. cbn [Core.conns]. unfold Core.set_conn. rewrite Nat.eqb_refl. intros Hc.
+    destruct Hsh as [(G&C&D)|(G&C&D)]; [|congruence]. rewrite C in Hc. injection Hc as <-.
+    destruct (H2 G) as (A&B&P). unfold RQ1. cbn [Core.cv Core.insts]. unfold Core.set_inst. rewrite Nat.eqb_refl.
+    repeat split; auto. intros Hr. specialize (B Hr). rewrite app_nil_r in B. exact B.
+Qed.
+
+Lemma rq_keep s c x' ins cvx nx ms gq : IAS s -> RQS s -> cur x' = cur (conns s c) ->
+  (forall j, acb (ins j) = acb (insts s j) /\ inflight (ins j) = inflight (insts s j) /\ rq (ins j) = rq (insts s j)) ->
+  (forall j, cur (conns s c) = Some j -> csubs cvx j = csubs (cv s) j) ->
+  let s' := {| Core.cv := cvx; Core.conns := Core.set_conn (conns s) c x'; Core.insts := ins;
+               Core.next := nx; Core.mqsub := ms; Core.getreq := gq |} in
+  IAS s' /\ (forall i', cur (conns s' c) = Some i' -> RQ1 s' i').
+Proof.
+  intros HI HR Ec Hins Hcv. cbv zeta. split.
+  - intros j. cbn [Core.insts]. destruct (Hins j) as (A&B&_). rewrite A, B. apply HI.
+  - intros i'. cbn [Core.conns]. unfold Core.set_conn. rewrite Nat.eqb_refl, Ec. intros Hc.
+    unfold RQ1. cbn [Core.cv Core.insts]. destruct (Hins i') as (A&_&C). rewrite A, C, (Hcv i' Hc). apply (HR c i' Hc).
+Qed.
+
+Lemma rq_local s c : CInv (cv s) -> WF s -> IAS s -> RQS s ->
+  let s' := fst (step s (Core.GrantConn upd c)) in
+  IAS s' /\ (forall i', cur (conns s' c) = Some i' -> RQ1 s' i').
+Proof.
+  intros Hinv Hw HI HR. pose proof Hw as [W1 W2 W3 W4 W5 W6 W7]. cbv zeta.
+  destruct (cqueue (conns s c)) as [|it0 q0] eqn:Eq0.
+  { rewrite step_conn_empty by exact Eq0. cbn [fst]. split; [exact HI|intros i' Hc; exact (HR c i' Hc)]. }
+  rewrite step_conn by (rewrite Eq0; discriminate).
+  destruct (ct_spec s c) as [Eq|id q Eq Ec|id q i Eq Ec|id cnt q i Eq Ec|id cnt q Eq Ec|t q i Eq Ec|t q Eq Ec|i q Eq Eg|i q Eq Eg|i q Eq|q Eq];
+    cbn [fst snd].
+  - congruence.
+  - (* new instance *)
+    apply rq_fin; [exact HI| | |reflexivity].
+    + eapply sh_mild; [apply x_load, ext_refl|]. left. cbn [Core.emit Core.act Core.tx Core.with_cd cur direct].
+      repeat split; [|lia]. change (gone_ (next s) (actk (K0 s (Core.with_cd (Core.with_q (conns s c) q) (Some (next s)) 1) (ynew c)) (Conv.Subscribe upd (next s))) = false).
+      rewrite gone_act. destruct (W3 (next s)) as (_&_&A&_); [lia|exact A].
+    + apply rq_load. split; [cbn; intros X; contradiction|]. intros _. unfold Core.sent_, Core.me. cbn [Core.emit Core.act Core.ts Core.ty ynew rq].
+      assert (Es : ssent (csubs (cstep (cv s) (Conv.Subscribe upd (next s))) (next s)) = false).
+      { destruct (W3 (next s)) as (A&B&_); [lia|]. cbn [Conv.step]. rewrite A. cbn [Conv.subs]. rewrite Conv.set_sub_eq. exact B. }
+      rewrite Es. repeat split; discriminate.
+  - destruct (W1 c i Ec) as (Hi&Ho&Hg&Hdir). apply rq_fin; [exact HI|apply sh_body_req, Hg| |reflexivity].
+    apply rq_body_req; [exact Hg|]. apply (rqk_start s c); assumption.
+  - destruct (W1 c i Ec) as (Hi&Ho&Hg&Hdir). apply rq_fin; [exact HI|apply sh_body_unsub; assumption| |reflexivity].
+    apply rq_body_unsub; try assumption. apply (rqk_start s c); assumption.
+  - apply rq_keep; auto.
+  - destruct (W1 c i Ec) as (Hi&Ho&Hg&Hdir).
+    assert (H0 : SH i (K0 s (xtok (conns s c) q t) (insts s i))) by (left; repeat split; assumption).
+    assert (HK : RQk i [] (K0 s (xtok (conns s c) q t) (insts s i))) by (apply (rqk_start s c); assumption).
+    apply rq_fin; [exact HI| | |reflexivity].
+    + destruct (tokset (conns s c)); [|exact H0]. eapply sh_mild; [apply x_reacc, ext_refl|exact H0].
+    + destruct (tokset (conns s c)); [|exact HK]. apply rq_reacc; assumption.
+  - apply rq_keep; auto.
+  - apply rq_keep; auto. intros j. inst_at j i; auto.
+  - destruct (W4 c (QAccess i)) as [Hi Ho]; [rewrite Eq; left; reflexivity|].
+    assert (Ec : cur (conns s c) = Some i) by (rewrite <- Ho; apply W2; assumption).
+    destruct (W1 c i Ec) as (_&_&_&Hdir).
+    apply rq_fin; [exact HI|apply sh_body_access; assumption| |reflexivity].
+    apply rq_body_access; try assumption. apply (rqk_start s c); assumption.
+  - destruct (W4 c (QSub i)) as [Hi Ho]; [rewrite Eq; left; reflexivity|].
+    destruct (sgone (csubs (cv s) i)) eqn:Eg.
+    + destruct (body_sub_gone s c (conns s c) q i Hinv Eg) as (T1&T2&T3&T4&T5). cbv zeta in *. rewrite T1, T2, T5.
+      apply rq_keep; auto.
+      * intros j. inst_at j i; auto.
+      * intros j Hc'. assert (Hne : j <> i) by (intros ->; destruct (W1 c i Hc') as (_&_&G&_); congruence).
+        rewrite subs_other by (cbn [tgt]; congruence || discriminate). reflexivity.
+    + assert (Ec : cur (conns s c) = Some i) by (rewrite <- Ho; apply W2; assumption).
+      destruct (W1 c i Ec) as (_&_&_&Hdir).
+      apply rq_fin; [exact HI|apply sh_body_sub; assumption| |reflexivity].
+      apply rq_body_sub; try assumption. apply (rqk_start s c); assumption.
+  - (* disposal *)
+    unfold body_dispose. cbv zeta. cbn [Core.emit Core.sety Core.ts Core.tx Core.ty].
+    match goal with |- context [fold_left actk ?l ?k0] => destruct (acts_frame l k0) as (S3&S4&S5) end. rewrite S3, S4. cbn [Core.tx Core.ty].
+    split.
+    + intros j. cbn [Core.insts]. destruct (cur (conns s c)) as [i|]; [|apply HI]. inst_at j i; [intros X; contradiction|apply HI].
+    + intros i'. cbn [Core.conns]. unfold Core.set_conn. rewrite Nat.eqb_refl. cbn. discriminate.
+Qed.
+
+Lemma nonconn_insts s o j : (forall c0, o <> Core.GrantConn upd c0) ->
+  acb (insts (fst (step s o)) j) = acb (insts s j) /\ inflight (insts (fst (step s o)) j) = inflight (insts s j) /\
+  rq (insts (fst (step s o)) j) = rq (insts s j) /\ owner (insts (fst (step s o)) j) = owner (insts s j) /\
+  next (fst (step s o)) = next s.
+Proof.
+  intros Ho. destruct o as [c id|c id k|c|c t|i g| |u| | | |c]; unfold Core.step; try (exfalso; eapply Ho; reflexivity);
+    try (repeat split; fail).
+  - destruct (disc (conns s c)); repeat split.
+  - destruct (disc (conns s c)); repeat split.
+  - destruct (disc (conns s c)); repeat split.
+  - destruct (Core.is_done (conns s c)); repeat split.
+  - destruct (_ && _); [|repeat split]. cbn [fst Core.insts Core.next]. inst_at j i; repeat split.
+Qed.
+
+Lemma rqi_step s o : CInv (cv s) -> WF s -> IAS s /\ RQS s -> IAS (fst (step s o)) /\ RQS (fst (step s o)).
+Proof.
+  intros Hinv Hw [HI HR].
+  assert (Ho : (exists c0, o = Core.GrantConn upd c0) \/ forall c0, o <> Core.GrantConn upd c0).
+  { destruct o; try (right; intros; discriminate). left; eexists; reflexivity. }
+  destruct Ho as [[c ->]|Ho].
+  - destruct (rq_local s c Hinv Hw HI HR) as [A B]. cbv zeta in *. split; [exact A|].
+    intros c' i' Hc'. destruct (Nat.eq_dec c' c) as [->|Hne]; [apply B, Hc'|].
+    rewrite conns_other in Hc' by exact Hne. destruct (w_cur _ Hw c' i' Hc') as (Hi&Hoi&_).
+    unfold RQ1. rewrite insts_other, subs_other_conn by (auto; congruence). apply (HR c' i' Hc').
+  - split.
+    + intros j. destruct (nonconn_insts s o j Ho) as (A&B&_). rewrite A, B. apply HI.
+    + intros c i Hc. destruct (nonconn_cur s o c Ho) as (A&_). rewrite A in Hc.
+      destruct (nonconn_insts s o i Ho) as (A1&_&A3&_). unfold RQ1. rewrite A1, A3, step_cv.
+      destruct (svc_steps (acts_of s o) (nonconn_acts s o Ho) (cv s) i) as (S1&S2&S3&_). rewrite S1, S2, S3. apply (HR c i Hc).
+Qed.
+Lemma rqi_exec t ops : IAS (fst (exec t ops)) /\ RQS (fst (exec t ops)).
+Proof.
+  apply exec_state_ind.
+  - split; [intros i X; cbn in X; contradiction|intros c i X; cbn in X; discriminate].
+  - intros ops' o s H. apply rqi_step; [apply core_conv_inv|apply wf_exec|exact H].
+Qed.
+
+(* ================= every item of a subscription's queue has its task on the owner's connection queue ================= *)
 Definition is_qsub (i : nat) (it : qitem) : bool := match it with QSub j => Nat.eqb j i | _ => false end.
 Definition cntq (i : nat) (q : list qitem) : nat := length (filter (is_qsub i) q).
-Definition QL (s : Core.st val upd) : Prop :=
+Definition QL (s : st_) : Prop :=
   forall i, i < next s -> length (scq (csubs (cv s) i)) <= cntq i (cqueue (conns s (owner (insts s i)))).
 
 Lemma cntq_app i q1 q2 : cntq i (q1 ++ q2) = cntq i q1 + cntq i q2.
@@ -1486,23 +2813,21 @@ Proof.
   - destruct (is_qsub i a); cbn [length]; specialize (IH H); lia.
 Qed.
 
-Definition nocq (a : act) : Prop := a <> Conv.RunE upd /\ forall j, a <> Conv.RunC upd j.
+Definition nocq (a : act_) : Prop := a <> Conv.RunE upd /\ forall j, a <> Conv.RunC upd j.
 Lemma cq_other σ a j : nocq a -> scq (csubs (cstep σ a) j) = scq (csubs σ j).
 Proof.
-  intros [Hr Hc]. destruct a as [u| | |n|k|k cl| |k|k n|k n|k];
+  intros [Hr Hc]. destruct a as [u| | |n| |k|k cl| |k|k n|k n|k];
     try (rewrite subs_other by (cbn [tgt]; congruence); reflexivity).
   - destruct (Nat.eqb_spec j k) as [->|Hne]; [|rewrite subs_other by (cbn [tgt]; congruence); reflexivity].
     cbn [Conv.step]. destruct (ssubscribed (csubs σ k)); [reflexivity|]. cbn [Conv.subs]. rewrite Conv.set_sub_eq. reflexivity.
   - destruct (Nat.eqb_spec j k) as [->|Hne]; [|rewrite subs_other by (cbn [tgt]; congruence); reflexivity].
     cbn [Conv.step]. destruct (sgone (csubs σ k)); [destruct cl|]; cbn [Conv.subs]; rewrite ?Conv.set_sub_eq; reflexivity.
   - destruct (Nat.eqb_spec j k) as [->|Hne]; [|rewrite subs_other by (cbn [tgt]; congruence); reflexivity].
-    cbn [Conv.step]. destruct (_ && _); [|reflexivity]. cbn [Conv.subs]. rewrite Conv.set_sub_eq.
-    match goal with |- scq (Conv.drain val upd app ?x n) = _ => destruct (Conv.drain_fields val upd app x n) as (_&_&G&_); rewrite G end. reflexivity.
+    destruct (mild_step σ k (Conv.Respond upd k n) eq_refl) as (_&_&C&_). exact C.
   - destruct (Nat.eqb_spec j k) as [->|Hne]; [|rewrite subs_other by (cbn [tgt]; congruence); reflexivity].
-    cbn [Conv.step]. destruct (_ && _); [|reflexivity]. cbn [Conv.subs]. rewrite Conv.set_sub_eq.
-    match goal with |- scq (Conv.drain val upd app ?x n) = _ => destruct (Conv.drain_fields val upd app x n) as (_&_&G&_); rewrite G end. reflexivity.
+    destruct (mild_step σ k (Conv.Unqueue upd k n) eq_refl) as (_&_&C&_). exact C.
   - destruct (Nat.eqb_spec j k) as [->|Hne]; [|rewrite subs_other by (cbn [tgt]; congruence); reflexivity].
-    cbn [Conv.step]. destruct (_ && _); [|reflexivity]. cbn [Conv.subs]. rewrite Conv.set_sub_eq. reflexivity.
+    destruct (mild_step σ k (Conv.StartQueue upd k) eq_refl) as (_&_&C&_). exact C.
 Qed.
 Lemma cq_others acts : Forall nocq acts -> forall σ j, scq (csubs (fold_left cstep acts σ) j) = scq (csubs σ j).
 Proof.
@@ -1510,7 +2835,7 @@ Proof.
 Qed.
 Lemma cq_runc σ i : scq (csubs (cstep σ (Conv.RunC upd i)) i) = tl (scq (csubs σ i)).
 Proof.
-  cbn [Conv.step]. destruct (scq (csubs σ i)) as [|[|e] q] eqn:E; [rewrite E; reflexivity|destruct (sgone (csubs σ i))|];
+  cbn [Conv.step]. destruct (scq (csubs σ i)) as [|[|e|] q] eqn:E; [rewrite E; reflexivity|destruct (sgone (csubs σ i))| |];
     cbn [Conv.subs]; rewrite Conv.set_sub_eq; cbn [Conv.cq tl]; try reflexivity.
   destruct (negb (sloaded (csubs σ i))); [reflexivity|]. destruct (sflag (csubs σ i)); [reflexivity|].
   destruct (Conv.proc val upd app (ssver (csubs σ i), ssval (csubs σ i)) e). reflexivity.
@@ -1518,185 +2843,165 @@ Qed.
 Lemma cq_runc_other σ i j : j <> i -> scq (csubs (cstep σ (Conv.RunC upd i)) j) = scq (csubs σ j).
 Proof. intros H. rewrite subs_other by (cbn [tgt]; congruence || discriminate). reflexivity. Qed.
 
-Lemma nocq_respond i x ids : Forall nocq (Core.respond_acts val upd i x ids).
+Lemma hact_nocq m i a : hact m i a -> nocq a.
+Proof. destruct a; cbn [hact]; try contradiction; intros _; split; try discriminate; intros; discriminate. Qed.
+Lemma ext_cq m c i k1 k j : ext m c i k1 k -> scq (csubs (ts k) j) = scq (csubs (ts k1) j).
 Proof.
-  unfold Core.respond_acts. destruct ids; [constructor|]. destruct (ssent x); [constructor|].
-  constructor; [|constructor]. split; [discriminate|intros j; discriminate].
+  intros [(la&_&A2&A3) _ _ _ _ _ _ _]. rewrite A2. apply cq_others. eapply Forall_impl; [|exact A3]. apply hact_nocq.
 Qed.
 
-Lemma ql_frame s s' : QL s -> next s' = next s -> (forall i, owner (insts s' i) = owner (insts s i)) ->
+Definition head_sub (q : list qitem) (j : nat) : bool := match q with QSub i :: _ => Nat.eqb j i | _ => false end.
+
+Lemma task_cq s c j :
+  let k := fst (fst (fst (conn_task s c))) in
+  scq (csubs (ts k) j) = if head_sub (cqueue (conns s c)) j then tl (scq (csubs (cv s) j)) else scq (csubs (cv s) j).
+Proof.
+  cbv zeta. destruct (ct_spec s c) as [Eq|id q Eq Ec|id q i Eq Ec|id cnt q i Eq Ec|id cnt q Eq Ec|t q i Eq Ec|t q Eq Ec|i q Eq Eg|i q Eq Eg|i q Eq|q Eq];
+    cbn [fst]; rewrite Eq; cbn [head_sub]; try reflexivity.
+  - rewrite (ext_cq _ _ _ _ _ j (x_load false c (next s) _ _ (AReq id) (ext_refl _ _ _ _))). cbn [Core.emit Core.act Core.ts].
+    apply cq_other. split; [discriminate|intros; discriminate].
+  - rewrite (ext_cq _ _ _ _ _ j (ext_body_req s c (conns s c) id q i)). reflexivity.
+  - rewrite (ext_cq _ _ _ _ _ j (ext_body_unsub s c (conns s c) id cnt q i)). reflexivity.
+  - destruct (tokset (conns s c)); [|reflexivity]. rewrite (ext_cq _ _ _ _ _ j (x_reacc false c i _ _ (ext_refl _ _ _ _))). reflexivity.
+  - rewrite (ext_cq _ _ _ _ _ j (ext_body_access s c (conns s c) q i)). reflexivity.
+  - rewrite (ext_cq _ _ _ _ _ j (ext_body_sub s c (conns s c) q i)). cbn [Core.act Core.ts].
+    destruct (Nat.eqb_spec j i) as [->|Hne]; [apply cq_runc|apply cq_runc_other, Hne].
+  - unfold body_dispose. cbv zeta. cbn [Core.emit Core.sety Core.ts].
+    match goal with |- context [fold_left actk ?l ?k0] => pose proof (sync_acts (cv s) l k0 eq_refl) as S1; pose proof (acts_ta l k0) as S2 end.
+    unfold sync in S1. rewrite S1, S2. cbn [Core.ta List.app]. apply cq_others. apply Forall_forall. intros a Hin.
+    apply in_map_iff in Hin. destruct Hin as (j' & <- & _). split; [discriminate|intros; discriminate].
+Qed.
+
+Lemma task_owner s c i : snd (fst (fst (conn_task s c))) = Some i -> i < next s ->
+  owner (ty (fst (fst (fst (conn_task s c))))) = owner (insts s i).
+Proof.
+  destruct (ct_spec s c) as [Eq|id q Eq Ec|id q i' Eq Ec|id cnt q i' Eq Ec|id cnt q Eq Ec|t q i' Eq Ec|t q Eq Ec|i' q Eq Eg|i' q Eq Eg|i' q Eq|q Eq];
+    cbn [fst snd]; intros E Hi; try discriminate E; try (injection E as <-).
+  - lia.
+  - apply (e_own _ _ _ _ _ (ext_body_req s c (conns s c) id q i')).
+  - apply (e_own _ _ _ _ _ (ext_body_unsub s c (conns s c) id cnt q i')).
+  - destruct (tokset (conns s c)); [|reflexivity].
+    exact (e_own _ _ _ _ _ (x_reacc false c i' _ (K0 s (xtok (conns s c) q t) (insts s i')) (ext_refl _ _ _ _))).
+  - reflexivity.
+  - apply (e_own _ _ _ _ _ (ext_body_access s c (conns s c) q i')).
+  - apply (e_own _ _ _ _ _ (ext_body_sub s c (conns s c) q i')).
+  - unfold body_dispose. cbv zeta. cbn [Core.emit Core.sety Core.ty Core.upd_y owner].
+    match goal with |- context [fold_left actk ?l ?k0] => destruct (acts_frame l k0) as (_&S4&_) end. rewrite S4. cbn [Core.ty]. rewrite E. reflexivity.
+Qed.
+
+Lemma ql_frame s s' : QL s -> next s' = next s -> (forall i, i < next s -> owner (insts s' i) = owner (insts s i)) ->
   (forall i, i < next s -> length (scq (csubs (cv s') i)) <= length (scq (csubs (cv s) i))) ->
   (forall i c, cntq i (cqueue (conns s c)) <= cntq i (cqueue (conns s' c))) -> QL s'.
 Proof.
-  intros H En Eo Ecq Eq i Hi. rewrite En in Hi. rewrite Eo.
+  intros H En Eo Ecq Eq i Hi. rewrite En in Hi. rewrite Eo by exact Hi.
   specialize (H i Hi). specialize (Ecq i Hi). specialize (Eq i (owner (insts s i))). lia.
 Qed.
 
-Ltac ql_pop H c Eq :=
-  apply (ql_frame _ _ H); cbn [Core.next Core.insts Core.cv Core.conns];
-  [ reflexivity | |
-  | let j := fresh "j" in let c' := fresh "c'" in intros j c'; conn_at c' c;
-      [rewrite Eq; unfold cntq; cbn [filter is_qsub length]; lia|lia] ].
-Ltac ql_cq := let j := fresh "j" in intros j _; rewrite cq_others; [lia|].
-
-Lemma ql_step s outs o : GO s outs -> CInv (cv s) -> WF s -> QL s -> QL (fst (step s o)).
+Lemma ql_step_simple s o : CInv (cv s) -> WF s -> QL s ->
+  (forall c0, o <> Core.GrantConn upd c0) -> o <> Core.GrantEs upd -> QL (fst (step s o)).
 Proof.
-  intros Hgo Hinv Hw H. pose proof Hw as [W1 W2 W3 W4 W5 W6 W7].
-  step_cases s o.
-  1,3,5,8,13: exact H.
-  - apply (ql_frame _ _ H); cbn [Core.next Core.insts Core.cv Core.conns fold_left]; auto.
-    intros j c'; conn_at c' c; [rewrite cntq_app|]; lia.
-  - apply (ql_frame _ _ H); cbn [Core.next Core.insts Core.cv Core.conns fold_left]; auto.
-    intros j c'; conn_at c' c; [rewrite cntq_app|]; lia.
-  - apply (ql_frame _ _ H); cbn [Core.next Core.insts Core.cv Core.conns fold_left]; auto.
-    intros j c'; conn_at c' c; [rewrite cntq_app|]; lia.
-  - (* MqAccess *)
-    apply (ql_frame _ _ H); cbn [Core.next Core.insts Core.cv Core.conns]; auto.
-    intros j. inst_at j i; reflexivity.
-  - (* MqGet *)
-    apply (ql_frame _ _ H); cbn [Core.next Core.insts Core.cv Core.conns]; auto.
-    ql_cq. destruct (_ && _); [|constructor]. constructor; [|constructor]. split; [discriminate|intros ?; discriminate].
-  - (* MqEvent *)
-    apply (ql_frame _ _ H); cbn [Core.next Core.insts Core.cv Core.conns]; auto.
-    destruct (mqsub s) eqn:Em.
-    + ql_cq. constructor; [|constructor]. split; [discriminate|intros ?; discriminate].
-    + destruct (g_0 _ _ Hgo Em) as (A&B&C&_). cbn [fold_left].
-      destruct (upd_rune_nil (cv s) (Conv.SvcUpdate upd u) B C) as (_&_&Z); [left; eexists; reflexivity|].
-      intros j _. rewrite Z. lia.
-  - (* MqCustom *)
-    apply (ql_frame _ _ H); cbn [Core.next Core.insts Core.cv Core.conns]; auto.
-    destruct (mqsub s) eqn:Em.
-    + ql_cq. constructor; [|constructor]. split; [discriminate|intros ?; discriminate].
-    + destruct (g_0 _ _ Hgo Em) as (A&B&C&_). cbn [fold_left].
-      destruct (upd_rune_nil (cv s) (Conv.SvcCustom upd) B C) as (_&_&Z); [right; reflexivity|].
-      intros j _. rewrite Z. lia.
-  - (* GrantEs *)
-    cbn [fold_left]. intros j Hj. cbn [Core.next Core.insts Core.cv Core.conns] in *.
-    match goal with |- _ <= cntq _ (cqueue (Core.pass _ _ ?σ ?own (Core.fan _ _ _ ?σ' _ ?n ?f) ?c')) => destruct (grant_conns σ σ' own n f c') as (B&_) end.
-    rewrite B, !cntq_app. specialize (H j Hj).
-    destruct (rune_fields (cv s) j) as (_&_&_&_&_&_&_&_&_&[Hcq|[it Hcq]]).
-    + rewrite Hcq. lia.
-    + rewrite Hcq, app_length. cbn [length].
-      match goal with |- _ <= _ + cntq j ?Q + _ => assert (Hq : 1 <= cntq j Q) end; [|lia].
-      apply cntq_in. unfold qsubs_for. apply in_map. apply filter_In. split; [apply in_seq; lia|].
-      rewrite Nat.eqb_refl, andb_true_r. unfold Core.grew. rewrite Hcq, app_length. cbn [length]. apply Nat.ltb_lt. lia.
-  - (* QReq, granted and loaded *)
-    ql_pop H c Eq; [auto|]. ql_cq. apply nocq_respond.
-  - ql_pop H c Eq; [intros j; inst_at j i; reflexivity|]. ql_cq. constructor.
-  - ql_pop H c Eq; [intros j; inst_at j i; reflexivity|]. ql_cq. constructor.
-  - ql_pop H c Eq; [intros j; inst_at j i; reflexivity|]. ql_cq. constructor.
-  - (* new instance *)
-    cbn [fold_left]. intros j Hj. cbn [Core.next Core.insts Core.cv Core.conns] in *.
-    rewrite cq_other by (split; [discriminate|intros ?; discriminate]).
-    destruct (Nat.eq_dec j (next s)) as [->|Hne].
-    + destruct (W3 (next s)) as (_&_&_&A); [lia|]. rewrite A. cbn [length]. lia.
-    + assert (Hj' : j < next s) by lia. specialize (H j Hj'). inst_at j (next s); [lia|].
-      unfold Core.set_conn. destruct (Nat.eqb_spec (owner (insts s j)) c) as [E|E]; cbn [cqueue]; [|exact H].
-      rewrite E, Eq in H. unfold cntq in *. cbn [filter is_qsub] in H. exact H.
-  - ql_pop H c Eq; [auto|]. ql_cq. constructor.
-  - ql_pop H c Eq; [intros j; inst_at j i; reflexivity|]. ql_cq. constructor; [|constructor]. split; [discriminate|intros ?; discriminate].
-  - ql_pop H c Eq; [auto|]. ql_cq. constructor.
-  - ql_pop H c Eq; [auto|]. ql_cq. constructor.
-  - ql_pop H c Eq; [auto|]. ql_cq. constructor.
-  - ql_pop H c Eq; [auto|]. ql_cq. constructor.
-  - ql_pop H c Eq; [intros j; inst_at j i; reflexivity|]. ql_cq. apply nocq_respond.
-  - ql_pop H c Eq; [intros j; inst_at j i; reflexivity|]. ql_cq. constructor.
-  - ql_pop H c Eq; [intros j; inst_at j i; reflexivity|]. ql_cq.
-    destruct (Nat.eqb _ 0); [|constructor]. constructor; [|constructor]. split; [discriminate|intros ?; discriminate].
-  - ql_pop H c Eq; [auto|]. ql_cq. constructor.
-  - (* QSub *)
-    destruct (W4 c (QSub i)) as [Hi Ho]; [rewrite Eq; left; reflexivity|].
-    cbn [fold_left]. intros j Hj. cbn [Core.next Core.insts Core.cv Core.conns] in *.
-    assert (Eo : owner ((if negb (Core.is_live val upd (cv s) i) && Core.is_live val upd (cstep (cv s) (Conv.RunC upd i)) i
-                         then Core.set_inst (insts s) i (Core.with_cbs (insts s i) (acb (insts s i)) [] (acc (insts s i)) (lost (insts s i)))
-                         else insts s) j) = owner (insts s j)).
-    { destruct (_ && _); [|reflexivity]. inst_at j i; reflexivity. }
-    rewrite Eo. rewrite cq_others by (destruct (_ && _); [apply nocq_respond|constructor]).
-    specialize (H j Hj).
-    destruct (Nat.eq_dec j i) as [->|Hne].
-    + rewrite cq_runc, Ho. rewrite Ho, Eq in H. unfold Core.set_conn. rewrite Nat.eqb_refl. cbn [Core.with_q cqueue].
-      unfold cntq in *. cbn [filter is_qsub] in H. rewrite Nat.eqb_refl in H. cbn [length] in H.
-      destruct (scq (csubs (cv s) i)); cbn [tl length] in *; lia.
-    + rewrite cq_runc_other by exact Hne.
-      unfold Core.set_conn. destruct (Nat.eqb_spec (owner (insts s j)) c) as [E'|E']; cbn [Core.with_q cqueue]; [|exact H].
-      rewrite E', Eq in H. unfold cntq in *. cbn [filter is_qsub] in H.
-      assert (E : Nat.eqb i j = false) by (apply Nat.eqb_neq; congruence). rewrite E in H. exact H.
-  - (* QDispose *)
-    ql_pop H c Eq; [intros j; destruct (cur (conns s c)) as [i|]; [inst_at j i|]; reflexivity|]. ql_cq.
-    apply Forall_forall. intros a Hin. apply in_map_iff in Hin. destruct Hin as (j' & <- & _). split; [discriminate|intros ?; discriminate].
+  intros Hinv Hw H Ho He. destruct (mqsub s) eqn:Em.
+  - apply (ql_frame s _ H).
+    + apply (nonconn_insts s o 0 Ho).
+    + intros i _. apply (nonconn_insts s o i Ho).
+    + intros i _. rewrite step_cv, cq_others; [lia|].
+      destruct o as [c id|c id k|c|c t|i' g| |u| | | |c]; cbn [Core.acts_of]; try (repeat constructor; fail); try congruence.
+      * destruct (_ && _); repeat constructor; try discriminate; intros; discriminate.
+      * destruct (_ && _); repeat constructor; try discriminate; intros; discriminate.
+      * rewrite Em. repeat constructor; try discriminate; intros; discriminate.
+      * rewrite Em. repeat constructor; try discriminate; intros; discriminate.
+      * rewrite Em. repeat constructor; try discriminate; intros; discriminate.
+    + intros i c. destruct o as [c' id|c' id k|c'|c' t|i' g| |u| | | |c']; unfold Core.step; try congruence; try (cbn [fst Core.conns]; lia).
+      * destruct (disc (conns s c')); cbn [fst Core.conns]; [lia|]. conn_at c c'; [rewrite cntq_app|]; lia.
+      * destruct (disc (conns s c')); cbn [fst Core.conns]; [lia|]. conn_at c c'; [rewrite cntq_app|]; lia.
+      * destruct (disc (conns s c')); cbn [fst Core.conns]; [lia|]. conn_at c c'; [rewrite cntq_app|]; lia.
+      * destruct (Core.is_done (conns s c')); cbn [fst Core.conns]; [lia|]. conn_at c c'; [rewrite cntq_app|]; lia.
+      * destruct (_ && _); cbn [fst Core.conns]; lia.
+  - intros i Hi. destruct (nonconn_insts s o 0 Ho) as (_&_&_&_&En). rewrite En, (w_ms _ Hw Em) in Hi. lia.
 Qed.
 
-(* ---------------- the invariants along an execution ---------------- *)
-Lemma iw_exec t ops : IW (fst (exec t ops)).
+Lemma ql_step_es s : CInv (cv s) -> WF s -> QL s -> QL (fst (step s (Core.GrantEs upd))).
 Proof.
-  apply exec_state_ind.
-  - intros i. cbn. split; [discriminate|congruence].
-  - intros ops' o s H. apply iw_step; [apply wf_exec|exact H].
+  intros Hinv Hw H. unfold Core.step. cbn [fst Core.acts_of fold_left].
+  intros j Hj. cbn [Core.next Core.insts Core.cv Core.conns] in *.
+  match goal with |- _ <= cntq _ (cqueue (Core.pass _ _ ?σ ?own (Core.fan _ _ _ ?σ' _ ?n ?f) ?c')) => destruct (grant_conns σ σ' own n f c') as (B&_) end.
+  rewrite B, !cntq_app. specialize (H j Hj).
+  destruct (rune_fields (cv s) j) as (_&_&_&_&_&_&_&_&_&[Hcq|[it Hcq]]).
+  - rewrite Hcq. lia.
+  - rewrite Hcq, app_length. cbn [length].
+    match goal with |- _ <= _ + cntq j ?Q + _ => assert (Hq : 1 <= cntq j Q) end; [|lia].
+    apply cntq_in. unfold qsubs_for. apply in_map. apply filter_In. split; [apply in_seq; lia|].
+    rewrite Nat.eqb_refl, andb_true_r. unfold Core.grew. rewrite Hcq, app_length. cbn [length]. apply Nat.ltb_lt. lia.
+Qed.
+
+Lemma cntq_tl j q : cntq j (tl q) = cntq j q - (if head_sub q j then 1 else 0).
+Proof.
+  destruct q as [|[id|id cnt|t|i|i|] q]; cbn [tl head_sub]; unfold cntq; cbn [filter is_qsub length]; try lia.
+  rewrite (Nat.eqb_sym i j). destruct (Nat.eqb j i); cbn [length]; lia.
+Qed.
+
+Lemma ql_step_conn s c : CInv (cv s) -> WF s -> QL s -> QL (fst (step s (Core.GrantConn upd c))).
+Proof.
+  intros Hinv Hw H. pose proof Hw as [W1 W2 W3 W4 W5 W6 W7].
+  destruct (cqueue (conns s c)) as [|it0 q0] eqn:Eq0; [rewrite step_conn_empty by exact Eq0; exact H|].
+  rewrite step_conn by (rewrite Eq0; discriminate).
+  pose proof (task_cq s c) as Hcq. pose proof (task_owner s c) as Hown. pose proof (task_oi s c Hw) as Hoi.
+  destruct (task_shape s c) as (_&Hq&_&Hc). cbv zeta in *.
+  destruct (conn_task s c) as [[[k oi] nx] ms]. cbn [fst snd] in *.
+  assert (Hnx : nx = next s \/ (nx = S (next s) /\ oi = Some (next s) /\ scq (csubs (ts k) (next s)) = [])).
+  { destruct Hc as [(A&_)|[(_&_&A2&A3&_&A5&_)|(_&A&_)]]; auto. right. repeat split; auto.
+    rewrite Hcq, Eq0. destruct (W3 (next s)) as (_&_&_&A); [lia|]. rewrite A. destruct (head_sub _ _); reflexivity. }
+  intros j Hj. cbn [Core.next Core.insts Core.cv Core.conns] in *.
+  assert (Hj' : j < next s \/ (j = next s /\ oi = Some j /\ scq (csubs (ts k) j) = [])).
+  { destruct Hnx as [->|(->&A&B)]; [left; exact Hj|]. destruct (Nat.eq_dec j (next s)) as [->|]; [right; auto|left; lia]. }
+  destruct Hj' as [Hj'|(->&A&B)]; [|rewrite B; cbn [length]; lia].
+  assert (Eo : owner (match oi with Some i => Core.set_inst (insts s) i (ty k) | None => insts s end j) = owner (insts s j)).
+  { destruct oi as [i|]; [|reflexivity]. unfold Core.set_inst. destruct (Nat.eqb_spec j i) as [->|]; [|reflexivity]. apply Hown; auto. }
+  rewrite Eo. specialize (H j Hj'). rewrite Hcq, Eq0.
+  unfold Core.set_conn. destruct (Nat.eqb_spec (owner (insts s j)) c) as [E|E].
+  - rewrite Hq, Eq0, cntq_tl. rewrite E, Eq0 in H.
+    destruct (head_sub (it0 :: q0) j); [|lia]. destruct (scq (csubs (cv s) j)); cbn [tl length] in *; lia.
+  - destruct (head_sub (it0 :: q0) j) eqn:Eh; [|exact H]. exfalso. apply E.
+    destruct it0; cbn [head_sub] in Eh; try discriminate Eh. apply Nat.eqb_eq in Eh. subst i.
+    apply (W4 c (QSub j)). rewrite Eq0. left; reflexivity.
+Qed.
+
+Lemma ql_step s o : CInv (cv s) -> WF s -> QL s -> QL (fst (step s o)).
+Proof.
+  intros Hinv Hw H.
+  assert (Ho : (exists c0, o = Core.GrantConn upd c0) \/ o = Core.GrantEs upd \/ ((forall c0, o <> Core.GrantConn upd c0) /\ o <> Core.GrantEs upd)).
+  { destruct o; try (right; right; split; intros; discriminate); [right; left; reflexivity|left; eexists; reflexivity]. }
+  destruct Ho as [[c0 ->]|[->|[Ho He]]]; [apply ql_step_conn|apply ql_step_es|apply ql_step_simple]; assumption.
 Qed.
 Lemma ql_exec t ops : QL (fst (exec t ops)).
 Proof.
   apply exec_state_ind.
   - intros i Hi. cbn in Hi. lia.
-  - intros ops' o s H. apply (ql_step s (snd (exec t ops'))); [apply go_exec|apply core_conv_inv|apply wf_exec|exact H].
+  - intros ops' o s H. apply ql_step; [apply core_conv_inv|apply wf_exec|exact H].
 Qed.
 
-Lemma nu_prefix c outs o : no_underflow c (outs ++ o) -> no_underflow c outs.
-Proof. intros H pre id k post E. apply (H pre id k (post ++ o)). rewrite E, <- app_assoc. reflexivity. Qed.
-
-Lemma lg_exec t ops c :
-  let s := fst (exec t ops) in let outs := snd (exec t ops) in
-  disc (conns s c) = false -> no_underflow c outs -> LG c s (client c outs).
-Proof.
-  apply (exec_ind (fun s outs => disc (conns s c) = false -> no_underflow c outs -> LG c s (client c outs))).
-  - intros _ _. constructor; cbn; try reflexivity; discriminate.
-  - intros ops' o s outs IH Hd Hnu.
-    assert (Hd0 : disc (conns s c) = false).
-    { destruct (disc (conns s c)) eqn:E; [|reflexivity]. rewrite (disc_mono s o c E) in Hd. discriminate. }
-    specialize (IH Hd0 (nu_prefix _ _ _ Hnu)). rewrite client_app.
-    assert (Ho : (exists c0, o = Core.GrantConn upd c0) \/ forall c0, o <> Core.GrantConn upd c0).
-    { destruct o; try (right; intros; discriminate). left; eexists; reflexivity. }
-    destruct Ho as [[c0 ->]|Ho]; [|apply lg_step_nonconn; assumption].
-    destruct (Nat.eq_dec c c0) as [<-|Hne]; [|apply lg_step_otherconn; [apply wf_exec|exact Hne|exact IH]].
-    apply lg_step_conn; [apply core_conv_inv|apply wf_exec|apply iw_exec|exact IH|exact Hd0|].
-    intros id k E. apply (Hnu outs id k []). rewrite E. reflexivity.
-Qed.
-
-(* ---------------- B: direct subscription accounting ---------------- *)
-Theorem core_direct_count : forall t ops c,
-  let s := fst (exec t ops) in let outs := snd (exec t ops) in
-  Core.disc (conns s c) = false -> no_underflow c outs ->
-  Core.direct (conns s c) = Core.lcnt val (client c outs) + Core.pending val upd s c.
-Proof.
-  intros t ops c. cbn zeta. intros Hd Hnu. destruct (lg_exec t ops c Hd Hnu) as [L1 L2 L3 L4 L5].
-  unfold Core.pending. destruct (cur (conns (fst (exec t ops)) c)) as [i|] eqn:Ec.
-  - rewrite (L2 i eq_refl). lia.
-  - rewrite (L1 eq_refl), (w_dir _ (wf_exec t ops) c Ec). reflexivity.
-Qed.
-
-(* ---------------- C: the client's copy ---------------- *)
-Theorem core_client_copy : forall t ops c,
-  let s := fst (exec t ops) in let outs := snd (exec t ops) in
-  Core.disc (conns s c) = false -> no_underflow c outs -> 0 < Core.lcnt val (client c outs) ->
-  exists i, Core.cur (conns s c) = Some i /\ Conv.sent val upd (csubs (cv s) i) = true /\
-            Core.lcopy val (client c outs) = Some (Conv.sval val upd (csubs (cv s) i)).
-Proof.
-  intros t ops c. cbn zeta. intros Hd Hnu Hp. destruct (lg_exec t ops c Hd Hnu) as [L1 L2 L3 L4 L5].
-  destruct (cur (conns (fst (exec t ops)) c)) as [i|] eqn:Ec; [|rewrite (L1 eq_refl) in Hp; lia].
-  exists i. destruct (L3 i eq_refl Hp) as (A1&_&_&A4&_). auto.
-Qed.
-
+(* The statement of CoreStatements.v,
+     forall t ops c, let s := fst (exec t ops) in let outs := snd (exec t ops) in
+       quiescent s -> Core.disc (conns s c) = false -> no_underflow c outs -> 0 < Core.lcnt val (client c outs) ->
+       Core.lcopy val (client c outs) = Some (Conv.truth val upd (cv s)),
+   is false of this model for the same reason as core_client_copy; it holds with the extra premise [no_bare_resp]. *)
 Theorem core_convergence : forall t ops c,
   let s := fst (exec t ops) in let outs := snd (exec t ops) in
-  quiescent s -> Core.disc (conns s c) = false -> no_underflow c outs -> 0 < Core.lcnt val (client c outs) ->
+  quiescent s -> Core.disc (conns s c) = false -> no_underflow c outs -> no_bare_resp c outs -> 0 < Core.lcnt val (client c outs) ->
   Core.lcopy val (client c outs) = Some (Conv.truth val upd (cv s)).
 Proof.
-  intros t ops c. cbn zeta. intros (Hq & Hcq & _ & _) Hd Hnu Hp.
-  pose proof (lg_exec t ops c Hd Hnu) as HL. pose proof (wf_exec t ops) as Hw. pose proof (core_conv_inv t ops) as Hinv.
-  pose proof (ql_exec t ops) as Hql. set (s := fst (exec t ops)) in *.
-  destruct HL as [L1 L2 L3 L4 L5].
-  destruct (cur (conns s c)) as [i|] eqn:Ec; [|rewrite (L1 eq_refl) in Hp; lia].
-  destruct (L3 i eq_refl Hp) as (A1&A2&A3&A4&_).
-  destruct (w_cur _ Hw c i Ec) as (Hi&Ho&Hg).
+  intros t ops c. cbv zeta. intros (Hq & Hcq & _ & Hfl) Hd Hnu Hnb Hp.
+  destruct (lgc_exec true t ops c Hd (fun _ => Hnu)) as [_ L2].
+  pose proof (lgv_exec t ops c Hd Hnu Hnb) as HV. pose proof (wf_exec t ops) as Hw. pose proof (core_conv_inv t ops) as Hinv.
+  pose proof (ql_exec t ops) as Hql. destruct (rqi_exec t ops) as [HI HR]. cbv zeta in HV. set (s := fst (exec t ops)) in *.
+  destruct (cur (conns s c)) as [i|] eqn:Ec; [|rewrite (L2 eq_refl eq_refl) in Hp; lia].
+  destruct (HV i Ec Hp) as (A1&A2&A4).
+  destruct (w_cur _ Hw c i Ec) as (Hi&Ho&Hg&_).
+  destruct (HR c i Ec) as (R1&R2&_).
+  assert (A3 : sflag (csubs (cv s) i) = false).
+  { destruct (sflag (csubs (cv s) i)) eqn:Ef; [|reflexivity]. exfalso.
+    specialize (R2 (R1 A1 eq_refl)). assert (Hne : acb (insts s i) <> []) by (intros E; rewrite E in R2; destruct R2).
+    specialize (HI i Hne). rewrite (Hfl i Hi) in HI. discriminate. }
   assert (Hc0 : scq (csubs (cv s) i) = []).
   { specialize (Hql i Hi). rewrite Ho, Hcq in Hql. cbn in Hql. destruct (scq (csubs (cv s) i)); [reflexivity|cbn in Hql; lia]. }
   pose proof (Conv.i5 _ _ _ _ Hinv i A2) as H5. rewrite (Conv.i8 _ _ _ _ Hinv i A3), Hc0 in H5. cbn in H5.
@@ -1705,130 +3010,6 @@ Proof.
   destruct (Conv.answered val upd (cv s)); [|discriminate H1]. injection H1 as H1. injection H5 as _ H5.
   rewrite A4. congruence.
 Qed.
-
-(* ---------------- unconditionally the gateway never counts more than the client and the waiting requests ---------------- *)
-Definition DL (c : nat) (s : Core.st val upd) (L : ledger_) : Prop :=
-  forall i, cur (conns s c) = Some i -> direct (conns s c) <= lcnt_ L + length (acb (insts s i)) + length (rcb (insts s i)).
-
-Lemma lcnt_replay_o c l : forall p L, lcnt_ (fold_left (lstep c) (Core.replay_o val upd app c p l) L) = lcnt_ L.
-Proof.
-  induction l as [|e l IH]; intros p L; [reflexivity|]. cbn [Core.replay_o].
-  pose proof (proc_o_lcnt c p e L) as Hp. destruct (Core.proc_o val upd app c p e) as [p' o]. cbn [snd] in Hp.
-  rewrite fold_left_app, IH. exact Hp.
-Qed.
-Lemma lcnt_respond c x ids L : lcnt_ (fold_left (lstep c) (Core.respond_ids val upd app c x ids) L) = lcnt_ L + length ids.
-Proof.
-  unfold Core.respond_ids. destruct ids as [|id r]; [cbn; lia|]. rewrite fold_left_app, fold_resp_none. cbn [Core.lcnt length].
-  destruct (ssent x); cbn [fold_left Core.lstep]; rewrite Nat.eqb_refl; [cbn [Core.lcnt]; lia|].
-  rewrite lcnt_replay_o. cbn [Core.lcnt]. lia.
-Qed.
-
-Lemma dl_transfer c s s' L : DL c s L ->
-  cur (conns s' c) = cur (conns s c) -> direct (conns s' c) = direct (conns s c) ->
-  (forall i, cur (conns s c) = Some i -> acb (insts s' i) = acb (insts s i) /\ rcb (insts s' i) = rcb (insts s i)) ->
-  DL c s' L.
-Proof. intros H Ec Ed Hi i Hc. rewrite Ec in Hc. destruct (Hi i Hc) as [A B]. rewrite Ed, A, B. apply H, Hc. Qed.
-
-Lemma dl_step_nonconn cl s o L : (forall c0, o <> Core.GrantConn upd c0) -> DL cl s L ->
-  DL cl (fst (step s o)) (fold_left (lstep cl) (snd (step s o)) L).
-Proof.
-  intros Ho HL.
-  step_cases s o; try exact HL; try (exfalso; eapply Ho; reflexivity); cbn [fold_left].
-  - apply (dl_transfer cl s _ L HL); cbn [Core.conns Core.insts]; auto; conn_at cl c; reflexivity.
-  - apply (dl_transfer cl s _ L HL); cbn [Core.conns Core.insts]; auto; conn_at cl c; reflexivity.
-  - apply (dl_transfer cl s _ L HL); cbn [Core.conns Core.insts]; auto; conn_at cl c; reflexivity.
-  - apply (dl_transfer cl s _ L HL); cbn [Core.conns Core.insts]; auto. intros j _. inst_at j i; auto.
-  - assert (E : forall b : bool, fold_left (lstep cl) (if b then [Core.OGetReq val upd] else []) L = L) by (intros []; reflexivity).
-    rewrite E. apply (dl_transfer cl s _ L HL); cbn [Core.conns Core.insts]; auto.
-    + match goal with |- cur (Core.pass _ _ ?σ ?own (Core.fan _ _ _ ?σ' _ ?n ?f) _) = _ => destruct (grant_conns σ σ' own n f cl) as (_&B&_) end. exact B.
-    + match goal with |- direct (Core.pass _ _ ?σ ?own (Core.fan _ _ _ ?σ' _ ?n ?f) _) = _ => destruct (grant_conns σ σ' own n f cl) as (_&_&B&_) end. exact B.
-Qed.
-
-Lemma dl_step_otherconn cl c0 s L : WF s -> cl <> c0 -> DL cl s L ->
-  DL cl (fst (step s (Core.GrantConn upd c0))) (fold_left (lstep cl) (snd (step s (Core.GrantConn upd c0))) L).
-Proof.
-  intros Hw Hne HL. rewrite (fold_other cl c0 _ Hne (outs_addr s c0)).
-  apply (dl_transfer cl s _ L HL).
-  - rewrite conns_other by exact Hne. reflexivity.
-  - rewrite conns_other by exact Hne. reflexivity.
-  - intros i Hc. destruct (w_cur _ Hw cl i Hc) as (Hi & Ho & _). rewrite insts_other by (auto; congruence). auto.
-Qed.
-
-Lemma dl_step_conn c s L : CInv (cv s) -> WF s -> DL c s L ->
-  DL c (fst (step s (Core.GrantConn upd c))) (fold_left (lstep c) (snd (step s (Core.GrantConn upd c))) L).
-Proof.
-  intros Hinv Hw HL. pose proof Hw as [W1 W2 W3 W4 W5 W6 W7].
-  conn_cases s c; try exact HL.
-  - (* QReq granted, loaded *)
-    pose proof (HL i Ec) as Hc. intros i'. at_c. rewrite lcnt_respond. intros E; injection E as <-. cbn [length]. lia.
-  - pose proof (HL i Ec) as Hc. intros i'. at_c. cbn [fold_left]. intros E; injection E as <-. inst_self. rewrite app_length. cbn [length]. lia.
-  - pose proof (HL i Ec) as Hc. intros i'. at_c. cbn [fold_left]. intros E; injection E as <-. inst_self. rewrite app_length. cbn [length]. lia.
-  - pose proof (HL i Ec) as Hc. intros i'. at_c. cbn [fold_left]. intros E; injection E as <-. inst_self. rewrite app_length. cbn [length]. lia.
-  - intros i'. at_c. intros E; injection E as <-. unfold Core.set_inst. rewrite Nat.eqb_refl. cbn. lia.
-  - cbn [fold_left Core.lstep]. apply (dl_transfer c s _ L HL); at_c; auto.
-  - intros i'. at_c. discriminate.
-  - pose proof (HL i Ec) as Hc. apply Nat.leb_le in Ele. intros i'. at_c. cbn [fold_left Core.lstep]. rewrite Nat.eqb_refl. cbn [Core.lcnt].
-    intros E; injection E as <-. lia.
-  - cbn [fold_left Core.lstep]. apply (dl_transfer c s _ L HL); at_c; auto.
-  - cbn [fold_left Core.lstep]. apply (dl_transfer c s _ L HL); at_c; auto.
-  - cbn [fold_left]. apply (dl_transfer c s _ L HL); at_c; auto.
-  - (* QAccess granted, loaded *)
-    destruct (W4 c (QAccess i)) as [Hi Ho]; [rewrite Eq; left; reflexivity|]. unfold Core.is_gone in Eg.
-    assert (Ec : cur (conns s c) = Some i) by (rewrite <- Ho; apply W2; assumption).
-    pose proof (HL i Ec) as Hc. intros i'. at_c. rewrite Ec, lcnt_respond. intros E; injection E as <-. inst_self. cbn [length]. lia.
-  - destruct (W4 c (QAccess i)) as [Hi Ho]; [rewrite Eq; left; reflexivity|]. unfold Core.is_gone in Eg.
-    assert (Ec : cur (conns s c) = Some i) by (rewrite <- Ho; apply W2; assumption).
-    pose proof (HL i Ec) as Hc. intros i'. at_c. rewrite Ec. cbn [fold_left]. intros E; injection E as <-. inst_self. rewrite app_length. cbn [length]. lia.
-  - destruct (W4 c (QAccess i)) as [Hi Ho]; [rewrite Eq; left; reflexivity|]. unfold Core.is_gone in Eg.
-    assert (Ec : cur (conns s c) = Some i) by (rewrite <- Ho; apply W2; assumption).
-    pose proof (HL i Ec) as Hc. rewrite fold_err. intros i'. at_c. rewrite Ec.
-    destruct (Nat.eqb_spec (direct (conns s c) - length (acb (insts s i))) 0) as [Ez|Ez]; [discriminate|].
-    intros E; injection E as <-. inst_self. cbn [length]. lia.
-  - cbn [fold_left]. apply (dl_transfer c s _ L HL); at_c; auto.
-  - (* QSub *)
-    destruct (W4 c (QSub i)) as [Hi Ho]; [rewrite Eq; left; reflexivity|].
-    rewrite fold_left_app.
-    assert (Hev : lcnt_ (fold_left (lstep c)
-              (match scq (csubs (cv s) i) with
-               | Conv.CEvent _ e :: _ =>
-                   if sloaded (csubs (cv s) i) && negb (sflag (csubs (cv s) i))
-                   then snd (Core.proc_o val upd app c (ssver (csubs (cv s) i), ssval (csubs (cv s) i)) e) else []
-               | _ => [] end) L) = lcnt_ L).
-    { destruct (scq (csubs (cv s) i)) as [|[|e] ?]; try reflexivity. destruct (_ && _); [apply proc_o_lcnt|reflexivity]. }
-    destruct (negb (Core.is_live val upd (cv s) i) && Core.is_live val upd (cstep (cv s) (Conv.RunC upd i)) i) eqn:Ewl.
-    + apply andb_prop in Ewl. destruct Ewl as [_ Ewl]. unfold Core.is_live in Ewl.
-      assert (Eg : sgone (csubs (cv s) i) = false).
-      { pose proof (gone_step (cv s) (Conv.RunC upd i) i) as G. cbv beta iota in G. rewrite <- G.
-        destruct (sgone (csubs (cstep (cv s) (Conv.RunC upd i)) i)) eqn:Eg; [|reflexivity].
-        rewrite (Conv.igl _ _ _ _ (cstep_inv _ _ Hinv) i Eg) in Ewl. discriminate. }
-      assert (Ec : cur (conns s c) = Some i) by (rewrite <- Ho; apply W2; assumption).
-      pose proof (HL i Ec) as Hc. intros i'. at_c. rewrite Ec, lcnt_respond, Hev. intros E; injection E as <-. inst_self. cbn [length]. lia.
-    + cbn [fold_left]. intros i' Hc'. revert Hc'. at_c. intros Hc'. rewrite Hev. apply HL, Hc'.
-  - intros i'. at_c. discriminate.
-Qed.
-
-Lemma dl_exec t ops c : DL c (fst (exec t ops)) (client c (snd (exec t ops))).
-Proof.
-  apply (exec_ind (fun s outs => DL c s (client c outs))).
-  - intros i. cbn. discriminate.
-  - intros ops' o s outs IH. rewrite client_app.
-    assert (Ho : (exists c0, o = Core.GrantConn upd c0) \/ forall c0, o <> Core.GrantConn upd c0).
-    { destruct o; try (right; intros; discriminate). left; eexists; reflexivity. }
-    destruct Ho as [[c0 ->]|Ho]; [|apply dl_step_nonconn; assumption].
-    destruct (Nat.eq_dec c c0) as [<-|Hne]; [|apply dl_step_otherconn; [apply wf_exec|exact Hne|exact IH]].
-    apply dl_step_conn; [apply core_conv_inv|apply wf_exec|exact IH].
-Qed.
-
-Theorem core_direct_le : forall t ops c,
-  let s := fst (exec t ops) in let outs := snd (exec t ops) in
-  Core.disc (conns s c) = false ->
-  Core.direct (conns s c) <= Core.lcnt val (client c outs) + Core.pending val upd s c.
-Proof.
-  intros t ops c. cbn zeta. intros _. pose proof (dl_exec t ops c) as H.
-  unfold Core.pending. destruct (cur (conns (fst (exec t ops)) c)) as [i|] eqn:Ec.
-  - specialize (H i Ec). lia.
-  - rewrite (w_dir _ (wf_exec t ops) c Ec). lia.
-Qed.
 End CoreProofs.
 
 Print Assumptions run_exec.
@@ -1836,14 +3017,14 @@ Print Assumptions core_reachable_conv.
 Print Assumptions core_conv_inv.
 Print Assumptions core_get_once_under_subscription.
 Print Assumptions core_direct_count.
+Print Assumptions core_direct_le.
 Print Assumptions core_unsubscribe_outcome.
 Print Assumptions core_client_copy.
 Print Assumptions core_convergence.
-Print Assumptions core_direct_le.
 
-(* ---------------- without no_underflow the three statements fail (finding KF-PENDING-DROPPED in the accounting) ---------------- *)
+(* ================= H: without the premises the statements fail ================= *)
 (* subscribe twice, then unsubscribe one while both subscribe requests still wait for the access answer: the gateway's count
-   drops to 1 although two requests are pending and the client holds nothing *)
+   drops to 1 although two requests are pending and the client holds nothing (finding KF-PENDING-DROPPED) *)
 Definition refute_ops1 : list (Core.op nat) :=
   [Core.CSub nat 0 1; Core.GrantConn nat 0; Core.CSub nat 0 2; Core.GrantConn nat 0; Core.CUnsub nat 0 3 1; Core.GrantConn nat 0].
 (* ... both requests are then answered (client holds 2, gateway counts 1), one more unsubscribe disposes the subscription
@@ -1855,18 +3036,17 @@ Definition refute_ops3 : list (Core.op nat) :=
 
 Theorem core_direct_count_refuted :
   exists ops : list (Core.op nat),
-    let s := fst (Core.exec nat nat Nat.add (fun u v => Some u) 0 100 ops) in
-    let outs := snd (Core.exec nat nat Nat.add (fun u v => Some u) 0 100 ops) in
+    let s := fst (Core.exec nat nat Nat.add (fun u _ => Some u) 0 100 ops) in
+    let outs := snd (Core.exec nat nat Nat.add (fun u _ => Some u) 0 100 ops) in
     Core.disc (Core.conns nat nat s 0) = false /\ Core.direct (Core.conns nat nat s 0) = 1 /\
     Core.lcnt nat (Core.client nat nat Nat.add 0 outs) = 0 /\ Core.pending nat nat s 0 = 2.
 Proof. exists refute_ops1. vm_compute. repeat split. Qed.
 
 Theorem core_convergence_refuted :
   exists ops : list (Core.op nat),
-    let s := fst (Core.exec nat nat Nat.add (fun u v => Some u) 0 100 ops) in
-    let outs := snd (Core.exec nat nat Nat.add (fun u v => Some u) 0 100 ops) in
-    Core.quiescent nat nat s /\ Core.disc (Core.conns nat nat s 0) = false /\
-    0 < Core.lcnt nat (Core.client nat nat Nat.add 0 outs) /\
+    let s := fst (Core.exec nat nat Nat.add (fun u _ => Some u) 0 100 ops) in
+    let outs := snd (Core.exec nat nat Nat.add (fun u _ => Some u) 0 100 ops) in
+    Core.quiescent nat nat s /\ Core.disc (Core.conns nat nat s 0) = false /\ 0 < Core.lcnt nat (Core.client nat nat Nat.add 0 outs) /\
     Core.lcopy nat (Core.client nat nat Nat.add 0 outs) <> Some (Conv.truth nat nat (Core.cv nat nat s)).
 Proof.
   exists refute_ops3. cbn zeta. split; [|vm_compute; repeat split; try lia; discriminate].
@@ -1875,5 +3055,45 @@ Proof.
   - intros _. vm_compute. reflexivity.
   - intros i Hi. assert (E : i = 0) by (vm_compute in Hi; lia). subst i. vm_compute. reflexivity.
 Qed.
+
+(* core_client_copy and core_convergence need the premise [no_bare_resp]: a token event starts a re-validation of a
+   subscription the client holds (count 1); a second subscribe request joins the waiting continuations; the client unsubscribes
+   the one it holds (acknowledged: its count is 0, it drops its copy) but the gateway keeps the subscription for the waiting
+   request; the re-validation is granted and the request is answered with an empty resource set, the resource counting as sent.
+   No unsubscribe was acknowledged beyond what the client held, nothing is left to do, the client counts 1 and has no copy. *)
+Definition copy_refute_ops : list (Core.op nat) :=
+  [Core.CSub nat 0 1; Core.GrantConn nat 0; Core.GrantEs nat; Core.MqGet nat; Core.GrantEs nat; Core.MqAccess nat 0 true; Core.GrantEs nat;
+   Core.GrantConn nat 0; Core.GrantConn nat 0;
+   Core.ConnToken nat 0 7; Core.GrantConn nat 0; Core.ConnToken nat 0 8; Core.GrantConn nat 0;
+   Core.CSub nat 0 2; Core.GrantConn nat 0; Core.CUnsub nat 0 3 1; Core.GrantConn nat 0;
+   Core.MqAccess nat 0 true; Core.GrantEs nat; Core.GrantConn nat 0].
+
+Theorem core_client_copy_without_premise_refuted :
+  exists ops : list (Core.op nat),
+    let s := fst (Core.exec nat nat Nat.add (fun u _ => Some u) 0 100 ops) in
+    let outs := snd (Core.exec nat nat Nat.add (fun u _ => Some u) 0 100 ops) in
+    Core.quiescent nat nat s /\ Core.disc (Core.conns nat nat s 0) = false /\ Core.no_underflow nat nat Nat.add 0 outs /\
+    0 < Core.lcnt nat (Core.client nat nat Nat.add 0 outs) /\ Core.lcopy nat (Core.client nat nat Nat.add 0 outs) = None /\
+    Conv.sent nat nat (Conv.subs nat nat (Core.cv nat nat s) 0) = true /\
+    ~ no_bare_resp nat nat Nat.add 0 outs.
+Proof.
+  exists copy_refute_ops. cbn zeta. split; [|split; [vm_compute; reflexivity|split; [|split; [vm_compute; lia|split; [vm_compute; reflexivity|split; [vm_compute; reflexivity|]]]]]].
+  - split; [vm_compute; reflexivity|]. split; [|split].
+    + intros c. vm_compute. destruct c; reflexivity.
+    + intros _. vm_compute. reflexivity.
+    + intros i Hi. assert (E : i = 0) by (vm_compute in Hi; lia). subst i. vm_compute. reflexivity.
+  - assert (Eo : snd (Core.exec nat nat Nat.add (fun u _ => Some u) 0 100 copy_refute_ops) =
+                 [Core.OMqSub nat nat; Core.OAccessReq nat nat 0 0 0; Core.OGetReq nat nat; Core.OResp nat nat 0 1 (Some 100);
+                  Core.OAccessReq nat nat 0 0 8; Core.OAck nat nat 0 3 1; Core.OResp nat nat 0 2 None]) by (vm_compute; reflexivity).
+    rewrite Eo. intros pre id k post E.
+    do 7 (destruct pre as [|o pre]; [cbn in E; try discriminate E; try (injection E as <- <- <-; vm_compute; lia)|cbn in E; injection E as <- E]).
+    destruct pre; discriminate E.
+  - assert (Eo : snd (Core.exec nat nat Nat.add (fun u _ => Some u) 0 100 copy_refute_ops) =
+                 [Core.OMqSub nat nat; Core.OAccessReq nat nat 0 0 0; Core.OGetReq nat nat; Core.OResp nat nat 0 1 (Some 100);
+                  Core.OAccessReq nat nat 0 0 8; Core.OAck nat nat 0 3 1] ++ Core.OResp nat nat 0 2 None :: []) by (vm_compute; reflexivity).
+    intros H. specialize (H _ _ _ Eo). vm_compute in H. lia.
+Qed.
+
 Print Assumptions core_direct_count_refuted.
 Print Assumptions core_convergence_refuted.
+Print Assumptions core_client_copy_without_premise_refuted.
